@@ -1,16 +1,11 @@
-import Blots.Model.ExprPeg
-import Blots.Lemmas.ExprPegFuel
-import Blots.Lemmas.IdentLemmas
-import Blots.Lemmas.PrattRoundTrip
-import Blots.Lemmas.SrcNumber
-import Blots.Lemmas.PrintLemmas
+import Blots.Lemmas.ExprPegOps
 /-
-  Text-level round trip for the operator fragment (C10):
+  Text-level round trip for the fragment (C10), part 2 (part 1: `Lemmas/ExprPegOps.lean`):
 
-  * `CST`            : concrete syntax trees of the fragment — operator trees with the layout
-                       strings and the parentheses written out; `CST.text` the characters,
-                       `CST.items` the item sequence pest hands to the Pratt parser,
-                       `CST.tree` the abstract tree (parentheses erased);
+  * `CST` / `Args`   : concrete syntax trees of the fragment — operator trees, calls, index and
+                       field accesses, with the layout strings and the parentheses written
+                       out; `CST.text` the characters, `CST.items` the item sequence pest hands
+                       to the Pratt parser, `CST.tree` the abstract tree (parentheses erased);
   * `CST.WF`         : parentheses present wherever `needsParens` asks for them (more are
                        allowed), atoms of the fragment, admissible layout;
   * `lex_cst`        : the PEG model `exprR` splits `c.text` into exactly `c.items`
@@ -23,722 +18,83 @@ set_option linter.unusedSimpArgs false
 namespace Blots.ExprPeg
 open Blots.Ident
 
-/-! ### (0) layout strings -/
-
-/-- the layout atoms the theorems range over: space, tab, line feed, CR LF.  (The grammar's
-    NEWLINE also admits an `inline_comment` before the line break; comments are part of the
-    MODEL (`newline`) but are left out of the layout theorems: a comment directly after `/`
-    would read `///…`, which the grammar takes as a comment, not as the operator.) -/
-inductive LayAtom where
-  | sp | tab | lf | crlf
-  deriving DecidableEq, Repr
-
-abbrev Lay := List LayAtom
-
-def LayAtom.chars : LayAtom → List Char
-  | .sp => [' ']
-  | .tab => ['\t']
-  | .lf => ['\n']
-  | .crlf => ['\r', '\n']
-
-/-- WHITESPACE atoms (the only ones allowed after a word operator) -/
-def LayAtom.isWs : LayAtom → Bool
-  | .sp | .tab => true
-  | _ => false
-
-def layChars : Lay → List Char
-  | [] => []
-  | a :: l => a.chars ++ layChars l
-
-theorem layChars_append (a b : Lay) : layChars (a ++ b) = layChars a ++ layChars b := by
-  induction a with
-  | nil => rfl
-  | cons x a ih => simp [layChars, ih]
-
-/-- a character that can follow layout in the fragment without being layout itself: not a
-    blank, not part of a line break, not `/` (which could start a comment) -/
-def notLayoutStart (c : Char) : Bool := !(c == ' ' || c == '\t' || c == '\n' || c == '\r' || c == '/')
-
-theorem layoutAtom_atom (a : LayAtom) (rest : List Char) :
-    layoutAtom (a.chars ++ rest) = some rest := by
-  cases a <;> simp [LayAtom.chars, layoutAtom, orElse, whitespace, isWs, newline, inlineComment,
-    plainNewline, lit]
-
-theorem layoutAtom_nil : layoutAtom [] = none := by
-  simp [layoutAtom, orElse, whitespace, newline, inlineComment, plainNewline, lit]
-
-theorem layoutAtom_none {c : Char} {r : List Char} (h : notLayoutStart c = true) :
-    layoutAtom (c :: r) = none := by
-  simp only [notLayoutStart, Bool.not_eq_true', Bool.or_eq_false_iff, beq_eq_false_iff_ne, ne_eq] at h
-  obtain ⟨⟨⟨⟨h1, h2⟩, h3⟩, h4⟩, h5⟩ := h
-  have e1 : ¬ ('/' = c) := fun e => h5 e.symm
-  have e2 : ¬ ('\r' = c) := fun e => h4 e.symm
-  have e3 : ¬ ('\n' = c) := fun e => h3 e.symm
-  simp [layoutAtom, orElse, whitespace, isWs, newline, inlineComment, plainNewline, lit, h1, h2,
-    e1, e2, e3]
-
-/-- `/` followed by something that is not `/` is not layout either (the divide operator) -/
-theorem layoutAtom_slash {c : Char} {r : List Char} (h : c ≠ '/') :
-    layoutAtom ('/' :: c :: r) = none := by
-  have e1 : ¬ ('/' = c) := fun e => h e.symm
-  simp [layoutAtom, orElse, whitespace, isWs, newline, inlineComment, plainNewline, lit, e1]
-
-theorem star_layout_run (n : Nat) (l : Lay) (rest : List Char) (hn : l.length < n)
-    (hr : layoutAtom rest = none) : star layoutAtom n (layChars l ++ rest) = rest := by
-  induction n generalizing l with
-  | zero => exact absurd hn (Nat.not_lt_zero _)
-  | succ m ih =>
-    cases l with
-    | nil => simp [layChars, star, hr]
-    | cons a l =>
-      simp only [layChars, List.append_assoc, star, layoutAtom_atom]
-      exact ih l (by simp only [List.length_cons] at hn; omega)
-
-theorem LayAtom.chars_length_pos (a : LayAtom) : 0 < a.chars.length := by
-  cases a <;> simp [LayAtom.chars]
-
-theorem layChars_length (l : Lay) : l.length ≤ (layChars l).length := by
-  induction l with
-  | nil => simp [layChars]
-  | cons a l ih =>
-    have := a.chars_length_pos
-    simp only [layChars, List.length_cons, List.length_append]; omega
-
-/-- `(WHITESPACE | NEWLINE)*` consumes exactly a layout string in front of non-layout -/
-theorem layoutStar_run (l : Lay) (rest : List Char) (hr : layoutAtom rest = none) :
-    layoutStar (layChars l ++ rest) = rest := by
-  unfold layoutStar
-  apply star_layout_run _ _ _ _ hr
-  have := layChars_length l
-  simp only [List.length_append]; omega
-
-theorem layoutPlus_run (l : Lay) (hl : l ≠ []) (rest : List Char) (hr : layoutAtom rest = none) :
-    layoutPlus (layChars l ++ rest) = some rest := by
-  cases l with
-  | nil => exact absurd rfl hl
-  | cons a l =>
-    simp only [layoutPlus, layChars, List.append_assoc, layoutAtom_atom, Option.map_some,
-      layoutStar_run l rest hr]
-
-theorem layoutPlus_none {cs : List Char} (h : layoutAtom cs = none) : layoutPlus cs = none := by
-  simp [layoutPlus, h]
-
-/-- WHITESPACE-only layout -/
-def wsOnly (l : Lay) : Bool := l.all LayAtom.isWs
-
-theorem wsPlus_run (l : Lay) (hl : l ≠ []) (hw : wsOnly l = true) (c : Char) (rest : List Char)
-    (hc : isWs c = false) : wsPlus (layChars l ++ c :: rest) = some (c :: rest) := by
-  have key : ∀ l : Lay, wsOnly l = true → (layChars l ++ c :: rest).dropWhile isWs = c :: rest := by
-    intro l
-    induction l with
-    | nil => intro _; simp [layChars, List.dropWhile, hc]
-    | cons a l ih =>
-      intro h
-      simp only [wsOnly, List.all_cons, Bool.and_eq_true] at h
-      have := ih h.2
-      cases a <;> simp_all [LayAtom.isWs, LayAtom.chars, layChars, List.dropWhile, isWs]
-  cases l with
-  | nil => exact absurd rfl hl
-  | cons a l =>
-    simp only [wsOnly, List.all_cons, Bool.and_eq_true] at hw
-    have := key l hw.2
-    cases a <;> simp_all [LayAtom.isWs, LayAtom.chars, layChars, wsPlus, plus, isWs]
-
-theorem lay_head (b : Lay) (c : Char) (tl : List Char) (P : Char → Prop)
-    (h1 : P ' ') (h2 : P '\t') (h3 : P '\n') (h4 : P '\r') (hc : P c) :
-    ∃ d tl', layChars b ++ c :: tl = d :: tl' ∧ P d := by
-  cases b with
-  | nil => exact ⟨c, tl, rfl, hc⟩
-  | cons a b => cases a <;> simp [layChars, LayAtom.chars, *]
-
-/-! ### (1) ordered choice over operator literals -/
-
-/-- no alternative starts with the character the input starts with -/
-theorem firstRule_none_of_heads {L : List (String × List Char)} {c : Char} {tl : List Char}
-    (h : ∀ x ∈ L, ∃ a t, x.2 = a :: t ∧ a ≠ c) : firstRule L (c :: tl) = none := by
-  induction L with
-  | nil => rfl
-  | cons x L ih =>
-    obtain ⟨r', s'⟩ := x
-    obtain ⟨a, t, e, hne⟩ := h (r', s') List.mem_cons_self
-    simp only at e
-    subst e
-    simp only [firstRule, lit, hne, if_false]
-    exact ih (fun y hy => h y (List.mem_cons_of_mem _ hy))
-
-theorem firstRule_nil (L : List (String × List Char)) (h : ∀ x ∈ L, x.2 ≠ []) :
-    firstRule L [] = none := by
-  induction L with
-  | nil => rfl
-  | cons x L ih =>
-    obtain ⟨r', s'⟩ := x
-    have : s' ≠ [] := h (r', s') List.mem_cons_self
-    cases s' with
-    | nil => exact absurd rfl this
-    | cons a t =>
-      simp only [firstRule, lit]
-      exact ih (fun y hy => h y (List.mem_cons_of_mem _ hy))
-
-/-- For the literal `s` of `rule` in the ordered choice `L`: the characters that, directly
-    after `s`, would let an alternative listed BEFORE it match instead (`none`: `s` is not
-    reachable at all — an earlier literal is a prefix of it, or it is not in the list). -/
-def hitBad : List (String × List Char) → String → List Char → Option (List Char)
-  | [], _, _ => none
-  | (r', s') :: more, rule, s =>
-    if s' = s then (if r' = rule then some [] else none)
-    else if (lit s' s).isSome then none
-    else
-      match lit s s' with
-      | some (c :: _) => (hitBad more rule s).map (c :: ·)
-      | _ => hitBad more rule s
-
-theorem firstRule_hit {L : List (String × List Char)} {rule : String} {s bad : List Char}
-    {c : Char} {tl : List Char} (h : hitBad L rule s = some bad) (hc : c ∉ bad) :
-    firstRule L (s ++ c :: tl) = some (rule, c :: tl) := by
-  induction L generalizing bad with
-  | nil => simp [hitBad] at h
-  | cons x L ih =>
-    obtain ⟨r', s'⟩ := x
-    simp only [hitBad] at h
-    by_cases e : s' = s
-    · subst e
-      simp only [if_true] at h
-      split at h
-      · rename_i hr; subst hr
-        simp [firstRule, lit_append]
-      · cases h
-    · simp only [e, if_false] at h
-      split at h
-      · cases h
-      · rename_i hpre
-        -- `s'` does not match at `s ++ c :: tl`
-        have hno : lit s' (s ++ c :: tl) = none := by
-          cases hl : lit s' (s ++ c :: tl) with
-          | none => rfl
-          | some r =>
-            exfalso
-            have he := lit_eq_some.mp hl
-            rcases List.append_eq_append_iff.mp he with ⟨a', hsa, hra⟩ | ⟨c', hsc, _⟩
-            · cases a' with
-              | nil => simp only [List.append_nil] at hsa; exact e hsa
-              | cons x a'' =>
-                simp only [List.cons_append, List.cons.injEq] at hra
-                obtain ⟨rfl, _⟩ := hra
-                have hls : lit s s' = some (c :: a'') := lit_eq_some.mpr hsa
-                rw [hls] at h
-                simp only [Option.map_eq_some_iff] at h
-                obtain ⟨b', _, rfl⟩ := h
-                exact hc List.mem_cons_self
-            · have : lit s' s = some c' := lit_eq_some.mpr hsc
-              rw [this] at hpre
-              exact hpre rfl
-        simp only [firstRule, hno]
-        split at h
-        · simp only [Option.map_eq_some_iff] at h
-          obtain ⟨b', hb, rfl⟩ := h
-          exact ih hb (fun hm => hc (List.mem_cons_of_mem _ hm))
-        · exact ih h hc
-
-/-! ### (2) the operator tables -/
-
-/-- the word operators (`natural_infix_op`) -/
-def isWordOp (op : BinOp) : Bool := Gen.naturalOrder.contains (PrattRT.ruleOf op)
-
-/-- spelling the printer uses, as characters -/
-def spell (op : BinOp) : List Char := (opSpelling op).toList
-
-/-- what the proofs need to know about a symbol operator -/
-def symOk (op : BinOp) : Bool :=
-  (match hitBad infixLits (PrattRT.ruleOf op) (spell op) with
-   | some bad => bad.all (· == '=')
-   | none => false) &&
-  (match spell op with
-   | [] => false
-   | h :: t =>
-     (notLayoutStart h || (h == '/' && t.isEmpty)) && !isIdentChar h &&
-       naturalLits.all (fun x => match x.2 with | [] => false | a :: _ => a != h))
-
-/-- what the proofs need to know about a word operator -/
-def wordOk (op : BinOp) : Bool :=
-  (match hitBad naturalLits (PrattRT.ruleOf op) (spell op) with
-   | some bad => bad.all (fun c => !isWs c)
-   | none => false) &&
-  (match spell op with
-   | [] => false
-   | h :: _ => notLayoutStart h)
-
-theorem all_opFacts :
-    (BinOp.all.all fun op => if isWordOp op then wordOk op else symOk op) = true := by
-  decide +kernel
-
-theorem symOk_of (op : BinOp) (h : isWordOp op = false) : symOk op = true := by
-  have := List.all_eq_true.mp all_opFacts op (PrattRT.BinOp.mem_all op)
-  simpa [h] using this
-
-theorem wordOk_of (op : BinOp) (h : isWordOp op = true) : wordOk op = true := by
-  have := List.all_eq_true.mp all_opFacts op (PrattRT.BinOp.mem_all op)
-  simpa [h] using this
-
-theorem prefixLits_eq : prefixLits = [("negation", ['-']), ("invert", ['!'])] := by decide +kernel
-theorem naturalPrefixLits_eq : naturalPrefixLits = [("natural_not", ['n', 'o', 't'])] := by
-  decide +kernel
-theorem postfixLits_eq : postfixLits = [("factorial", ['!'])] := by decide +kernel
-theorem infixLits_ne : ∀ x ∈ infixLits, x.2 ≠ [] := by decide +kernel
-theorem naturalLits_ne : ∀ x ∈ naturalLits, x.2 ≠ [] := by decide +kernel
-
-/-- every literal of the list starts with a character other than `c` -/
-def headsNe (L : List (String × List Char)) (c : Char) : Bool :=
-  L.all fun x => match x.2 with | [] => false | a :: _ => a != c
-
-theorem firstRule_none_of_headsNe {L : List (String × List Char)} {c : Char} {tl : List Char}
-    (h : headsNe L c = true) : firstRule L (c :: tl) = none := by
-  apply firstRule_none_of_heads
-  intro x hx
-  have := List.all_eq_true.mp h x hx
-  split at this
-  · cases this
-  · rename_i a t e; exact ⟨a, t, e, by simpa using this⟩
-
-/-- first character of an operand text: a prefix operator, an opening parenthesis, or the
-    first character of a word / number -/
-def startChar (c : Char) : Bool := c == '-' || c == '!' || c == '(' || isIdentChar c
-
-theorem isIdentChar_cases {c : Char} (h : isIdentChar c = true) :
-    c ≠ ' ' ∧ c ≠ '\t' ∧ c ≠ '\n' ∧ c ≠ '\r' ∧ c ≠ '/' ∧ c ≠ '=' ∧ c ≠ '!' ∧ c ≠ '-' ∧ c ≠ '(' ∧
-      c ≠ ')' := by
-  refine ⟨?_, ?_, ?_, ?_, ?_, ?_, ?_, ?_, ?_, ?_⟩ <;> (intro e; subst e; revert h; decide)
-
-theorem startChar_facts {c : Char} (h : startChar c = true) :
-    notLayoutStart c = true ∧ c ≠ '=' ∧ c ≠ '/' ∧ isWs c = false ∧ c ≠ ')' := by
-  simp only [startChar, Bool.or_eq_true, beq_iff_eq] at h
-  rcases h with ((h | h) | h) | h
-  · subst h; decide
-  · subst h; decide
-  · subst h; decide
-  · obtain ⟨h1, h2, h3, h4, h5, h6, _, _, _, h10⟩ := isIdentChar_cases h
-    simp [notLayoutStart, isWs, *]
-
-/-! ### (3) `infix_usage` on an operator with its layout -/
-
-/-- when the word-operator alternative of `infix_usage` fails, the symbol alternative decides -/
-theorem infixUsage_alt2 {cs : List Char}
-    (h : ∀ r, layoutPlus cs = some r → firstRule naturalLits r = none) :
-    infixUsage cs = (firstRule infixLits (layoutStar cs)).map fun x => (x.1, layoutStar x.2) := by
-  unfold infixUsage
-  cases hp : layoutPlus cs with
-  | none =>
-    simp only []
-    cases firstRule infixLits (layoutStar cs) with
-    | none => rfl
-    | some x => obtain ⟨_, _⟩ := x; rfl
-  | some r =>
-    simp only [h r hp]
-    cases firstRule infixLits (layoutStar cs) with
-    | none => rfl
-    | some x => obtain ⟨_, _⟩ := x; rfl
-
-theorem infixUsage_sym (op : BinOp) (hw : isWordOp op = false) (a b : Lay) (c : Char)
-    (tl : List Char) (hc : startChar c = true) :
-    infixUsage (layChars a ++ (spell op ++ (layChars b ++ c :: tl))) =
-      some (PrattRT.ruleOf op, c :: tl) := by
-  have hs := symOk_of op hw
-  obtain ⟨hc1, hc2, hc3, _, _⟩ := startChar_facts hc
-  simp only [symOk, Bool.and_eq_true] at hs
-  obtain ⟨hs1, hs2⟩ := hs
-  obtain ⟨d, tl', hX, hd1, hd2⟩ := lay_head b c tl (fun d => d ≠ '=' ∧ d ≠ '/')
-    (by decide) (by decide) (by decide) (by decide) ⟨hc2, hc3⟩
-  -- the operator literal is found
-  have hinf : firstRule infixLits (spell op ++ (layChars b ++ c :: tl)) =
-      some (PrattRT.ruleOf op, layChars b ++ c :: tl) := by
-    split at hs1
-    · rename_i bad hbad
-      rw [hX]
-      apply firstRule_hit hbad
-      intro hm
-      have := List.all_eq_true.mp hs1 d hm
-      exact hd1 (by simpa using this)
-    · cases hs1
-  have hLS : layoutStar (layChars b ++ c :: tl) = c :: tl := layoutStar_run b _ (layoutAtom_none hc1)
-  split at hs2
-  · cases hs2
-  · rename_i h t hsp
-    simp only [Bool.and_eq_true, Bool.or_eq_true, beq_iff_eq, List.isEmpty_iff,
-      Bool.not_eq_true'] at hs2
-    obtain ⟨⟨hl, _⟩, hnat⟩ := hs2
-    have hLA : layoutAtom (spell op ++ (layChars b ++ c :: tl)) = none := by
-      rw [hsp]
-      rcases hl with hl | ⟨rfl, rfl⟩
-      · exact layoutAtom_none hl
-      · rw [List.cons_append, List.nil_append, hX]; exact layoutAtom_slash hd2
-    have hNA : firstRule naturalLits (spell op ++ (layChars b ++ c :: tl)) = none := by
-      rw [hsp, List.cons_append]
-      exact firstRule_none_of_headsNe hnat
-    have hpl : ∀ r, layoutPlus (layChars a ++ (spell op ++ (layChars b ++ c :: tl))) = some r →
-        firstRule naturalLits r = none := by
-      intro r hr
-      cases a with
-      | nil => simp only [layChars, List.nil_append, layoutPlus_none hLA] at hr; cases hr
-      | cons x a =>
-        rw [layoutPlus_run (x :: a) (by simp) _ hLA] at hr
-        cases hr; exact hNA
-    rw [infixUsage_alt2 hpl, layoutStar_run a _ hLA, hinf]
-    simp only [Option.map_some, hLS]
-
-theorem infixUsage_word (op : BinOp) (hw : isWordOp op = true) (a b : Lay) (c : Char)
-    (tl : List Char) (ha : a ≠ []) (hb : b ≠ []) (hbw : wsOnly b = true) (hc : startChar c = true) :
-    infixUsage (layChars a ++ (spell op ++ (layChars b ++ c :: tl))) =
-      some (PrattRT.ruleOf op, c :: tl) := by
-  have hs := wordOk_of op hw
-  obtain ⟨_, _, _, hc4, _⟩ := startChar_facts hc
-  simp only [wordOk, Bool.and_eq_true] at hs
-  obtain ⟨hs1, hs2⟩ := hs
-  -- the layout after the operator starts with a blank
-  obtain ⟨d, tl', hX, hd⟩ : ∃ d tl', layChars b ++ c :: tl = d :: tl' ∧ isWs d = true := by
-    cases b with
-    | nil => exact absurd rfl hb
-    | cons x b =>
-      simp only [wsOnly, List.all_cons, Bool.and_eq_true] at hbw
-      cases x <;> simp_all [LayAtom.isWs, layChars, LayAtom.chars, isWs]
-  have hnat : firstRule naturalLits (spell op ++ (layChars b ++ c :: tl)) =
-      some (PrattRT.ruleOf op, layChars b ++ c :: tl) := by
-    split at hs1
-    · rename_i bad hbad
-      rw [hX]
-      apply firstRule_hit hbad
-      intro hm
-      have := List.all_eq_true.mp hs1 d hm
-      simp [hd] at this
-    · cases hs1
-  split at hs2
-  · cases hs2
-  · rename_i h t hsp
-    have hLA : layoutAtom (spell op ++ (layChars b ++ c :: tl)) = none := by
-      rw [hsp]; exact layoutAtom_none hs2
-    simp only [infixUsage, layoutPlus_run a ha _ hLA, hnat, wsPlus_run b hb hbw c tl hc4,
-      Option.map_some]
-
-theorem layoutStar_nil : layoutStar [] = [] := by
-  simp [layoutStar, star, layoutAtom_nil]
-
-theorem infixUsage_nil : infixUsage [] = none := by
-  simp [infixUsage, layoutPlus, layoutAtom_nil, layoutStar_nil,
-    firstRule_nil _ infixLits_ne]
-
-theorem close_heads : headsNe infixLits ')' = true ∧ headsNe naturalLits ')' = true := by
-  decide +kernel
-
-/-- at the closing parenthesis (after any layout) no operator follows -/
-theorem infixUsage_close (b : Lay) (rest : List Char) :
-    infixUsage (layChars b ++ ')' :: rest) = none := by
-  have hLA : layoutAtom (')' :: rest) = none := layoutAtom_none (by decide)
-  have h1 : firstRule naturalLits (')' :: rest) = none := firstRule_none_of_headsNe close_heads.2
-  have h2 : firstRule infixLits (')' :: rest) = none := firstRule_none_of_headsNe close_heads.1
-  have hpl : ∀ r, layoutPlus (layChars b ++ ')' :: rest) = some r →
-      firstRule naturalLits r = none := by
-    intro r hr
-    cases b with
-    | nil => simp only [layChars, List.nil_append, layoutPlus_none hLA] at hr; cases hr
-    | cons x b =>
-      rw [layoutPlus_run (x :: b) (by simp) _ hLA] at hr
-      cases hr; exact h1
-  rw [infixUsage_alt2 hpl, layoutStar_run b _ hLA, h2]
-  rfl
-
-/-! ### (4) prefix and postfix operators -/
-
-theorem prefixUsage_minus (X : List Char) : prefixUsage ('-' :: X) = some (.pre "negation", X) := by
-  simp [prefixUsage, naturalPrefixLits_eq, prefixLits_eq, firstRule, lit]
-
-theorem prefixUsage_bang (X : List Char) : prefixUsage ('!' :: X) = some (.pre "invert", X) := by
-  simp [prefixUsage, naturalPrefixLits_eq, prefixLits_eq, firstRule, lit]
-
-theorem prefixUsage_paren (X : List Char) : prefixUsage ('(' :: X) = none := by
-  simp [prefixUsage, naturalPrefixLits_eq, prefixLits_eq, firstRule, lit]
-
-theorem prefixStar_cons {c : Char} {X : List Char} {it : PItem}
-    (h : prefixUsage (c :: X) = some (it, X)) :
-    prefixStar (c :: X) = (it :: (prefixStar X).1, (prefixStar X).2) := by
-  simp [prefixStar, starItems, h]
-
-theorem prefixStar_none {cs : List Char} (h : prefixUsage cs = none) : prefixStar cs = ([], cs) := by
-  simp [prefixStar, starItems, h]
-
-theorem postfixStar_bang (X : List Char) :
-    postfixStar ('!' :: X) = (.postFact :: (postfixStar X).1, (postfixStar X).2) := by
-  simp [postfixStar, starItems, postfixOp, postfixLits_eq, firstRule, lit]
-
-theorem postfixStar_other {c : Char} (X : List Char) (h : c ≠ '!') :
-    postfixStar (c :: X) = ([], c :: X) := by
-  have : ¬ ('!' = c) := fun e => h e.symm
-  simp [postfixStar, starItems, postfixOp, postfixLits_eq, firstRule, lit, this]
-
-theorem postfixStar_nil : postfixStar [] = ([], []) := by
-  simp [postfixStar, starItems, postfixOp, postfixLits_eq, firstRule, lit]
-
-/-- a word of identifier characters other than `not` is not taken for a prefix operator -/
-theorem prefixUsage_word {w rest : List Char} (hne : w ≠ []) (hw : ∀ x ∈ w, isIdentChar x = true)
-    (hnot : w ≠ ['n', 'o', 't']) (hb : Boundary rest) : prefixUsage (w ++ rest) = none := by
-  have h2 : firstRule prefixLits (w ++ rest) = none := by
-    cases w with
-    | nil => exact absurd rfl hne
-    | cons c w =>
-      obtain ⟨_, _, _, _, _, _, h7, h8, _, _⟩ := isIdentChar_cases (hw c List.mem_cons_self)
-      rw [prefixLits_eq, List.cons_append]
-      apply firstRule_none_of_heads
-      intro x hx
-      simp only [List.mem_cons, List.not_mem_nil, or_false] at hx
-      rcases hx with rfl | rfl
-      · exact ⟨'-', [], rfl, fun e => h8 e.symm⟩
-      · exact ⟨'!', [], rfl, fun e => h7 e.symm⟩
-  unfold prefixUsage
-  cases hf : firstRule naturalPrefixLits (w ++ rest) with
-  | none => simp only [h2, Option.map_none]
-  | some x =>
-    obtain ⟨rule, r⟩ := x
-    obtain ⟨s, hs, he⟩ := firstRule_some hf
-    rw [naturalPrefixLits_eq] at hs
-    simp only [List.mem_cons, Prod.mk.injEq, List.not_mem_nil, or_false] at hs
-    obtain ⟨_, rfl⟩ := hs
-    -- `r` starts with an identifier character or `w` would be `not`
-    have : wsPlus r = none := by
-      rcases List.append_eq_append_iff.mp he with ⟨a', hsa, hra⟩ | ⟨c', hwc, hrc⟩
-      · cases a' with
-        | nil => simp only [List.append_nil] at hsa; exact absurd hsa.symm hnot
-        | cons x a' =>
-          exfalso
-          have hx : isIdentChar x = true := by
-            have : x ∈ ['n', 'o', 't'] := by rw [hsa]; simp
-            revert this; simp only [List.mem_cons, List.not_mem_nil, or_false]
-            rintro (rfl | rfl | rfl) <;> decide
-          have := boundary_class hb isIdentChar (fun _ h => h) x (a' ++ r) (by simpa using hra)
-          rw [hx] at this; cases this
-      · cases c' with
-        | nil => simp only [List.append_nil] at hwc; exact absurd hwc hnot
-        | cons x c' =>
-          subst hrc
-          have hx : isIdentChar x = true := hw x (by simp [hwc])
-          obtain ⟨h1, h2, _⟩ := isIdentChar_cases hx
-          simp [wsPlus, plus, isWs, h1, h2]
-    simp only [this, Option.map_none, h2]
-
-/-! ### (5) the atoms of the fragment -/
-
-def isBuiltinName (n : String) : Bool := (Gen.fromIdent.find? (fun r => r.1 == n)).isSome
-
-/-- the terms of the fragment: identifiers that are not reserved words (a built-in function
-    name is the `builtin` node), non-negative integer literals below 10^15 (printed as plain
-    digits), `true` / `false` / `null` -/
-def atomOk : Expr → Bool
-  | .ident n => identShape n.toList && !Gen.grammarReserved.contains n && !isBuiltinName n
-  | .builtin n => isBuiltinName n
-  | .bool _ => true
-  | .null => true
-  | .num x => x.isFinite && x.isIntegral && !x.neg && F64.flt x.abs f64_1e15
-  | _ => false
-
-/-- the text of an atom -/
-def atomText (e : Expr) : List Char := (exprToSource e).toList
-
-theorem consumed_append (w rest : List Char) : consumed (w ++ rest) rest = w := by
-  simp [consumed]
-
-/-- every built-in name is identifier-shaped, not reserved, and converted to its own node -/
-def builtinRowOk (r : String × String) : Bool :=
-  identShape r.1.toList && !Gen.grammarReserved.contains r.1 &&
-    (match nameTerm r.1 with | .builtin m => m == r.1 | _ => false)
-
-theorem all_builtinRowOk : Gen.fromIdent.all builtinRowOk = true := by decide +kernel
-
-theorem builtin_facts {n : String} (h : isBuiltinName n = true) :
-    IdentShape n.toList ∧ n ∉ Gen.grammarReserved ∧ nameTerm n = .builtin n := by
-  unfold isBuiltinName at h
-  cases hf : Gen.fromIdent.find? (fun r => r.1 == n) with
-  | none => rw [hf] at h; cases h
-  | some r =>
-    have hm := List.mem_of_find?_eq_some hf
-    have hp := List.find?_some hf
-    simp only [beq_iff_eq] at hp
-    have := List.all_eq_true.mp all_builtinRowOk r hm
-    simp only [builtinRowOk, Bool.and_eq_true, Bool.not_eq_true', hp] at this
-    obtain ⟨⟨h1, h2⟩, h3⟩ := this
-    refine ⟨h1, by simpa using h2, ?_⟩
-    split at h3
-    · rename_i m hm'; rw [hm']; simp only [beq_iff_eq] at h3; rw [h3]
-    · cases h3
-
-theorem isDigit_val {d : Char} (h : isDigit d = true) : 48 ≤ d.toNat ∧ d.toNat ≤ 57 := by
-  simp only [isDigit, Bool.and_eq_true, decide_eq_true_eq, Char.le_def, UInt32.le_iff_toNat_le] at h
-  exact h
-
-theorem isDigit_not_start {d : Char} (h : isDigit d = true) : isIdentStart d = false := by
-  have ⟨h1, h2⟩ := isDigit_val h
-  have hu : d ≠ '_' := by intro e; subst e; revert h; decide
-  simp only [isIdentStart, isAlpha, isUnderscore, Bool.or_eq_false_iff, Bool.and_eq_false_iff,
-    decide_eq_false_iff_not, Char.le_def, UInt32.le_iff_toNat_le, beq_eq_false_iff_ne, ne_eq]
-  refine ⟨⟨?_, ?_⟩, hu⟩
-  · left; show ¬ (97 ≤ d.toNat); omega
-  · left; show ¬ (65 ≤ d.toNat); omega
-
-theorem dropWhile_all_true {p : Char → Bool} {l : List Char} (h : ∀ c ∈ l, p c = true) :
-    l.dropWhile p = [] := by
-  induction l with
-  | nil => rfl
-  | cons a l ih =>
-    simp only [List.dropWhile, h a List.mem_cons_self]
-    exact ih (fun c hc => h c (List.mem_cons_of_mem _ hc))
-
-theorem firstLit_none_of_heads {L : List (List Char)} {c : Char} {tl : List Char}
-    (h : ∀ s ∈ L, ∃ a t, s = a :: t ∧ a ≠ c) : firstLit L (c :: tl) = none := by
-  induction L with
-  | nil => rfl
-  | cons s L ih =>
-    obtain ⟨a, t, rfl, hne⟩ := h s List.mem_cons_self
-    simp only [firstLit, lit, hne, if_false]
-    exact ih (fun y hy => h y (List.mem_cons_of_mem _ hy))
-
-/-- an atom's text is one word `w` of identifier characters (not `not`), and in front of
-    anything that is not an identifier character `term` reads it back as the atom -/
-theorem atom_word {e : Expr} (h : atomOk e = true) :
-    atomText e ≠ [] ∧ (∀ x ∈ atomText e, isIdentChar x = true) ∧ atomText e ≠ ['n', 'o', 't'] ∧
-      ∀ rest, Boundary rest → termAtom (atomText e ++ rest) = some (e, rest) := by
-  cases e with
-  | ident n =>
-    simp only [atomOk, Bool.and_eq_true, Bool.not_eq_true'] at h
-    obtain ⟨⟨hs, hr⟩, hb⟩ := h
-    have hw : IdentShape n.toList := hs
-    have hres : n ∉ Gen.grammarReserved := by simpa using hr
-    have hnot : n.toList ∉ reservedLits := fun hm => hres (by
-      have := mem_reservedLits.mp hm; rwa [String.ofList_toList] at this)
-    have ht : atomText (.ident n) = n.toList := by simp [atomText, exprToSource, exprSrc, lookupAL]
-    rw [ht]
-    refine ⟨hw.ne_nil, hw.all, ?_, ?_⟩
-    · intro e
-      apply hres
-      have : n = "not" := by rw [← String.ofList_toList (s := n), e]
-      rw [this]; decide
-    · intro rest hbd
-      have hname : nameTerm n = .ident n := by
-        unfold isBuiltinName at hb
-        simp only [Option.isSome_eq_false_iff, Option.isNone_iff_eq_none] at hb
-        simp [nameTerm, hb]
-      simp only [termAtom, boolRule_none hw hnot hbd, nullRule_none hw hnot hbd,
-        identifier_run hw hnot hbd, consumed_append, String.ofList_toList, hname]
-  | builtin n =>
-    simp only [atomOk] at h
-    obtain ⟨hw, hres, hname⟩ := builtin_facts h
-    have hnot : n.toList ∉ reservedLits := fun hm => hres (by
-      have := mem_reservedLits.mp hm; rwa [String.ofList_toList] at this)
-    have ht : atomText (.builtin n) = n.toList := by simp [atomText, exprToSource, exprSrc]
-    rw [ht]
-    refine ⟨hw.ne_nil, hw.all, ?_, ?_⟩
-    · intro e
-      apply hres
-      have : n = "not" := by rw [← String.ofList_toList (s := n), e]
-      rw [this]; decide
-    · intro rest hbd
-      simp only [termAtom, boolRule_none hw hnot hbd, nullRule_none hw hnot hbd,
-        identifier_run hw hnot hbd, consumed_append, String.ofList_toList, hname]
-  | bool b =>
-    cases b with
-    | true =>
-      have ht : atomText (.bool true) = trueLit := by
-        simp [atomText, exprToSource, exprSrc, trueLit]
-      rw [ht]
-      refine ⟨by decide, by decide, by decide, ?_⟩
-      intro rest hbd
-      have hf : firstLit [trueLit, falseLit] (trueLit ++ rest) = some (trueLit, rest) := by
-        simp [firstLit, lit_append]
-      simp [termAtom, boolRule, keyword_isSome_of_firstLit hf hbd]
-    | false =>
-      have ht : atomText (.bool false) = falseLit := by
-        simp [atomText, exprToSource, exprSrc, falseLit]
-      rw [ht]
-      refine ⟨by decide, by decide, by decide, ?_⟩
-      intro rest hbd
-      have hf : firstLit [trueLit, falseLit] (falseLit ++ rest) = some (falseLit, rest) := by
-        have : lit trueLit (falseLit ++ rest) = none := by simp [trueLit, falseLit, lit]
-        simp [firstLit, this, lit_append]
-      have hne : (falseLit == trueLit) = false := by decide
-      simp [termAtom, boolRule, keyword_isSome_of_firstLit hf hbd, hne]
-  | null =>
-    have ht : atomText .null = nullLit := by simp [atomText, exprToSource, exprSrc, nullLit]
-    rw [ht]
-    refine ⟨by decide, by decide, by decide, ?_⟩
-    intro rest hbd
-    have hb : boolRule (nullLit ++ rest) = none := by
-      have : firstLit [trueLit, falseLit] (nullLit ++ rest) = none := by
-        simp [firstLit, trueLit, falseLit, nullLit, lit]
-      simp [boolRule, keyword, this]
-    have hf : firstLit [nullLit] (nullLit ++ rest) = some (nullLit, rest) := by
-      simp [firstLit, lit_append]
-    simp [termAtom, hb, nullRule, keyword_isSome_of_firstLit hf hbd]
-  | num x =>
-    simp only [atomOk, Bool.and_eq_true, Bool.not_eq_true'] at h
-    obtain ⟨⟨⟨hf, hi⟩, hn⟩, hlt⟩ := h
-    have hinf := F64.isInf_of_isFinite x hf
-    have hsrc : exprToSource (.num x) = x.toFixed 0 := by
-      simp only [exprToSource, exprSrc]
-      exact PrintL.numberToSource_int x (by simp [hinf]) hi hlt
-    have hfix := F64.toFixed_zero_of_integral x hf (F64.ratio_integral_of_isIntegral x hi)
-    simp only [hn, Bool.false_eq_true, if_false, String.empty_append] at hfix
-    have ht : atomText (.num x) = (F64.natDigits (x.ratio.1 / x.ratio.2)).toList := by
-      simp only [atomText, hsrc, hfix]
-    have hdig : ∀ c ∈ atomText (.num x), isDigit c = true := by
-      rw [ht]; exact F64.natDigits_all_isDigit _
-    have hne : atomText (.num x) ≠ [] := by rw [ht]; exact F64.natDigits_toList_ne_nil _
-    refine ⟨hne, fun c hc => digit_identChar c (hdig c hc), ?_, ?_⟩
-    · intro e
-      have := hdig 'n' (by rw [e]; simp)
-      revert this; decide
-    · intro rest hbd
-      have hval : NumText.literalValue (String.ofList (atomText (.num x))) = some x := by
-        rw [NumText.literalValue_plain _ (fun c hc => Or.inl (hdig c hc))]
-        simp only [atomText, String.ofList_toList, hsrc]
-        exact F64.parseDec_toFixed_zero x hf hi
-      generalize atomText (.num x) = ds at hdig hne hval
-      cases ds with
-      | nil => exact absurd rfl hne
-      | cons d ds =>
-        have hd := hdig d List.mem_cons_self
-        have hds : ∀ c ∈ ds, isDigit c = true := fun c hc => hdig c (List.mem_cons_of_mem _ hc)
-        have c1 : d ≠ 't' := by intro e; subst e; revert hd; decide
-        have c2 : d ≠ 'f' := by intro e; subst e; revert hd; decide
-        have c3 : d ≠ 'n' := by intro e; subst e; revert hd; decide
-        have hb : boolRule (d :: ds ++ rest) = none := by
-          have : firstLit [trueLit, falseLit] (d :: (ds ++ rest)) = none := by
-            apply firstLit_none_of_heads
-            intro s hs
-            simp only [List.mem_cons, List.not_mem_nil, or_false] at hs
-            rcases hs with rfl | rfl
-            · exact ⟨'t', _, rfl, fun e => c1 e.symm⟩
-            · exact ⟨'f', _, rfl, fun e => c2 e.symm⟩
-          simp [boolRule, keyword, this]
-        have hnl : nullRule (d :: ds ++ rest) = none := by
-          have : firstLit [nullLit] (d :: (ds ++ rest)) = none := by
-            apply firstLit_none_of_heads
-            intro s hs
-            simp only [List.mem_cons, List.not_mem_nil, or_false] at hs
-            subst hs
-            exact ⟨'n', _, rfl, fun e => c3 e.symm⟩
-          simp [nullRule, keyword, this]
-        have hid : identifier (d :: ds ++ rest) = none := by
-          have : nameBody (d :: (ds ++ rest)) = none := by
-            simp [nameBody, plus, isDigit_not_start hd]
-          simp only [identifier, List.cons_append, this]
-          split <;> rfl
-        have hpl : plus isDigit (d :: ds ++ rest) = some rest := by
-          have h1 := dropWhile_append_of_boundary isDigit ds rest
-            (boundary_class hbd _ digit_identChar)
-          have h2 : ds.dropWhile isDigit = [] := dropWhile_all_true hds
-          simp [plus, hd, h1, h2]
-        have hcons : consumed (d :: ds ++ rest) rest = d :: ds := consumed_append (d :: ds) rest
-        simp only [termAtom, hb, hnl, hid, hpl, hcons, hval, Option.map_some]
-  | _ => simp [atomOk] at h
-
 /-! ### (6) concrete syntax trees -/
 
-/-- concrete syntax of the operator fragment: the operator tree with every layout string and
-    every pair of parentheses written out -/
+/-- the end of a `call_list` / `list` behind its last element: layout and the closing bracket,
+    or a trailing comma — blanks, `,`, layout, the closing bracket -/
+inductive Close where
+  | plain (l : Lay)
+  | comma (w l : Lay)
+
+def spreadChars (sp : Bool) : List Char := if sp then spreadLit else []
+
+def argTree (sp : Bool) (t : Expr) : Expr := if sp then .spread t else t
+
+/-- the closing text, up to and including the closing bracket `br` -/
+def Close.text (br : Char) : Close → List Char
+  | .plain l => layChars l ++ [br]
+  | .comma w l => layChars w ++ ',' :: (layChars l ++ [br])
+
+/-- admissible closing of a call: blanks only in front of the trailing comma, and the layout
+    behind it has a line break (`("," ~ NEWLINE)?`: after blanks, a line break must come) -/
+def Close.okCall : Close → Bool
+  | .plain _ => true
+  | .comma w l => wsOnly w && l.any fun a => !a.isWs
+
+/-- admissible closing of a list: blanks only in front of the trailing comma -/
+def Close.okList : Close → Bool
+  | .plain _ => true
+  | .comma w _ => wsOnly w
+
+/-- text of a lambda argument -/
+def argText : LArg → List Char
+  | .req n => n.toList
+  | .opt n => n.toList ++ ['?']
+  | .rest n => spreadLit ++ n.toList
+
+/-- the argument list of a lambda: one bare argument (`x`, `x?`), `( lay )`, or
+    `( lay a₁ blanks , lay a₂ … close` with the layout rules of `call_list` -/
+inductive LamHead where
+  | bare (a : LArg)
+  | unit (l : Lay)
+  | parens (l0 : Lay) (first : LArg) (more : List (Lay × Lay × LArg)) (close : Close)
+
+def moreText : List (Lay × Lay × LArg) → List Char
+  | [] => []
+  | (w, l, a) :: rest => layChars w ++ ',' :: (layChars l ++ (argText a ++ moreText rest))
+
+def LamHead.text : LamHead → List Char
+  | .bare a => argText a
+  | .unit l => '(' :: (layChars l ++ [')'])
+  | .parens l0 a more c => '(' :: (layChars l0 ++ (argText a ++ (moreText more ++ c.text ')')))
+
+def LamHead.args : LamHead → List LArg
+  | .bare a => [a]
+  | .unit _ => []
+  | .parens _ a more _ => a :: more.map fun x => x.2.2
+
+/-- admissible layout of an argument list (blanks only in front of a comma, a trailing comma
+    only in front of a line break); the parentheses may be left out around a single argument
+    that is not a rest argument -/
+def LamHead.ok : LamHead → Bool
+  | .bare a => (match a with | .rest _ => false | _ => true)
+  | .unit _ => true
+  | .parens _ _ more c => more.all (fun x => wsOnly x.1) && c.okCall
+
+/-- the names of the arguments are identifiers; a bare argument is not a rest argument
+    (`...r => e` as an argument of a call would be the spread of `r => e`) -/
+def LamHead.namesOk (h : LamHead) : Bool :=
+  (h.args.all fun a => nameOk a.name) &&
+    (match h with | .bare (.rest _) => false | _ => true)
+
+/-- no `via` / `into` / `where` among the operators of an item sequence (what the top level of
+    a lambda body may contain) -/
+def LamSafe (its : List PItem) : Prop :=
+  ∀ op : BinOp, PItem.inf (PrattRT.ruleOf op) ∈ its → isChain op = false
+
+mutual
+/-- concrete syntax of the fragment: the tree with every layout string and every pair of
+    parentheses written out -/
 inductive CST where
   /-- a term of the fragment, written as the printer writes it -/
   | atom : Expr → CST
@@ -750,16 +106,55 @@ inductive CST where
   | fact : CST → CST
   /-- `( lay₁ e lay₂ )` -/
   | paren : Lay → CST → Lay → CST
+  /-- `f( lay )` : a call without arguments, directly behind `f` -/
+  | call0 : CST → Lay → CST
+  /-- `f( lay args close` -/
+  | call : CST → Lay → Args → Close → CST
+  /-- `e[ nl₁ i nl₂ ]` -/
+  | access : CST → Lay → CST → Lay → CST
+  /-- `e.name` -/
+  | dot : CST → String → CST
+  /-- `[ lay ]` : the empty list -/
+  | list0 : Lay → CST
+  /-- `[ lay items close` -/
+  | list : Lay → Args → Close → CST
+  /-- `head blanks => lay body` -/
+  | lambda : LamHead → Lay → Lay → CST → CST
+  /-- `if blanks c lay then lay t lay else lay e` -/
+  | cond : Lay → CST → Lay → Lay → CST → Lay → Lay → CST → CST
+/-- a non-empty argument / item list: each element possibly spread (`...a`), separated by
+    `blanks , layout` -/
+inductive Args where
+  | last : Bool → CST → Args
+  | cons : Bool → CST → Lay → Lay → Args → Args
+end
 
 namespace CST
 
+mutual
 def text : CST → List Char
   | .atom e => atomText e
   | .bin op l a b r => l.text ++ (layChars a ++ (spell op ++ (layChars b ++ r.text)))
   | .un op e => (unaryOpToSource op).toList ++ e.text
   | .fact e => e.text ++ ['!']
   | .paren a e b => '(' :: (layChars a ++ (e.text ++ (layChars b ++ [')'])))
+  | .call0 f l => f.text ++ '(' :: (layChars l ++ [')'])
+  | .call f l as c => f.text ++ '(' :: (layChars l ++ (argsText as ++ c.text ')'))
+  | .access e a i b => e.text ++ '[' :: (layChars a ++ (i.text ++ (layChars b ++ [']'])))
+  | .dot e n => e.text ++ '.' :: n.toList
+  | .list0 l => '[' :: (layChars l ++ [']'])
+  | .list l as c => '[' :: (layChars l ++ (argsText as ++ c.text ']'))
+  | .lambda hd w l b => hd.text ++ (layChars w ++ '=' :: '>' :: (layChars l ++ b.text))
+  | .cond w c l1 l2 t l3 l4 e =>
+    'i' :: 'f' :: (layChars w ++ (c.text ++ (layChars l1 ++ (thenLit ++ (layChars l2 ++
+      (t.text ++ (layChars l3 ++ (elseLit ++ (layChars l4 ++ e.text)))))))))
+def argsText : Args → List Char
+  | .last sp a => spreadChars sp ++ a.text
+  | .cons sp a w l rest =>
+    spreadChars sp ++ (a.text ++ (layChars w ++ ',' :: (layChars l ++ argsText rest)))
+end
 
+mutual
 /-- the abstract tree: parentheses and layout erased -/
 def tree : CST → Expr
   | .atom e => e
@@ -767,15 +162,35 @@ def tree : CST → Expr
   | .un op e => .un op e.tree
   | .fact e => .fact e.tree
   | .paren _ e _ => e.tree
+  | .call0 f _ => .call f.tree []
+  | .call f _ as _ => .call f.tree (argsTrees as)
+  | .access e _ i _ => .access e.tree i.tree
+  | .dot e n => .dot e.tree n
+  | .list0 _ => .list []
+  | .list _ as _ => .list (mkItems (argsTrees as))
+  | .lambda hd _ _ b => .lambda hd.args b.tree
+  | .cond _ c _ _ t _ _ e => .cond c.tree t.tree e.tree
+def argsTrees : Args → List Expr
+  | .last sp a => [argTree sp a.tree]
+  | .cons sp a _ _ rest => argTree sp a.tree :: argsTrees rest
+end
 
 /-- the item sequence of the `expression` pair: a parenthesised sub-expression is ONE
-    primary, already converted to its tree -/
+    primary, already converted to its tree; a postfix item carries its converted payload -/
 def items : CST → List PItem
   | .atom e => [.prim e]
   | .bin op l _ _ r => l.items ++ .inf (PrattRT.ruleOf op) :: r.items
   | .un op e => .pre (PrattRT.preRule op) :: e.items
   | .fact e => e.items ++ [.postFact]
   | .paren _ e _ => [.prim e.tree]
+  | .call0 f _ => f.items ++ [.postCall []]
+  | .call f _ as _ => f.items ++ [.postCall (argsTrees as)]
+  | .access e _ i _ => e.items ++ [.postAccess i.tree]
+  | .dot e n => e.items ++ [.postDot n]
+  | .list0 _ => [.prim (.list [])]
+  | .list _ as _ => [.prim (.list (mkItems (argsTrees as)))]
+  | .lambda hd _ _ b => [.prim (.lambda hd.args b.tree)]
+  | .cond _ c _ _ t _ _ e => [.prim (.cond c.tree t.tree e.tree)]
 
 def isParen : CST → Bool
   | .paren .. => true
@@ -789,6 +204,7 @@ def layOk (op : BinOp) (a b : Lay) : Bool :=
   if isWordOp op then !a.isEmpty && !b.isEmpty && wsOnly b
   else !(a.isEmpty && (spell op).head? == some '!')
 
+mutual
 /-- layout everywhere admissible -/
 def LayoutOk : CST → Prop
   | .atom _ => True
@@ -796,7 +212,26 @@ def LayoutOk : CST → Prop
   | .un _ e => e.LayoutOk
   | .fact e => e.LayoutOk
   | .paren _ e _ => e.LayoutOk
+  | .call0 f _ => f.LayoutOk
+  | .call f _ as c => f.LayoutOk ∧ ArgsLayoutOk as ∧ c.okCall = true
+  | .access e a i b => e.LayoutOk ∧ i.LayoutOk ∧ nlOnly a = true ∧ nlOnly b = true
+  | .dot e _ => e.LayoutOk
+  | .list0 _ => True
+  | .list _ as c => ArgsLayoutOk as ∧ c.okList = true
+  | .lambda hd w _ b => hd.ok = true ∧ wsOnly w = true ∧ b.LayoutOk
+  | .cond w c l1 l2 t l3 l4 e =>
+    (w ≠ [] ∧ wsOnly w = true ∧ l1 ≠ [] ∧ l2 ≠ [] ∧ l3 ≠ [] ∧ l4 ≠ []) ∧
+      c.LayoutOk ∧ t.LayoutOk ∧ e.LayoutOk
+/-- in front of a comma blanks only; behind it anything -/
+def ArgsLayoutOk : Args → Prop
+  | .last _ a => a.LayoutOk
+  | .cons _ a w _ rest => a.LayoutOk ∧ wsOnly w = true ∧ ArgsLayoutOk rest
+end
 
+/-- a field name: identifier-shaped and not a reserved word (the `identifier` rule) -/
+def fieldOk (n : String) : Bool := identShape n.toList && !Gen.grammarReserved.contains n
+
+mutual
 /-- atoms of the fragment, no `~`, and parentheses wherever the printer's rule `needsParens`
     asks for them (additional ones are allowed anywhere) -/
 def Shaped : CST → Prop
@@ -807,6 +242,23 @@ def Shaped : CST → Prop
   | .un op e => op ≠ .invert ∧ e.Shaped ∧ (e.isParen = false → needsParens e.tree .prefix_ = false)
   | .fact e => e.Shaped ∧ (e.isParen = false → needsParens e.tree .postfix_ = false)
   | .paren _ e _ => e.Shaped
+  | .call0 f _ => f.Shaped ∧ (f.isParen = false → needsParens f.tree .postfix_ = false)
+  | .call f _ as _ =>
+    f.Shaped ∧ (f.isParen = false → needsParens f.tree .postfix_ = false) ∧ ArgsShaped as
+  | .access e _ i _ =>
+    e.Shaped ∧ (e.isParen = false → needsParens e.tree .postfix_ = false) ∧ i.Shaped
+  | .dot e n =>
+    e.Shaped ∧ (e.isParen = false → needsParens e.tree .postfix_ = false) ∧ fieldOk n = true
+  | .list0 _ => True
+  | .list _ as _ => ArgsShaped as
+  | .lambda hd _ _ b =>
+    hd.namesOk = true ∧ b.Shaped ∧ (b.isParen = false → lambdaBodyNeedsParens b.tree = false) ∧
+      LamSafe b.items
+  | .cond _ c _ _ t _ _ e => c.Shaped ∧ t.Shaped ∧ e.Shaped
+def ArgsShaped : Args → Prop
+  | .last _ a => a.Shaped
+  | .cons _ a _ _ rest => a.Shaped ∧ ArgsShaped rest
+end
 
 /-- well-formed concrete syntax -/
 def WF (c : CST) : Prop := c.Shaped ∧ c.LayoutOk
@@ -815,36 +267,46 @@ end CST
 
 /-! ### (7) the PEG model splits the text of a CST into its items -/
 
-/-- `expression` at `cs` yields `its` and leaves `r` (with enough fuel) -/
-def EX (cs : List Char) (its : List PItem) (r : List Char) : Prop := ∃ f, exprR f cs = .ok (its, r)
+/-- `expression` (`lam = false`) / `lambda_expression` (`lam = true`) at `cs` yields `its` and
+    leaves `r` (with enough fuel) -/
+def EX (lam : Bool) (cs : List Char) (its : List PItem) (r : List Char) : Prop :=
+  ∃ f, exprR lam f cs = .ok (its, r)
 
 /-- what happens after a term when `rest` follows: `postfix_op*`, then the operator tail -/
-def After (rest : List Char) (its : List PItem) (r : List Char) : Prop :=
-  ∃ its2 f, tailR f (postfixStar rest).2 = .ok (its2, r) ∧ its = (postfixStar rest).1 ++ its2
+def After (lam : Bool) (rest : List Char) (its : List PItem) (r : List Char) : Prop :=
+  ∃ its1 r1 its2 f, postR f rest = .ok (its1, r1) ∧ tailR lam f r1 = .ok (its2, r) ∧
+    its = its1 ++ its2
 
-theorem ex_intro {cs : List Char} {its1 : List PItem} {r1 : List Char} {its2 : List PItem}
-    {r : List Char} {f g : Nat} (ho : operandR f cs = .ok (its1, r1))
-    (ht : tailR g r1 = .ok (its2, r)) : EX cs (its1 ++ its2) r := by
+/-- the end of a term: the text behind it continues neither a word nor a lambda head -/
+def TEnd (rest : List Char) : Prop := Boundary rest ∧ NoLam rest
+
+/-- nothing continues an expression here: no postfix operator, no operator of either kind of
+    expression (what must follow an operand that ends with a lambda body) -/
+def Closes (rest : List Char) : Prop := postNone rest ∧ ∀ lam, infixUsage lam rest = none
+
+theorem ex_intro {lam : Bool} {cs : List Char} {its1 : List PItem} {r1 : List Char}
+    {its2 : List PItem} {r : List Char} {f g : Nat} (ho : operandR lam f cs = .ok (its1, r1))
+    (ht : tailR lam g r1 = .ok (its2, r)) : EX lam cs (its1 ++ its2) r := by
   refine ⟨max f g + 1, ?_⟩
   rw [exprR_succ, operandR_mono (Nat.le_max_left f g) ho]
   simp only [tailR_mono (Nat.le_max_right f g) ht]
 
-theorem ex_elim {cs : List Char} {its : List PItem} {r : List Char} {f : Nat}
-    (h : exprR f cs = .ok (its, r)) :
-    ∃ g its1 r1 its2, f = g + 1 ∧ operandR g cs = .ok (its1, r1) ∧ tailR g r1 = .ok (its2, r) ∧
-      its = its1 ++ its2 := by
+theorem ex_elim {lam : Bool} {cs : List Char} {its : List PItem} {r : List Char} {f : Nat}
+    (h : exprR lam f cs = .ok (its, r)) :
+    ∃ g its1 r1 its2, f = g + 1 ∧ operandR lam g cs = .ok (its1, r1) ∧
+      tailR lam g r1 = .ok (its2, r) ∧ its = its1 ++ its2 := by
   cases f with
   | zero => rw [exprR_zero] at h; cases h
   | succ g =>
     rw [exprR_succ] at h
-    cases ho : operandR g cs with
+    cases ho : operandR lam g cs with
     | out => rw [ho] at h; cases h
     | fail => rw [ho] at h; cases h
     | ok x =>
       obtain ⟨its1, r1⟩ := x
       rw [ho] at h
       simp only at h
-      cases ht : tailR g r1 with
+      cases ht : tailR lam g r1 with
       | out => rw [ht] at h; cases h
       | fail => rw [ht] at h; cases h
       | ok y =>
@@ -854,81 +316,150 @@ theorem ex_elim {cs : List Char} {its : List PItem} {r : List Char} {f : Nat}
         obtain ⟨rfl, rfl⟩ := h
         exact ⟨g, its1, r1, its2, rfl, ho, ht, rfl⟩
 
-/-- an operand followed by `rest`: from the operand result to the whole expression -/
-theorem ex_of_operand {cs rest : List Char} {e : Expr} {pre : List PItem} {its : List PItem}
-    {r : List Char} {f : Nat}
-    (ho : operandR f cs = .ok (pre ++ .prim e :: (postfixStar rest).1, (postfixStar rest).2))
-    (hk : After rest its r) : EX cs (pre ++ .prim e :: its) r := by
-  obtain ⟨its2, g, ht, rfl⟩ := hk
-  have := ex_intro ho ht
+/-- a term followed by `rest`: from the term result to the whole expression -/
+theorem ex_of_term {lam : Bool} {cs cs' rest : List Char} {e : Expr} {pre : List PItem}
+    {its : List PItem} {r : List Char} {f : Nat} (hp : prefixStar cs = (pre, cs'))
+    (ht : termR f cs' = .ok (e, rest)) (hk : After lam rest its r) :
+    EX lam cs (pre ++ .prim e :: its) r := by
+  obtain ⟨its1, r1, its2, g, hpo, hta, rfl⟩ := hk
+  have ho : operandR lam (max f g + 1) cs = .ok (pre ++ .prim e :: its1, r1) := by
+    rw [operandR_succ, hp]
+    simp only [termR_mono (Nat.le_max_left f g) ht, postR_mono (Nat.le_max_right f g) hpo]
+  have := ex_intro ho hta
   simpa using this
 
+/-- a term that is neither a conditional nor a lambda -/
+theorem termR_of_term2 {cs : List Char} {x : Expr × List Char} {f : Nat}
+    (hc : ifHead cs = none) (hl : lambdaHead cs = none) (h : term2R f cs = .ok x) :
+    termR (f + 1) cs = .ok x := by
+  cases f with
+  | zero => rw [term2R_zero] at h; cases h
+  | succ g =>
+    rw [termR_succ, condR_succ, hc, lamR_succ, hl]
+    exact h
+
+/-- a prefix operator in front of an operand -/
+theorem operandR_prefix {lam : Bool} {c : Char} {X : List Char} {it : PItem} (f : Nat)
+    (hp : prefixUsage (c :: X) = some (it, X)) :
+    operandR lam f (c :: X) =
+      match operandR lam f X with
+      | .ok (its, r) => .ok (it :: its, r)
+      | .fail => .fail
+      | .out => .out := by
+  cases f with
+  | zero => rw [operandR_zero, operandR_zero]
+  | succ k =>
+    rw [operandR_succ, operandR_succ, prefixStar_cons hp]
+    simp only
+    cases termR k (prefixStar X).2 with
+    | out => rfl
+    | fail => rfl
+    | ok x =>
+      obtain ⟨e, r1⟩ := x
+      simp only
+      cases postR k r1 with
+      | out => rfl
+      | fail => rfl
+      | ok y => rfl
+
 /-- a prefix operator in front of an expression -/
-theorem ex_prefix {c : Char} {X : List Char} {it : PItem} {its : List PItem} {r : List Char}
-    (hp : prefixUsage (c :: X) = some (it, X)) (h : EX X its r) : EX (c :: X) (it :: its) r := by
+theorem ex_prefix {lam : Bool} {c : Char} {X : List Char} {it : PItem} {its : List PItem}
+    {r : List Char} (hp : prefixUsage (c :: X) = some (it, X)) (h : EX lam X its r) :
+    EX lam (c :: X) (it :: its) r := by
   obtain ⟨f, h⟩ := h
   obtain ⟨g, its1, r1, its2, rfl, ho, ht, rfl⟩ := ex_elim h
-  have ho' : operandR g (c :: X) = .ok (it :: its1, r1) := by
-    cases g with
-    | zero => rw [operandR_zero] at ho; cases ho
-    | succ k =>
-      rw [operandR_succ] at ho ⊢
-      rw [prefixStar_cons hp]
-      simp only
-      split at ho
-      · rename_i e r1' he
-        simp only [Res.ok.injEq, Prod.mk.injEq] at ho
-        obtain ⟨rfl, rfl⟩ := ho
-        rfl
-      · rename_i hn
-        split at ho
-        · rename_i r1' hpr
-          split at ho
-          · rename_i its' r2 hex
-            split at ho
-            · rename_i r3 hl
-              split at ho
-              · rename_i e' hpp
-                simp only [Res.ok.injEq, Prod.mk.injEq] at ho
-                obtain ⟨rfl, rfl⟩ := ho
-                rfl
-              · cases ho
-            · cases ho
-          · cases ho
-          · cases ho
-        · cases ho
+  have ho' : operandR lam g (c :: X) = .ok (it :: its1, r1) := by
+    rw [operandR_prefix g hp, ho]
   have := ex_intro ho' ht
   simpa using this
 
 /-- the operator tail starting with an `infix_usage` -/
-theorem after_infix {Y X : List Char} {rule : String} {its : List PItem} {r : List Char}
-    (hi : infixUsage Y = some (rule, X)) (hY : (postfixStar Y) = ([], Y)) (h : EX X its r) :
-    After Y (.inf rule :: its) r := by
+theorem after_infix {lam : Bool} {Y X : List Char} {rule : String} {its : List PItem}
+    {r : List Char} (hi : infixUsage lam Y = some (rule, X)) (hY : postNone Y)
+    (h : EX lam X its r) : After lam Y (.inf rule :: its) r := by
   obtain ⟨f, h⟩ := h
   obtain ⟨g, its1, r1, its2, rfl, ho, ht, rfl⟩ := ex_elim h
-  refine ⟨.inf rule :: (its1 ++ its2), g + 1, ?_, by simp [hY]⟩
-  rw [hY, tailR_succ]
-  simp only [hi, ho, ht]
+  refine ⟨[], Y, .inf rule :: (its1 ++ its2), g + 2, postR_none hY g, ?_, by simp⟩
+  rw [tailR_succ]
+  simp only [hi, operandR_mono (Nat.le_succ g) ho, tailR_mono (Nat.le_succ g) ht]
 
-theorem after_close (b : Lay) (rest : List Char) :
-    After (layChars b ++ ')' :: rest) [] (layChars b ++ ')' :: rest) := by
-  have hp : postfixStar (layChars b ++ ')' :: rest) = ([], layChars b ++ ')' :: rest) := by
-    obtain ⟨d, tl', hX, hd⟩ := lay_head b ')' rest (fun d => d ≠ '!')
-      (by decide) (by decide) (by decide) (by decide) (by decide)
-    rw [hX]; exact postfixStar_other _ hd
-  refine ⟨[], 1, ?_, by simp [hp]⟩
-  rw [hp, tailR_succ]
-  simp only [infixUsage_close]
+/-- nothing follows: no postfix operator, no operator -/
+theorem after_none {lam : Bool} {Y : List Char} (hY : postNone Y) (hi : infixUsage lam Y = none) :
+    After lam Y [] Y := by
+  refine ⟨[], Y, [], 2, postR_none hY 0, ?_, rfl⟩
+  rw [tailR_succ]
+  simp only [hi]
 
-theorem after_nil : After [] [] [] := by
-  refine ⟨[], 1, ?_, by simp [postfixStar_nil]⟩
-  rw [postfixStar_nil, tailR_succ]
-  simp only [infixUsage_nil]
+theorem after_closes {lam : Bool} {Y : List Char} (h : Closes Y) : After lam Y [] Y :=
+  after_none h.1 (h.2 lam)
 
-theorem after_bang {rest : List Char} {its : List PItem} {r : List Char} (h : After rest its r) :
-    After ('!' :: rest) (.postFact :: its) r := by
-  obtain ⟨its2, f, ht, rfl⟩ := h
-  exact ⟨its2, f, by rw [postfixStar_bang]; exact ht, by rw [postfixStar_bang]; rfl⟩
+theorem postNone_stop (b : Lay) {c : Char} (rest : List Char) (hc : stopChar c = true) :
+    postNone (layChars b ++ c :: rest) := by
+  apply postNone_lay
+  simp only [stopChar, Bool.or_eq_true, beq_iff_eq] at hc
+  rcases hc with (rfl | rfl) | rfl <;>
+    exact postNone_of_char (by decide) (by decide) (by decide) (by decide)
+
+theorem closes_stop (b : Lay) {c : Char} (rest : List Char) (hc : stopChar c = true) :
+    Closes (layChars b ++ c :: rest) :=
+  ⟨postNone_stop b rest hc, fun lam => infixUsage_stop lam b c rest hc⟩
+
+theorem closes_nil : Closes [] := ⟨trivial, infixUsage_nil⟩
+
+/-- at a closing bracket / comma (after any layout) the expression ends -/
+theorem after_stop (lam : Bool) (b : Lay) {c : Char} (rest : List Char) (hc : stopChar c = true) :
+    After lam (layChars b ++ c :: rest) [] (layChars b ++ c :: rest) :=
+  after_closes (closes_stop b rest hc)
+
+theorem after_nil (lam : Bool) : After lam [] [] [] := after_closes closes_nil
+
+/-- one more postfix operator -/
+theorem after_post {lam : Bool} {rest rest' : List Char} {it : PItem} {its : List PItem}
+    {r : List Char} {g : Nat} (hq : postOpR g rest = .ok (it, rest')) (h : After lam rest' its r) :
+    After lam rest (it :: its) r := by
+  obtain ⟨its1, r1, its2, f, hpo, hta, rfl⟩ := h
+  refine ⟨it :: its1, r1, its2, max f g + 1, ?_, tailR_mono (by omega) hta, rfl⟩
+  rw [postR_succ]
+  simp only [postOpR_mono (Nat.le_max_right f g) hq, postR_mono (Nat.le_max_left f g) hpo]
+
+theorem postOpR_bang (f : Nat) (X : List Char) : postOpR (f + 1) ('!' :: X) = .ok (.postFact, X) := by
+  rw [postOpR_succ, firstRule_postfix_bang]
+
+theorem boundary_cons {d : Char} {tl : List Char} (h : isIdentChar d = false) : Boundary (d :: tl) := by
+  simp [Boundary, boundary, h]
+
+/-- a character that is neither an identifier character nor a blank nor `=` / `?` ends a term -/
+theorem tend_cons {d : Char} {tl : List Char} (h : isIdentChar d = false) (hw : isWs d = false)
+    (h1 : d ≠ '=') (h2 : d ≠ '?') : TEnd (d :: tl) :=
+  ⟨boundary_cons h, noLam_of_head hw h1 h2⟩
+
+theorem tend_nil : TEnd [] := ⟨rfl, noLam_nil⟩
+
+/-- layout, then a character that ends a term -/
+theorem tend_lay (b : Lay) {c : Char} (rest : List Char) (h : isIdentChar c = false)
+    (hw : isWs c = false) (h1 : c ≠ '=') (h2 : c ≠ '?') : TEnd (layChars b ++ c :: rest) := by
+  refine ⟨?_, noLam_lay b (noLam_of_head hw h1 h2)⟩
+  obtain ⟨d, tl', hX, hd⟩ := lay_head b c rest (fun d => isIdentChar d = false)
+    (by decide) (by decide) (by decide) (by decide) h
+  rw [hX]; exact boundary_cons hd
+
+theorem tend_stop (b : Lay) {c : Char} (rest : List Char) (hc : stopChar c = true) :
+    TEnd (layChars b ++ c :: rest) := by
+  obtain ⟨_, _, _, h4, h5⟩ := stop_heads hc
+  have : c ≠ '=' ∧ c ≠ '?' := by
+    simp only [stopChar, Bool.or_eq_true, beq_iff_eq] at hc
+    rcases hc with (rfl | rfl) | rfl <;> decide
+  exact tend_lay b rest h4 h5 this.1 this.2
+
+theorem postOpR_dot (f : Nat) {n : String} {rest : List Char} (hn : CST.fieldOk n = true)
+    (hb : Boundary rest) : postOpR (f + 1) ('.' :: (n.toList ++ rest)) = .ok (.postDot n, rest) := by
+  simp only [CST.fieldOk, Bool.and_eq_true, Bool.not_eq_true'] at hn
+  have hw : IdentShape n.toList := hn.1
+  have hres : n ∉ Gen.grammarReserved := by simpa using hn.2
+  have hnot : n.toList ∉ reservedLits := fun hm => hres (by
+    have := mem_reservedLits.mp hm; rwa [String.ofList_toList] at this)
+  rw [postOpR_succ, firstRule_postfix_none _ (by decide)]
+  simp only [identifier_run hw hnot hb, consumed_append, String.ofList_toList]
 
 /-! ### (8) the Pratt model reads the items of a CST back to its tree -/
 
@@ -989,6 +520,46 @@ theorem cparses : ∀ (c : CST), c.Shaped → CParses c
     simp only [CST.items, List.append_assoc, List.singleton_append]
     exact ih rbp _ hrbp (fun hp => fits_postfix (hne hp))
       _ _ (PLoop.fact (lbp_postFact rest) (by have := P_le_fact; omega) hk)
+  | .call0 f l, h => by
+    obtain ⟨he, hne⟩ := h
+    have ih := cparses f he
+    intro rbp rest hrbp _ e' rest' hk
+    simp only [CST.items, List.append_assoc, List.singleton_append]
+    exact ih rbp _ hrbp (fun hp => fits_postfix (hne hp))
+      _ _ (PLoop.call (lbp_postCall _ rest) (by have := P_le_call; omega) hk)
+  | .call f l as c, h => by
+    obtain ⟨he, hne, _⟩ := h
+    have ih := cparses f he
+    intro rbp rest hrbp _ e' rest' hk
+    simp only [CST.items, List.append_assoc, List.singleton_append]
+    exact ih rbp _ hrbp (fun hp => fits_postfix (hne hp))
+      _ _ (PLoop.call (lbp_postCall _ rest) (by have := P_le_call; omega) hk)
+  | .access e a i b, h => by
+    obtain ⟨he, hne, _⟩ := h
+    have ih := cparses e he
+    intro rbp rest hrbp _ e' rest' hk
+    simp only [CST.items, List.append_assoc, List.singleton_append]
+    exact ih rbp _ hrbp (fun hp => fits_postfix (hne hp))
+      _ _ (PLoop.access (lbp_postAccess _ rest) (by have := P_le_access; omega) hk)
+  | .dot e n, h => by
+    obtain ⟨he, hne, _⟩ := h
+    have ih := cparses e he
+    intro rbp rest hrbp _ e' rest' hk
+    simp only [CST.items, List.append_assoc, List.singleton_append]
+    exact ih rbp _ hrbp (fun hp => fits_postfix (hne hp))
+      _ _ (PLoop.dot (lbp_postDot _ rest) (by have := P_le_dot; omega) hk)
+  | .list0 _, _ => by
+    intro rbp rest _ _ e' rest' hk
+    exact PExpr.prim hk
+  | .list _ _ _, _ => by
+    intro rbp rest _ _ e' rest' hk
+    exact PExpr.prim hk
+  | .lambda _ _ _ _, _ => by
+    intro rbp rest _ _ e' rest' hk
+    exact PExpr.prim hk
+  | .cond _ _ _ _ _ _ _ _, _ => by
+    intro rbp rest _ _ e' rest' hk
+    exact PExpr.prim hk
 
 /-- the items of a well-shaped CST parse back to its tree -/
 theorem cst_pratt (c : CST) (h : c.Shaped) : prattParse c.items = some c.tree := by
@@ -1001,6 +572,14 @@ theorem cst_pratt (c : CST) (h : c.Shaped) : prattParse c.items = some c.tree :=
       have := atom_not_compound (e := e) h
       cases e <;> first | trivial | simp [isCompound] at this
     | fact e => trivial
+    | call0 f l => trivial
+    | call f l as c => trivial
+    | access e a i b => trivial
+    | dot e n => trivial
+    | list0 l => trivial
+    | list l as c => trivial
+    | lambda hd w l b => trivial
+    | cond w c l1 l2 t l3 l4 e => trivial
     | paren a e b => rename_i hp; cases hp
   have := cparses c h 0 [] (Nat.zero_le _) hfit c.tree [] (PLoop.stop lbp_nil (by omega))
   simp only [List.append_nil] at this
@@ -1010,9 +589,34 @@ end pratt
 
 /-! ### (9) main lemma: lexing the text of a CST -/
 
-theorem boundary_cons {d : Char} {tl : List Char} (h : isIdentChar d = false) : Boundary (d :: tl) := by
-  simp [Boundary, boundary, h]
+theorem spreadLit_eq : spreadLit = ['.', '.', '.'] := by decide +kernel
 
+theorem name_start {n : String} (h : nameOk n = true) :
+    ∃ x tl, n.toList = x :: tl ∧ isIdentChar x = true := by
+  obtain ⟨hw, _⟩ := nameOk_facts h
+  cases hn : n.toList with
+  | nil => exact absurd hn hw.ne_nil
+  | cons x tl => exact ⟨x, tl, rfl, hw.all x (by rw [hn]; exact List.mem_cons_self)⟩
+
+theorem lamHead_start (hd : LamHead) (h : hd.namesOk = true) :
+    ∃ x tl, hd.text = x :: tl ∧ startChar x = true := by
+  cases hd with
+  | unit l => exact ⟨'(', _, rfl, by decide⟩
+  | parens l0 a more c => exact ⟨'(', _, rfl, by decide⟩
+  | bare a =>
+    simp only [LamHead.namesOk, LamHead.args, List.all_cons, List.all_nil, Bool.and_true,
+      Bool.and_eq_true] at h
+    cases a with
+    | rest n => simp at h
+    | req n =>
+      obtain ⟨x, tl, hx, hc⟩ := name_start (n := n) h.1
+      exact ⟨x, tl, by simp only [LamHead.text, argText, hx], by simp [startChar, hc]⟩
+    | opt n =>
+      obtain ⟨x, tl, hx, hc⟩ := name_start (n := n) h.1
+      exact ⟨x, tl ++ ['?'], by simp only [LamHead.text, argText, hx, List.cons_append],
+        by simp [startChar, hc]⟩
+
+mutual
 theorem text_start : ∀ (c : CST), c.Shaped → ∃ x tl, c.text = x :: tl ∧ startChar x = true
   | .atom e, h => by
     obtain ⟨hne, hall, _, _⟩ := atom_word (e := e) h
@@ -1035,127 +639,1368 @@ theorem text_start : ∀ (c : CST), c.Shaped → ∃ x tl, c.text = x :: tl ∧ 
     obtain ⟨x, tl, hx, hs⟩ := text_start e h.1
     exact ⟨x, _, by simp only [CST.text, hx, List.cons_append]; rfl, hs⟩
   | .paren a e b, _ => ⟨'(', _, rfl, by decide⟩
+  | .call0 f l, h => by
+    obtain ⟨x, tl, hx, hs⟩ := text_start f h.1
+    exact ⟨x, _, by simp only [CST.text, hx, List.cons_append]; rfl, hs⟩
+  | .call f l as c, h => by
+    obtain ⟨x, tl, hx, hs⟩ := text_start f h.1
+    exact ⟨x, _, by simp only [CST.text, hx, List.cons_append]; rfl, hs⟩
+  | .access e a i b, h => by
+    obtain ⟨x, tl, hx, hs⟩ := text_start e h.1
+    exact ⟨x, _, by simp only [CST.text, hx, List.cons_append]; rfl, hs⟩
+  | .dot e n, h => by
+    obtain ⟨x, tl, hx, hs⟩ := text_start e h.1
+    exact ⟨x, _, by simp only [CST.text, hx, List.cons_append]; rfl, hs⟩
+  | .list0 l, _ => ⟨'[', _, rfl, by decide⟩
+  | .list l as c, _ => ⟨'[', _, rfl, by decide⟩
+  | .lambda hd w l b, h => by
+    obtain ⟨x, tl, hx, hs⟩ := lamHead_start hd h.1
+    exact ⟨x, _, by simp only [CST.text, hx, List.cons_append]; rfl, hs⟩
+  | .cond w c l1 l2 t l3 l4 e, _ => ⟨'i', _, rfl, by decide⟩
+end
+
+/-- first character of an argument list: that of an operand, or the `.` of `...` -/
+theorem args_start : ∀ (as : Args), CST.ArgsShaped as →
+    ∃ x tl, CST.argsText as = x :: tl ∧ (startChar x = true ∨ x = '.')
+  | .last sp a, h => by
+    obtain ⟨x, tl, hx, hs⟩ := text_start a h
+    cases sp
+    · exact ⟨x, tl, by simp [CST.argsText, spreadChars, hx], Or.inl hs⟩
+    · exact ⟨'.', _, by simp only [CST.argsText, spreadChars, spreadLit_eq, if_true, List.cons_append]; rfl, Or.inr rfl⟩
+  | .cons sp a w l rest, h => by
+    obtain ⟨x, tl, hx, hs⟩ := text_start a h.1
+    cases sp
+    · exact ⟨x, _, by simp only [CST.argsText, spreadChars, hx, List.cons_append]; rfl, Or.inl hs⟩
+    · exact ⟨'.', _, by simp only [CST.argsText, spreadChars, spreadLit_eq, if_true, List.cons_append]; rfl, Or.inr rfl⟩
+
+theorem notLayoutStart_of_argStart {x : Char} (h : startChar x = true ∨ x = '.') :
+    notLayoutStart x = true := by
+  rcases h with h | rfl
+  · exact (startChar_facts h).1
+  · decide
 
 theorem termAtom_paren (X : List Char) : termAtom ('(' :: X) = none := by
   have h1 : boolRule ('(' :: X) = none := by
     simp [boolRule, keyword, firstLit, trueLit, falseLit, lit]
   have h2 : nullRule ('(' :: X) = none := by
     simp [nullRule, keyword, firstLit, nullLit, lit]
-  have h3 : identifier ('(' :: X) = none := by
-    have : nameBody ('(' :: X) = none := by
-      have : isIdentStart '(' = false := by decide
-      simp [nameBody, plus, this]
-    simp only [identifier, this]
-    split <;> rfl
+  have h3 : identifier ('(' :: X) = none := identifier_none_of_start X (by decide)
   have h4 : plus isDigit ('(' :: X) = none := by
     have : isDigit '(' = false := by decide
     simp [plus, this]
   simp only [termAtom, h1, h2, h3, h4]
 
 /-- the text between an operand and the next one: layout, operator, layout -/
-theorem op_gap (op : BinOp) (a b : Lay) (hl : CST.layOk op a b = true) (x : Char) (tl : List Char)
-    (hx : startChar x = true) :
+theorem word_head (op : BinOp) (hw : isWordOp op = true) :
+    ∃ h t, spell op = h :: t ∧ isWs h = false ∧ h ≠ '=' ∧ h ≠ '?' := by
+  have : (BinOp.all.all fun op => !isWordOp op ||
+      (match spell op with | h :: _ => !isWs h && h != '=' && h != '?' | [] => false)) = true := by
+    decide +kernel
+  have := List.all_eq_true.mp this op (PrattRT.BinOp.mem_all op)
+  simp only [hw, Bool.not_true, Bool.false_or] at this
+  split at this
+  · rename_i h t hsp
+    simp only [Bool.and_eq_true, Bool.not_eq_true', bne_iff_ne, ne_eq] at this
+    exact ⟨h, t, hsp, this.1.1, this.1.2, this.2⟩
+  · cases this
+
+theorem op_gap (lam : Bool) (op : BinOp) (hlam : lam = true → isChain op = false) (a b : Lay)
+    (hl : CST.layOk op a b = true) (x : Char) (tl : List Char) (hx : startChar x = true) :
     let Y := layChars a ++ (spell op ++ (layChars b ++ x :: tl))
-    infixUsage Y = some (PrattRT.ruleOf op, x :: tl) ∧ postfixStar Y = ([], Y) ∧ Boundary Y := by
+    infixUsage lam Y = some (PrattRT.ruleOf op, x :: tl) ∧ postNone Y ∧ TEnd Y := by
   intro Y
   cases hw : isWordOp op with
   | true =>
     simp only [CST.layOk, hw, if_true, Bool.and_eq_true, Bool.not_eq_true', List.isEmpty_eq_false_iff]
       at hl
     obtain ⟨⟨ha, hb⟩, hbw⟩ := hl
-    refine ⟨infixUsage_word op hw a b x tl ha hb hbw hx, ?_⟩
+    refine ⟨infixUsage_word lam op hw hlam a b x tl ha hb hbw hx, ?_⟩
+    have hnl : NoLam Y := by
+      obtain ⟨h, t, hsp, h1, h2, h3⟩ := word_head op hw
+      apply noLam_lay
+      rw [hsp, List.cons_append]
+      exact noLam_of_head h1 h2 h3
     cases a with
     | nil => exact absurd rfl ha
     | cons y a =>
-      have : ∃ d tl', Y = d :: tl' ∧ d ≠ '!' ∧ isIdentChar d = false := by
+      have : ∃ d tl', Y = d :: tl' ∧ (d ≠ '!' ∧ d ≠ '[' ∧ d ≠ '(' ∧ d ≠ '.') ∧
+          isIdentChar d = false := by
         cases y <;> exact ⟨_, _, rfl, by decide, by decide⟩
-      obtain ⟨d, tl', hY, hd1, hd2⟩ := this
-      rw [hY]
-      exact ⟨postfixStar_other _ hd1, boundary_cons hd2⟩
+      obtain ⟨d, tl', hY, ⟨hd1, hd2, hd3, hd4⟩, hd5⟩ := this
+      refine ⟨?_, ?_, hnl⟩
+      · rw [hY]; exact postNone_of_char hd1 hd2 hd3 hd4
+      · rw [hY]; exact boundary_cons hd5
   | false =>
     simp only [CST.layOk, hw, Bool.false_eq_true, if_false, Bool.not_eq_true', Bool.and_eq_false_iff,
       List.isEmpty_eq_false_iff, beq_eq_false_iff_ne, ne_eq] at hl
-    refine ⟨infixUsage_sym op hw a b x tl hx, ?_⟩
+    refine ⟨infixUsage_sym lam op hw a b x tl hx, ?_⟩
+    have hnl : NoLam Y := noLam_lay a (noLam_sym op hw _)
     have hs := symOk_of op hw
+    have hp := symPostOk_of op hw
     simp only [symOk, Bool.and_eq_true] at hs
     obtain ⟨_, hs2⟩ := hs
+    unfold symPostOk at hp
     split at hs2
     · cases hs2
     · rename_i h t hsp
       simp only [Bool.and_eq_true, Bool.not_eq_true'] at hs2
       obtain ⟨⟨_, hid⟩, _⟩ := hs2
-      have : ∃ d tl', Y = d :: tl' ∧ d ≠ '!' ∧ isIdentChar d = false := by
-        cases a with
-        | nil =>
-          refine ⟨h, _, by simp only [Y, layChars, List.nil_append, hsp, List.cons_append]; rfl, ?_, hid⟩
-          rcases hl with hl | hl
+      rw [hsp] at hp
+      simp only [Bool.and_eq_true, bne_iff_ne, ne_eq, Bool.or_eq_true] at hp
+      obtain ⟨⟨hp1, hp2⟩, hp3⟩ := hp
+      cases a with
+      | nil =>
+        have hY : Y = h :: (t ++ (layChars b ++ x :: tl)) := by
+          simp only [Y, layChars, List.nil_append, hsp, List.cons_append]
+        rw [hY]
+        refine ⟨⟨?_, hp2, hp1, ?_⟩, boundary_cons hid, hY ▸ hnl⟩
+        · rcases hl with hl | hl
           · exact absurd rfl hl
           · intro e; apply hl; rw [hsp, e]; rfl
-        | cons y a => cases y <;> exact ⟨_, _, rfl, by decide, by decide⟩
-      obtain ⟨d, tl', hY, hd1, hd2⟩ := this
-      rw [hY]
-      exact ⟨postfixStar_other _ hd1, boundary_cons hd2⟩
+        · intro e
+          rcases hp3 with hp3 | hp3
+          · exact absurd e hp3
+          · cases t with
+            | nil => cases hp3
+            | cons c t' =>
+              simp only [Bool.not_eq_true'] at hp3
+              exact identifier_none_of_start _ hp3
+      | cons y a =>
+        have : ∃ d tl', Y = d :: tl' ∧ (d ≠ '!' ∧ d ≠ '[' ∧ d ≠ '(' ∧ d ≠ '.') ∧
+            isIdentChar d = false := by
+          cases y <;> exact ⟨_, _, rfl, by decide, by decide⟩
+        obtain ⟨d, tl', hY, ⟨hd1, hd2, hd3, hd4⟩, hd5⟩ := this
+        refine ⟨?_, ?_, hnl⟩
+        · rw [hY]; exact postNone_of_char hd1 hd2 hd3 hd4
+        · rw [hY]; exact boundary_cons hd5
 
-/-- MAIN LEMMA (unbounded depth): in front of any `rest` that does not continue a word, and
-    whatever happens after it (`After`: postfix operators, then the operator tail), the
-    `expression` rule splits the text of a well-formed CST into exactly its items. -/
-theorem lex_cst : ∀ (c : CST), c.Shaped → c.LayoutOk → ∀ rest its r, Boundary rest →
-    After rest its r → EX (c.text ++ rest) (c.items ++ its) r
+/-! #### the end of an argument list -/
+
+theorem prefixUsage_stop {c : Char} (X : List Char) (hc : stopChar c = true) :
+    prefixUsage (c :: X) = none := by
+  simp only [stopChar, Bool.or_eq_true, beq_iff_eq] at hc
+  rcases hc with (rfl | rfl) | rfl <;>
+    simp [prefixUsage, naturalPrefixLits_eq, prefixLits_eq, firstRule, lit]
+
+theorem termAtom_stop {c : Char} (X : List Char) (hc : stopChar c = true) :
+    termAtom (c :: X) = none := by
+  have hid : isIdentStart c = false ∧ isDigit c = false ∧ c ≠ 't' ∧ c ≠ 'f' ∧ c ≠ 'n' := by
+    simp only [stopChar, Bool.or_eq_true, beq_iff_eq] at hc
+    rcases hc with (rfl | rfl) | rfl <;> decide
+  obtain ⟨h1, h2, c1, c2, c3⟩ := hid
+  have hb : boolRule (c :: X) = none := by
+    have : firstLit [trueLit, falseLit] (c :: X) = none := by
+      apply firstLit_none_of_heads
+      intro s hs
+      simp only [List.mem_cons, List.not_mem_nil, or_false] at hs
+      rcases hs with rfl | rfl
+      · exact ⟨'t', _, rfl, fun e => c1 e.symm⟩
+      · exact ⟨'f', _, rfl, fun e => c2 e.symm⟩
+    simp [boolRule, keyword, this]
+  have hnl : nullRule (c :: X) = none := by
+    have : firstLit [nullLit] (c :: X) = none := by
+      apply firstLit_none_of_heads
+      intro s hs
+      simp only [List.mem_cons, List.not_mem_nil, or_false] at hs
+      subst hs
+      exact ⟨'n', _, rfl, fun e => c3 e.symm⟩
+    simp [nullRule, keyword, this]
+  have hpl : plus isDigit (c :: X) = none := by simp [plus, h2]
+  simp only [termAtom, hb, hnl, identifier_none_of_start X h1, hpl]
+
+theorem lambdaHead_stop {c : Char} (X : List Char) (hc : stopChar c = true) :
+    lambdaHead (c :: X) = none := by
+  have h : isIdentStart c = false ∧ c ≠ '.' ∧ c ≠ '(' := by
+    simp only [stopChar, Bool.or_eq_true, beq_iff_eq] at hc
+    rcases hc with (rfl | rfl) | rfl <;> decide
+  refine lambdaHead_noarg ?_ (fun r e => by simp only [List.cons.injEq] at e; exact h.2.2 e.1)
+  have : ¬ ('.' = c) := fun e => h.2.1 e.symm
+  simp [argumentR, identifier_none_of_start X h.1, spreadLit_eq, lit, this]
+
+/-- no expression starts at a closing bracket or a comma -/
+theorem exprR_stop (lam : Bool) {c : Char} (X : List Char) (hc : stopChar c = true) (f : Nat) :
+    exprR lam (f + 4) (c :: X) = .fail := by
+  have hne : c ≠ '(' ∧ c ≠ '[' := by
+    simp only [stopChar, Bool.or_eq_true, beq_iff_eq] at hc
+    rcases hc with (rfl | rfl) | rfl <;> decide
+  have ht2 : term2R (f + 1) (c :: X) = .fail := by
+    rw [term2R_succ, termAtom_stop X hc]
+    simp only
+    split
+    · rename_i r1 heq; simp only [List.cons.injEq] at heq; exact absurd heq.1 hne.1
+    · rename_i r1 heq; simp only [List.cons.injEq] at heq; exact absurd heq.1 hne.2
+    · rfl
+  have hci : c ≠ 'i' := by
+    simp only [stopChar, Bool.or_eq_true, beq_iff_eq] at hc
+    rcases hc with (rfl | rfl) | rfl <;> decide
+  have ht : termR (f + 2) (c :: X) = .fail := by
+    rw [termR_succ, condR_succ, ifHead_none_of_head X hci, lamR_succ, lambdaHead_stop X hc]
+    exact ht2
+  rw [exprR_succ, operandR_succ, prefixStar_none (prefixUsage_stop X hc), ht]
+
+theorem lit_spread_none {c : Char} (X : List Char) (h : c ≠ '.') : lit spreadLit (c :: X) = none := by
+  have : ¬ ('.' = c) := fun e => h e.symm
+  simp [spreadLit_eq, lit, this]
+
+theorem argR_stop (lst : Bool) {c : Char} (X : List Char) (hc : stopChar c = true) (f : Nat) :
+    argR lst (f + 5) (c :: X) = .fail := by
+  have hne : c ≠ '.' := by
+    simp only [stopChar, Bool.or_eq_true, beq_iff_eq] at hc
+    rcases hc with (rfl | rfl) | rfl <;> decide
+  rw [argR_succ, lit_spread_none X hne, exprR_stop false X hc]
+
+theorem layChars_singleton (a : LayAtom) : layChars [a] = a.chars := by simp [layChars]
+
+theorem skipWs_cons {c : Char} (r : List Char) (h : isWs c = false) : skipWs (c :: r) = c :: r := by
+  simp [skipWs, List.dropWhile, h]
+
+/-- a layout string with a line break in it: blanks, the first line break, the rest -/
+theorem lay_split_nl : ∀ (l : Lay), (l.any fun a => !a.isWs) = true →
+    ∃ w' nl l', l = w' ++ nl :: l' ∧ wsOnly w' = true ∧ nl.isWs = false
+  | [], h => by simp at h
+  | a :: l, h => by
+    cases ha : a.isWs with
+    | false => exact ⟨[], a, l, rfl, rfl, ha⟩
+    | true =>
+      simp only [List.any_cons, ha, Bool.not_true, Bool.false_or] at h
+      obtain ⟨w', nl, l', rfl, hw, hn⟩ := lay_split_nl l h
+      exact ⟨a :: w', nl, l', rfl, by simp [wsOnly, ha] at hw ⊢; exact hw, hn⟩
+
+theorem callClose_text (c : Close) (hc : c.okCall = true) (rest : List Char) :
+    callClose (c.text ')' ++ rest) = some rest := by
+  cases c with
+  | plain l =>
+    obtain ⟨l', hl'⟩ := skipWs_lay l ')' rest (by decide)
+    simp only [Close.text, List.append_assoc, List.singleton_append, callClose, hl',
+      trailComma_other (lay_head_ne_comma l' (c := ')') rest (by decide)),
+      layoutStar_run l' _ (layoutAtom_none (c := ')') (by decide))]
+  | comma w l0 =>
+    simp only [Close.okCall, Bool.and_eq_true] at hc
+    obtain ⟨hw, hl0⟩ := hc
+    obtain ⟨w', nl, l, rfl, hw', hnl⟩ := lay_split_nl l0 hl0
+    have h1 : skipWs (layChars w ++ ',' :: (layChars w' ++ (nl.chars ++ (layChars l ++ ')' :: rest)))) =
+        ',' :: (layChars w' ++ (nl.chars ++ (layChars l ++ ')' :: rest))) :=
+      skipWs_run w hw ',' _ (by decide)
+    have h2 : skipWs (layChars w' ++ (nl.chars ++ (layChars l ++ ')' :: rest))) =
+        nl.chars ++ (layChars l ++ ')' :: rest) := by
+      cases nl <;> simp [LayAtom.isWs] at hnl
+      · exact skipWs_run w' hw' '\n' _ (by decide)
+      · exact skipWs_run w' hw' '\r' _ (by decide)
+    simp only [Close.text, layChars_append, layChars, List.append_assoc, List.cons_append,
+      List.singleton_append, List.nil_append, callClose, h1, trailComma, h2, newline_atom hnl,
+      layoutStar_run l _ (layoutAtom_none (c := ')') (by decide))]
+
+theorem listClose_text (c : Close) (hc : c.okList = true) (rest : List Char) :
+    listClose (itemTrail (c.text ']' ++ rest)) = some rest := by
+  cases c with
+  | plain l =>
+    obtain ⟨l', hl', hs'⟩ := itemTrail_lay l (c := ']') rest (by decide)
+    have hT : Close.text ']' (.plain l) ++ rest = layChars l ++ ']' :: rest := by simp [Close.text]
+    rw [hT, hl', listClose_eq]
+    have hcm : listComma (layChars l' ++ ']' :: rest) = layChars l' ++ ']' :: rest := by
+      unfold listComma
+      rw [hs']
+      split
+      · rename_i r heq; exact absurd heq (lay_head_ne_comma l' rest (by decide) r)
+      · rfl
+    rw [hcm, gapH_run l' rest (by decide)]
+    rfl
+  | comma w l =>
+    have hw : wsOnly w = true := hc
+    have hT : Close.text ']' (.comma w l) ++ rest = layChars w ++ ',' :: (layChars l ++ ']' :: rest) := by
+      simp [Close.text]
+    rw [hT, itemTrail_ws w hw _ (by decide), listClose_eq]
+    have hcm : listComma (',' :: (layChars l ++ ']' :: rest)) = ']' :: rest := by
+      unfold listComma
+      rw [skipWs_cons _ (by decide)]
+      exact wnStar_run l rest (by decide)
+    rw [hcm]
+    have := gapH_run [] (c := ']') rest (by decide)
+    simp only [layChars, List.nil_append] at this
+    rw [this]
+    rfl
+
+/-- what `argR` leaves behind an element: in a list the blanks (and a comment) behind it
+    belong to the item -/
+def trailL (lst : Bool) (T : List Char) : List Char := if lst then itemTrail T else T
+
+/-- the closing bracket of the two bracketed sequences -/
+def closeBr (lst : Bool) : Char := if lst then ']' else ')'
+
+def Close.okFor (lst : Bool) (c : Close) : Bool := if lst then c.okList else c.okCall
+
+/-- what the text behind the last argument / item has to satisfy -/
+def ArgStop (lst : Bool) (T : List Char) : Prop :=
+  TEnd T ∧ Closes T ∧ ∃ g, argsTailR lst g (trailL lst T) = .ok ([], trailL lst T)
+
+theorem closeBr_stop (lst : Bool) : stopChar (closeBr lst) = true := by cases lst <;> rfl
+
+theorem close_argStop (lst : Bool) (c : Close) (hc : c.okFor lst = true) (rest : List Char) :
+    ArgStop lst (c.text (closeBr lst) ++ rest) := by
+  have hbr := closeBr_stop lst
+  obtain ⟨_, _, hbr3, hbr4, hbr5⟩ := stop_heads hbr
+  have hbrc : closeBr lst ≠ ',' := by cases lst <;> decide
+  cases c with
+  | plain l =>
+    have hT : Close.text (closeBr lst) (.plain l) ++ rest = layChars l ++ closeBr lst :: rest := by
+      simp [Close.text]
+    rw [hT]
+    refine ⟨tend_stop l rest hbr, closes_stop l rest hbr, 1, ?_⟩
+    · -- the text `argsTailR` sees: a suffix of the layout, which `skip` leaves alone after
+      -- its blanks
+      have key : ∃ l', skipWs (trailL lst (layChars l ++ closeBr lst :: rest)) =
+          layChars l' ++ closeBr lst :: rest := by
+        cases lst with
+        | false => exact skipWs_lay l _ rest hbr5
+        | true =>
+          obtain ⟨l', h1, h2⟩ := itemTrail_lay l (c := closeBr true) rest hbr3
+          exact ⟨l', by simp only [trailL, if_true, h1, h2]⟩
+      obtain ⟨l', hl'⟩ := key
+      rw [argsTailR_succ, hl']
+      split
+      · rename_i r heq; exact absurd heq (lay_head_ne_comma l' rest hbrc r)
+      · rfl
+  | comma w l =>
+    have hw : wsOnly w = true := by
+      cases lst
+      · simp only [Close.okFor, Bool.false_eq_true, if_false, Close.okCall, Bool.and_eq_true] at hc
+        exact hc.1
+      · exact hc
+    have hT : Close.text (closeBr lst) (.comma w l) ++ rest =
+        layChars w ++ ',' :: (layChars l ++ closeBr lst :: rest) := by
+      simp [Close.text]
+    rw [hT]
+    refine ⟨tend_stop w _ (by decide), closes_stop w _ (by decide), 6, ?_⟩
+    · have hsk : skipWs (trailL lst (layChars w ++ ',' :: (layChars l ++ closeBr lst :: rest))) =
+          ',' :: (layChars l ++ closeBr lst :: rest) := by
+        cases lst with
+        | false => exact skipWs_run w hw ',' _ (by decide)
+        | true =>
+          simp only [trailL, if_true, itemTrail_ws w hw _ (c := ',') (by decide)]
+          exact skipWs_cons _ (by decide)
+      have hgap : (if lst then gapG (layChars l ++ closeBr lst :: rest)
+          else layoutStar (layChars l ++ closeBr lst :: rest)) = closeBr lst :: rest := by
+        cases lst with
+        | false => exact layoutStar_run l _ (layoutAtom_none hbr3)
+        | true => exact gapG_run l rest hbr3
+      rw [argsTailR_succ, hsk]
+      simp only [hgap, argR_stop lst rest hbr 0]
+
+/-! #### where no lambda starts: the first word of an operand and what follows it -/
+
+/-- `d` (followed by `tl`) stops an argument list: it is not layout, not a blank, not `,`, not `)` -/
+def Stopper (d : Char) (tl : List Char) : Prop :=
+  (notLayoutStart d = true ∨ (d = '/' ∧ ∃ x t, tl = x :: t ∧ x ≠ '/')) ∧ isWs d = false ∧
+    d ≠ ',' ∧ d ≠ ')'
+
+/-- … and when it is `?` (which `optional_arg` would take) what follows it stops as well -/
+def ContChar (d : Char) (tl : List Char) : Prop :=
+  Stopper d tl ∧ (d = '?' → ∃ l2 d2 tl2, tl = layChars l2 ++ d2 :: tl2 ∧ Stopper d2 tl2)
+
+/-- the text behind the first word of an operand, when there is any: layout, then a character
+    that stops an argument list -/
+def Cont (cont : List Char) : Prop :=
+  Boundary cont ∧ ∃ l d tl, cont = layChars l ++ d :: tl ∧ ContChar d tl
+
+theorem Stopper.append {d : Char} {tl : List Char} (h : Stopper d tl) (Y : List Char) :
+    Stopper d (tl ++ Y) := by
+  obtain ⟨h1, h2, h3, h4⟩ := h
+  refine ⟨?_, h2, h3, h4⟩
+  rcases h1 with h1 | ⟨rfl, x, t, rfl, hx⟩
+  · exact Or.inl h1
+  · exact Or.inr ⟨rfl, x, t ++ Y, rfl, hx⟩
+
+theorem Stopper.layoutAtom {d : Char} {tl : List Char} (h : Stopper d tl) :
+    layoutAtom (d :: tl) = none := by
+  rcases h.1 with h1 | ⟨rfl, x, t, rfl, hx⟩
+  · exact layoutAtom_none h1
+  · exact layoutAtom_slash hx
+
+theorem Stopper.of_char {d : Char} (tl : List Char) (h1 : notLayoutStart d = true)
+    (h2 : isWs d = false) (h3 : d ≠ ',') (h4 : d ≠ ')') : Stopper d tl := ⟨Or.inl h1, h2, h3, h4⟩
+
+theorem ContChar.append {d : Char} {tl : List Char} (h : ContChar d tl) (Y : List Char) :
+    ContChar d (tl ++ Y) := by
+  refine ⟨h.1.append Y, fun e => ?_⟩
+  obtain ⟨l2, d2, tl2, rfl, hs⟩ := h.2 e
+  exact ⟨l2, d2, tl2 ++ Y, by simp, hs.append Y⟩
+
+theorem boundary_append_ne {cont : List Char} (h : Boundary cont) (hne : cont ≠ []) (Y : List Char) :
+    Boundary (cont ++ Y) := by
+  cases cont with
+  | nil => exact absurd rfl hne
+  | cons c t => exact h
+
+theorem Cont.append {cont : List Char} (h : Cont cont) (Y : List Char) : Cont (cont ++ Y) := by
+  obtain ⟨hb, l, d, tl, rfl, hc⟩ := h
+  refine ⟨boundary_append_ne hb (by simp) Y, l, d, tl ++ Y, by simp, hc.append Y⟩
+
+/-- a single character that is not `?` -/
+theorem Cont.of_char {d : Char} (tl : List Char) (hi : isIdentChar d = false)
+    (h1 : notLayoutStart d = true) (h2 : isWs d = false) (h3 : d ≠ ',') (h4 : d ≠ ')')
+    (h5 : d ≠ '?') : Cont (d :: tl) :=
+  ⟨boundary_cons hi, [], d, tl, rfl, Stopper.of_char tl h1 h2 h3 h4, fun e => absurd e h5⟩
+
+/-- the first word of an operand text: a non-word start (`-` `!` `(` `[` a digit), or a word of
+    identifier characters — a name, or a word `identifier` rejects — that is the whole text or
+    is followed by a `Cont` -/
+def Lead (c : CST) : Prop :=
+  (∃ d tl, c.text = d :: tl ∧ startChar d = true ∧ isIdentStart d = false) ∨
+  (∃ w cont, c.text = w ++ cont ∧ IdentShape w ∧ (cont = [] ∨ Cont cont) ∧
+    (w ∉ reservedLits ∨ ∀ X, Boundary X → identifier (w ++ X) = none))
+
+/-- a postfix-like continuation `d :: tl` behind an operand with the property `Lead` -/
+theorem lead_suffix {t : List Char} {d : Char} {tl : List Char}
+    (h : (∃ x xs, t = x :: xs ∧ startChar x = true ∧ isIdentStart x = false) ∨
+      (∃ w cont, t = w ++ cont ∧ IdentShape w ∧ (cont = [] ∨ Cont cont) ∧
+        (w ∉ reservedLits ∨ ∀ X, Boundary X → identifier (w ++ X) = none)))
+    (hc : Cont (d :: tl)) :
+    (∃ x xs, t ++ d :: tl = x :: xs ∧ startChar x = true ∧ isIdentStart x = false) ∨
+      (∃ w cont, t ++ d :: tl = w ++ cont ∧ IdentShape w ∧ (cont = [] ∨ Cont cont) ∧
+        (w ∉ reservedLits ∨ ∀ X, Boundary X → identifier (w ++ X) = none)) := by
+  rcases h with ⟨x, xs, rfl, h1, h2⟩ | ⟨w, cont, rfl, hw, hcont, hid⟩
+  · exact Or.inl ⟨x, xs ++ d :: tl, rfl, h1, h2⟩
+  · refine Or.inr ⟨w, cont ++ d :: tl, by simp, hw, Or.inr ?_, hid⟩
+    rcases hcont with rfl | hcont
+    · simpa using hc
+    · exact hcont.append _
+
+theorem word_head2 (op : BinOp) (hw : isWordOp op = true) :
+    ∃ h t, spell op = h :: t ∧ notLayoutStart h = true ∧ isWs h = false ∧ h ≠ ',' ∧ h ≠ ')' ∧ h ≠ '?' := by
+  have : (BinOp.all.all fun op => !isWordOp op ||
+      (match spell op with
+       | h :: _ => notLayoutStart h && !isWs h && h != ',' && h != ')' && h != '?'
+       | [] => false)) = true := by
+    decide +kernel
+  have := List.all_eq_true.mp this op (PrattRT.BinOp.mem_all op)
+  simp only [hw, Bool.not_true, Bool.false_or] at this
+  split at this
+  · rename_i h t hsp
+    simp only [Bool.and_eq_true, Bool.not_eq_true', bne_iff_ne, ne_eq] at this
+    exact ⟨h, t, hsp, this.1.1.1.1, this.1.1.1.2, this.1.1.2, this.1.2, this.2⟩
+  · cases this
+
+/-- the gap between two operands — layout, operator, layout, the next operand — is a `Cont` -/
+theorem cont_gap (op : BinOp) (a b : Lay) (hl : CST.layOk op a b = true) (x : Char) (tl : List Char)
+    (hx : startChar x = true) : Cont (layChars a ++ (spell op ++ (layChars b ++ x :: tl))) := by
+  obtain ⟨_, _, hB, _⟩ := op_gap false op (fun e => by cases e) a b hl x tl hx
+  refine ⟨hB, ?_⟩
+  cases hw : isWordOp op with
+  | true =>
+    obtain ⟨h, t, hsp, h1, h2, h3, h4, h5⟩ := word_head2 op hw
+    exact ⟨a, h, t ++ (layChars b ++ x :: tl), by rw [hsp]; simp,
+      Stopper.of_char _ h1 h2 h3 h4, fun e => absurd e h5⟩
+  | false =>
+    have hs := symOk_of op hw
+    have hq := symLamOk_of op hw
+    simp only [symOk, Bool.and_eq_true] at hs
+    obtain ⟨_, hs2⟩ := hs
+    unfold symLamOk at hq
+    split at hs2
+    · cases hs2
+    · rename_i h t hsp
+      rw [hsp] at hq
+      simp only [Bool.and_eq_true, bne_iff_ne, ne_eq, Bool.not_eq_true', Bool.or_eq_true,
+        beq_iff_eq, List.isEmpty_iff] at hs2 hq
+      obtain ⟨⟨hlay, _⟩, _⟩ := hs2
+      obtain ⟨⟨⟨⟨hq1, hq2⟩, hq3⟩, _⟩, hq5⟩ := hq
+      obtain ⟨_, _, hx3, _, _⟩ := startChar_facts hx
+      have hst : Stopper h (t ++ (layChars b ++ x :: tl)) := by
+        refine ⟨?_, hq3, hq1, hq2⟩
+        rcases hlay with hlay | ⟨rfl, rfl⟩
+        · exact Or.inl hlay
+        · obtain ⟨d, tl', hX, hd⟩ := lay_head b x tl (fun d => d ≠ '/')
+            (by decide) (by decide) (by decide) (by decide) hx3
+          exact Or.inr ⟨rfl, d, tl', by simpa using hX, hd⟩
+      refine ⟨a, h, t ++ (layChars b ++ x :: tl), by rw [hsp]; simp, hst, ?_⟩
+      intro e
+      subst e
+      rcases hq5 with hq5 | hq5
+      · exact absurd rfl hq5
+      · cases t with
+        | nil => cases hq5
+        | cons c t' =>
+          simp only [beq_iff_eq] at hq5
+          subst hq5
+          exact ⟨[], '?', t' ++ (layChars b ++ x :: tl), by simp [layChars],
+            Stopper.of_char _ (by decide) (by decide) (by decide) (by decide)⟩
+
+theorem lead : ∀ (c : CST), c.Shaped → c.LayoutOk → Lead c
   | .atom e, h, _ => by
-    intro rest its r hb hk
+    obtain ⟨hne, hall, _, _⟩ := atom_word (e := e) h
+    rcases atom_ident h with ⟨n, hn, hw, hnot⟩ | hid
+    · exact Or.inr ⟨n.toList, [], by simp [CST.text, hn], hw, Or.inl rfl, Or.inl hnot⟩
+    · -- a reserved literal or a number
+      cases hw : atomText e with
+      | nil => exact absurd hw hne
+      | cons d ds =>
+        by_cases hs : isIdentStart d = true
+        · refine Or.inr ⟨atomText e, [], by simp [CST.text], ?_, Or.inl rfl, Or.inr hid⟩
+          simp only [IdentShape, identShape, hw, hs, Bool.true_and, List.all_eq_true]
+          intro x hx
+          exact hall x (by rw [hw]; exact List.mem_cons_of_mem _ hx)
+        · refine Or.inl ⟨d, ds, by simp [CST.text, hw], ?_, by simpa using hs⟩
+          have := hall d (by rw [hw]; exact List.mem_cons_self)
+          simp [startChar, this]
+  | .bin op l a b r, h, hl => by
+    obtain ⟨x, tl, hx, hsx⟩ := text_start r h.2.1
+    have hc := cont_gap op a b hl.2.2 x tl hsx
+    obtain ⟨d, t, hdt⟩ := List.exists_cons_of_ne_nil
+      (l := layChars a ++ (spell op ++ (layChars b ++ x :: tl))) (by simp)
+    have := lead_suffix (lead l h.1 hl.1) (d := d) (tl := t) (hdt ▸ hc)
+    simpa only [Lead, CST.text, hx, hdt] using this
+  | .un op e, h, _ => by
+    cases op with
+    | negate => exact Or.inl ⟨'-', e.text, rfl, by decide, by decide⟩
+    | not => exact Or.inl ⟨'!', e.text, rfl, by decide, by decide⟩
+    | invert => exact absurd rfl h.1
+  | .fact e, h, hl => by
+    have := lead_suffix (lead e h.1 hl) (d := '!') (tl := [])
+      (Cont.of_char [] (by decide) (by decide) (by decide) (by decide) (by decide) (by decide))
+    simpa only [Lead, CST.text] using this
+  | .paren a e b, _, _ => Or.inl ⟨'(', _, rfl, by decide, by decide⟩
+  | .call0 f l, h, hl => by
+    have := lead_suffix (lead f h.1 hl) (d := '(') (tl := layChars l ++ [')'])
+      (Cont.of_char _ (by decide) (by decide) (by decide) (by decide) (by decide) (by decide))
+    simpa only [Lead, CST.text] using this
+  | .call f l as c, h, hl => by
+    have := lead_suffix (lead f h.1 hl.1) (d := '(') (tl := layChars l ++ (CST.argsText as ++ c.text ')'))
+      (Cont.of_char _ (by decide) (by decide) (by decide) (by decide) (by decide) (by decide))
+    simpa only [Lead, CST.text] using this
+  | .access e a i b, h, hl => by
+    have := lead_suffix (lead e h.1 hl.1) (d := '[') (tl := layChars a ++ (i.text ++ (layChars b ++ [']'])))
+      (Cont.of_char _ (by decide) (by decide) (by decide) (by decide) (by decide) (by decide))
+    simpa only [Lead, CST.text] using this
+  | .dot e n, h, hl => by
+    have := lead_suffix (lead e h.1 hl) (d := '.') (tl := n.toList)
+      (Cont.of_char _ (by decide) (by decide) (by decide) (by decide) (by decide) (by decide))
+    simpa only [Lead, CST.text] using this
+  | .list0 l, _, _ => Or.inl ⟨'[', _, rfl, by decide, by decide⟩
+  | .list l as c, _, _ => Or.inl ⟨'[', _, rfl, by decide, by decide⟩
+  | .cond w c l1 l2 t l3 l4 e, h, hl => by
+    obtain ⟨x, tl, hx, hsx⟩ := text_start c h.1
+    obtain ⟨hx1, _, _, hx4, hx5⟩ := startChar_facts hsx
+    have hxc : x ≠ ',' := by intro e; subst e; revert hsx; decide
+    have hxq : x ≠ '?' := by intro e; subst e; revert hsx; decide
+    obtain ⟨⟨hw, hws, _⟩, _⟩ := hl
+    refine Or.inr ⟨['i', 'f'], layChars w ++ (c.text ++ (layChars l1 ++ (thenLit ++ (layChars l2 ++
+      (t.text ++ (layChars l3 ++ (elseLit ++ (layChars l4 ++ e.text)))))))), by simp [CST.text],
+      by decide, Or.inr ?_, Or.inr ?_⟩
+    · refine ⟨?_, w, x, tl ++ (layChars l1 ++ (thenLit ++ (layChars l2 ++
+        (t.text ++ (layChars l3 ++ (elseLit ++ (layChars l4 ++ e.text))))))), by simp [hx],
+        Stopper.of_char _ hx1 hx4 hxc hx5, fun e => absurd e hxq⟩
+      cases w with
+      | nil => exact absurd rfl hw
+      | cons a w' => cases a <;> exact boundary_cons (by decide)
+    · intro X hb
+      have hf : firstLit reservedLits (['i', 'f'] ++ X) = some (['i', 'f'], X) := by
+        simp [firstLit, reservedLits, Gen.grammarReserved, lit]
+      have hk := keyword_isSome_of_firstLit hf hb
+      simp only [List.cons_append, List.nil_append] at hk ⊢
+      simp [identifier, hk]
+  | .lambda hd w l b, h, hl => by
+    cases hd with
+    | unit l0 => exact Or.inl ⟨'(', _, rfl, by decide, by decide⟩
+    | parens l0 a more c => exact Or.inl ⟨'(', _, rfl, by decide, by decide⟩
+    | bare a =>
+      have hn := h.1
+      simp only [LamHead.namesOk, LamHead.args, List.all_cons, List.all_nil, Bool.and_true,
+        Bool.and_eq_true] at hn
+      -- the text behind the name: blanks and `=>`
+      have harrow : ∀ T, Stopper '=' T := fun T =>
+        Stopper.of_char T (by decide) (by decide) (by decide) (by decide)
+      have hbd : ∀ T, Boundary (layChars w ++ '=' :: T) := fun T => by
+        obtain ⟨d, tl', hX, hd⟩ := lay_head w '=' T (fun d => isIdentChar d = false)
+          (by decide) (by decide) (by decide) (by decide) (by decide)
+        rw [hX]; exact boundary_cons hd
+      cases a with
+      | rest n => simp at hn
+      | req n =>
+        obtain ⟨hw, hnot⟩ := nameOk_facts hn.1
+        refine Or.inr ⟨n.toList, layChars w ++ '=' :: '>' :: (layChars l ++ b.text),
+          by simp [CST.text, LamHead.text, argText], hw, Or.inr ?_, Or.inl hnot⟩
+        exact ⟨hbd _, w, '=', _, rfl, harrow _, fun e => by cases e⟩
+      | opt n =>
+        obtain ⟨hw, hnot⟩ := nameOk_facts hn.1
+        refine Or.inr ⟨n.toList, '?' :: (layChars w ++ '=' :: '>' :: (layChars l ++ b.text)),
+          by simp [CST.text, LamHead.text, argText], hw, Or.inr ?_, Or.inl hnot⟩
+        refine ⟨boundary_cons (by decide), [], '?', _, rfl,
+          Stopper.of_char _ (by decide) (by decide) (by decide) (by decide), fun _ => ?_⟩
+        exact ⟨w, '=', _, rfl, harrow _⟩
+
+/-- no lambda starts at an atom that is not followed by `=>` -/
+theorem lambdaHead_atom {e : Expr} (h : atomOk e = true) {rest : List Char} (ht : TEnd rest) :
+    lambdaHead (atomText e ++ rest) = none := by
+  obtain ⟨hne, hall, _, _⟩ := atom_word (e := e) h
+  rcases atom_ident h with ⟨n, hn, hw, hnot⟩ | hid
+  · have hnok : nameOk n = true := by
+      simp only [nameOk, Bool.and_eq_true, Bool.not_eq_true']
+      refine ⟨hw, ?_⟩
+      cases hc : Gen.grammarReserved.contains n with
+      | false => rfl
+      | true =>
+        exact absurd (mem_reservedLits.mpr (by rw [String.ofList_toList]; simpa using hc)) hnot
+    rw [hn]
+    exact lambdaHead_name hnok ht.1 ht.2
+  · cases hw : atomText e with
+    | nil => exact absurd hw hne
+    | cons d ds =>
+      have := hid rest ht.1
+      rw [hw, List.cons_append] at this
+      rw [List.cons_append]
+      exact lambdaHead_nonname this (hall d (by rw [hw]; exact List.mem_cons_self))
+
+theorem lambdaHead_bracket (X : List Char) : lambdaHead ('[' :: X) = none := by
+  refine lambdaHead_noarg ?_ (fun r e => by cases e)
+  simp [argumentR, identifier_none_of_start X (c := '[') (by decide), spreadLit_eq, lit]
+
+theorem argumentR_paren (X : List Char) : argumentR ('(' :: X) = none := by
+  simp [argumentR, identifier_none_of_start X (c := '(') (by decide), spreadLit_eq, lit]
+
+/-- `argument` on a word `w` followed by `X` where `identifier` reads exactly `w` -/
+theorem argumentR_word_q {w X r' : List Char} (hid : identifier (w ++ X) = some X)
+    (hs : skipWs X = '?' :: r') : argumentR (w ++ X) = some (.opt (String.ofList w), r') := by
+  simp only [argumentR, hid, consumed_append', hs]
+
+theorem argumentR_word_nq {w X : List Char} (hid : identifier (w ++ X) = some X)
+    (hs : ∀ r', skipWs X = '?' :: r' → False) :
+    argumentR (w ++ X) = some (.req (String.ofList w), X) := by
+  -- the side condition of the second `match` alternative is discharged from `hs`
+  simp only [argumentR, hid, consumed_append']
+
+/-- `argument` on a word that `identifier` rejects -/
+theorem argumentR_reject {c : Char} {t : List Char} (hid : identifier (c :: t) = none)
+    (hc : c ≠ '.') : argumentR (c :: t) = none := by
+  have : ¬ ('.' = c) := fun e => hc e.symm
+  simp [argumentR, hid, spreadLit_eq, lit, this]
+
+theorem argumentTailClose_stop (a0 : LArg) (l : Lay) {d : Char} (tl : List Char) (h : Stopper d tl) :
+    argumentTailClose a0 (layChars l ++ d :: tl) = none := by
+  simp only [argumentTailClose, argumentsTail_stop _ l tl h.2.1 h.2.2.1,
+    callClose_fail l tl h.layoutAtom h.2.1 h.2.2.1 h.2.2.2, Option.map_none]
+
+theorem lay_cons_q {l : Lay} {d : Char} {T r' : List Char} (h : layChars l ++ d :: T = '?' :: r') :
+    l = [] ∧ d = '?' ∧ r' = T := by
+  cases l with
+  | nil =>
+    simp only [layChars, List.nil_append, List.cons.injEq] at h
+    exact ⟨rfl, h.1, h.2.symm⟩
+  | cons a l => cases a <;> simp [layChars, LayAtom.chars] at h
+
+/-- between parentheses the text of an expression is an argument list only when it is one
+    name; then the list ends at the closing parenthesis -/
+theorem argumentListParen_paren (a : Lay) (e : CST) (b : Lay) (rest : List Char) (hs : e.Shaped)
+    (hl : e.LayoutOk) :
+    argumentListParen (layChars a ++ (e.text ++ (layChars b ++ ')' :: rest))) = none ∨
+      ∃ args, argumentListParen (layChars a ++ (e.text ++ (layChars b ++ ')' :: rest))) =
+        some (args, rest) := by
+  obtain ⟨x, tl, hx, hsx⟩ := text_start e hs
+  obtain ⟨hx1, _, _, hx4, hx5⟩ := startChar_facts hsx
+  have hxc : x ≠ ',' := by intro e; subst e; revert hsx; decide
+  have hla : layoutAtom (e.text ++ (layChars b ++ ')' :: rest)) = none := by
+    rw [hx, List.cons_append]; exact layoutAtom_none hx1
+  have hclose0 : callClose (e.text ++ (layChars b ++ ')' :: rest)) = none := by
+    rw [hx, List.cons_append]
+    exact callClose_fail [] _ (layoutAtom_none hx1) hx4 hxc hx5
+  unfold argumentListParen
+  rw [layoutStar_run a _ hla]
+  rcases lead e hs hl with ⟨d, t, hd, hd1, hd2⟩ | ⟨w, cont, hw, hshape, hcont, hid⟩
+  · -- not a word: no argument
+    left
+    have hnone : argumentR (e.text ++ (layChars b ++ ')' :: rest)) = none := by
+      rw [hd, List.cons_append]
+      exact argumentR_reject (identifier_none_of_start _ hd2)
+        (by intro e; subst e; revert hd1; decide)
+    simp only [hnone, hclose0, Option.map_none]
+  · have hZ : Boundary (layChars b ++ ')' :: rest) := (tend_stop b rest (by decide)).1
+    have hbX : Boundary (cont ++ (layChars b ++ ')' :: rest)) := by
+      rcases hcont with rfl | hc
+      · simpa using hZ
+      · exact (hc.append _).1
+    rcases hid with hnot | hid
+    · -- a name
+      have hidn := identifier_run hshape hnot hbX
+      rw [hw, List.append_assoc]
+      rcases hcont with rfl | hc
+      · -- the parentheses hold just the name: `(w)` is an argument list
+        right
+        simp only [List.nil_append] at hidn ⊢
+        obtain ⟨b', hb'⟩ := skipWs_lay b ')' rest (by decide)
+        have hq : ∀ r', skipWs (layChars b ++ ')' :: rest) = '?' :: r' → False := by
+          intro r' e
+          rw [hb'] at e
+          obtain ⟨hh, _⟩ := lay_cons_q e
+          obtain ⟨_, h2, _⟩ := lay_cons_q e
+          exact absurd h2 (by decide)
+        have hc := callClose_text (.plain b) rfl rest
+        simp only [Close.text, List.append_assoc, List.singleton_append] at hc
+        refine ⟨[.req (String.ofList w)], ?_⟩
+        simp only [argumentR_word_nq hidn hq, argumentTailClose,
+          argumentsTail_stop _ b rest (d := ')') (by decide) (by decide), hc, Option.map_some]
+      · left
+        obtain ⟨_, l0, d0, t0, rfl, hcc⟩ := hc
+        have hX : (layChars l0 ++ d0 :: t0) ++ (layChars b ++ ')' :: rest) =
+            layChars l0 ++ d0 :: (t0 ++ (layChars b ++ ')' :: rest)) := by simp
+        rw [hX] at hidn ⊢
+        have hcc' := hcc.append (layChars b ++ ')' :: rest)
+        obtain ⟨l', hl'⟩ := skipWs_lay l0 d0 (t0 ++ (layChars b ++ ')' :: rest)) hcc'.1.2.1
+        by_cases hqq : ∃ r', skipWs (layChars l0 ++ d0 :: (t0 ++ (layChars b ++ ')' :: rest))) = '?' :: r'
+        · -- `w ?…`: the `?` is taken by `optional_arg`; what follows stops the list
+          obtain ⟨r', hr'⟩ := hqq
+          have e := hr'
+          rw [hl'] at e
+          obtain ⟨_, hd0, hrr⟩ := lay_cons_q e
+          subst hd0
+          obtain ⟨l2, d2, tl2, htl, hst⟩ := hcc'.2 rfl
+          rw [argumentR_word_q hidn hr', hrr, htl]
+          exact argumentTailClose_stop _ l2 tl2 hst
+        · have hq : ∀ r', skipWs (layChars l0 ++ d0 :: (t0 ++ (layChars b ++ ')' :: rest))) =
+              '?' :: r' → False := fun r' e => hqq ⟨r', e⟩
+          rw [argumentR_word_nq hidn hq]
+          exact argumentTailClose_stop _ l0 _ hcc'.1
+    · -- a word `identifier` rejects
+      left
+      have hnone : argumentR (e.text ++ (layChars b ++ ')' :: rest)) = none := by
+        have := hid _ hbX
+        rw [hw, List.append_assoc]
+        cases hwc : w with
+        | nil => exact absurd hwc hshape.ne_nil
+        | cons c t =>
+          rw [hwc] at this
+          have hc : isIdentChar c = true := hshape.all c (by rw [hwc]; exact List.mem_cons_self)
+          rw [List.cons_append] at this ⊢
+          exact argumentR_reject this (by intro e; subst e; revert hc; decide)
+      simp only [hnone, hclose0, Option.map_none]
+
+/-- no lambda starts at a parenthesised expression that is not followed by `=>`: either the
+    text between the parentheses is not an argument list, or (a single name) it is and the
+    `=>` is missing -/
+theorem lambdaHead_paren (a : Lay) (e : CST) (b : Lay) (rest : List Char) (hs : e.Shaped)
+    (hl : e.LayoutOk) (hn : NoLam rest) :
+    lambdaHead ('(' :: (layChars a ++ (e.text ++ (layChars b ++ ')' :: rest)))) = none := by
+  simp only [lambdaHead, argumentList, argumentR_paren]
+  rcases argumentListParen_paren a e b rest hs hl with h | ⟨args, h⟩
+  · simp only [h]
+  · simp only [h, lit_arrow_none hn.1, Option.map_none]
+
+/-! #### the head of a lambda is read back -/
+
+theorem argText_start {a : LArg} (h : nameOk a.name = true) :
+    ∃ x tl, argText a = x :: tl ∧ notLayoutStart x = true := by
+  cases a with
+  | rest n => exact ⟨'.', '.' :: '.' :: n.toList, by simp [argText, spreadLit_eq], by decide⟩
+  | req n =>
+    obtain ⟨x, tl, hx, hc⟩ := name_start (n := n) h
+    exact ⟨x, tl, by simp [argText, hx], by
+      obtain ⟨h1, h2, h3, h4, h5, _⟩ := isIdentChar_cases hc
+      simp [notLayoutStart, *]⟩
+  | opt n =>
+    obtain ⟨x, tl, hx, hc⟩ := name_start (n := n) h
+    exact ⟨x, tl ++ ['?'], by simp [argText, hx], by
+      obtain ⟨h1, h2, h3, h4, h5, _⟩ := isIdentChar_cases hc
+      simp [notLayoutStart, *]⟩
+
+/-- an argument in front of blanks / layout and a comma or closing parenthesis -/
+theorem argumentR_argText (a : LArg) (hn : nameOk a.name = true) (lw : Lay) {c0 : Char}
+    (hc0 : stopChar c0 = true) (M' : List Char) :
+    argumentR (argText a ++ (layChars lw ++ c0 :: M')) = some (a, layChars lw ++ c0 :: M') := by
+  have hb : Boundary (layChars lw ++ c0 :: M') := (tend_stop lw M' hc0).1
+  cases a with
+  | req n =>
+    refine argumentR_req hn hb ?_
+    intro r e
+    obtain ⟨_, _, _, _, h5⟩ := stop_heads hc0
+    obtain ⟨l', hl'⟩ := skipWs_lay lw c0 M' h5
+    rw [hl'] at e
+    obtain ⟨_, hd, _⟩ := lay_cons_q e
+    subst hd
+    revert hc0; decide
+  | opt n =>
+    have : argText (.opt n) ++ (layChars lw ++ c0 :: M') = n.toList ++ '?' :: (layChars lw ++ c0 :: M') := by
+      simp [argText]
+    rw [this]
+    exact argumentR_opt hn _
+  | rest n =>
+    have : argText (.rest n) ++ (layChars lw ++ c0 :: M') =
+        spreadLit ++ (n.toList ++ (layChars lw ++ c0 :: M')) := by simp [argText]
+    rw [this]
+    exact argumentR_rest hn hb
+
+/-- the end of the argument list: `C` starts (after layout) with `,` or `)`, and no further
+    argument is read from it -/
+def ArgsEnd (C : List Char) : Prop :=
+  (∃ lw c0 C', C = layChars lw ++ c0 :: C' ∧ stopChar c0 = true) ∧
+    ∀ n, argumentsTail (n + 1) C = ([], C)
+
+theorem more_head (more : List (Lay × Lay × LArg)) {C : List Char}
+    (hC : ∃ lw c0 C', C = layChars lw ++ c0 :: C' ∧ stopChar c0 = true) :
+    ∃ lw c0 C', moreText more ++ C = layChars lw ++ c0 :: C' ∧ stopChar c0 = true := by
+  cases more with
+  | nil => simpa [moreText] using hC
+  | cons x rest =>
+    obtain ⟨w, l, a⟩ := x
+    exact ⟨w, ',', layChars l ++ (argText a ++ (moreText rest ++ C)), by simp [moreText], rfl⟩
+
+theorem argumentsTail_more : ∀ (more : List (Lay × Lay × LArg)) (n : Nat) (C : List Char),
+    more.length < n → (∀ x ∈ more, wsOnly x.1 = true ∧ nameOk x.2.2.name = true) → ArgsEnd C →
+    argumentsTail n (moreText more ++ C) = (more.map (fun x => x.2.2), C)
+  | [], n, C, hn, _, hC => by
+    cases n with
+    | zero => exact absurd hn (Nat.not_lt_zero _)
+    | succ k => simpa [moreText] using hC.2 k
+  | (w, l, a) :: rest, n, C, hn, hall, hC => by
+    cases n with
+    | zero => exact absurd hn (Nat.not_lt_zero _)
+    | succ k =>
+      obtain ⟨hw, hna⟩ := hall (w, l, a) List.mem_cons_self
+      obtain ⟨x, tl, hx, hxs⟩ := argText_start hna
+      obtain ⟨lw, c0, C', hM, hc0⟩ := more_head rest hC.1
+      have ih := argumentsTail_more rest k C (by simp only [List.length_cons] at hn; omega)
+        (fun y hy => hall y (List.mem_cons_of_mem _ hy)) hC
+      have hlay : layoutAtom (argText a ++ (moreText rest ++ C)) = none := by
+        rw [hx, List.cons_append]; exact layoutAtom_none hxs
+      have htxt : moreText ((w, l, a) :: rest) ++ C =
+          layChars w ++ ',' :: (layChars l ++ (argText a ++ (moreText rest ++ C))) := by
+        simp [moreText]
+      rw [htxt, argumentsTail, skipWs_run w hw ',' _ (by decide)]
+      simp only [layoutStar_run l _ hlay]
+      rw [hM, argumentR_argText a hna lw hc0 C', ← hM]
+      simp only [ih, List.map_cons]
+
+theorem close_argsEnd (c : Close) (hc : c.okCall = true) (Y : List Char) :
+    ArgsEnd (c.text ')' ++ Y) := by
+  cases c with
+  | plain l =>
+    have hT : Close.text ')' (.plain l) ++ Y = layChars l ++ ')' :: Y := by simp [Close.text]
+    rw [hT]
+    exact ⟨⟨l, ')', Y, rfl, rfl⟩, fun n => argumentsTail_stop _ l Y (by decide) (by decide)⟩
+  | comma w l =>
+    simp only [Close.okCall, Bool.and_eq_true] at hc
+    have hT : Close.text ')' (.comma w l) ++ Y = layChars w ++ ',' :: (layChars l ++ ')' :: Y) := by
+      simp [Close.text]
+    rw [hT]
+    refine ⟨⟨w, ',', _, rfl, rfl⟩, fun n => ?_⟩
+    have hnone : argumentR (')' :: Y) = none :=
+      argumentR_reject (identifier_none_of_start Y (by decide)) (by decide)
+    simp only [argumentsTail, skipWs_run w hc.1 ',' _ (by decide),
+      layoutStar_run l _ (layoutAtom_none (c := ')') (by decide)), hnone]
+
+theorem moreText_length (more : List (Lay × Lay × LArg)) : more.length ≤ (moreText more).length := by
+  induction more with
+  | nil => simp [moreText]
+  | cons x rest ih =>
+    obtain ⟨w, l, a⟩ := x
+    simp only [moreText, List.length_cons, List.length_append]
+    omega
+
+/-- the head of a lambda — argument list, blanks, `=>`, layout — in front of the body `X` -/
+theorem lambdaHead_text (hd : LamHead) (hok : hd.ok = true) (hnm : hd.namesOk = true) (w l : Lay)
+    (hw : wsOnly w = true) (X : List Char) (hX : layoutAtom X = none) :
+    lambdaHead (hd.text ++ (layChars w ++ '=' :: '>' :: (layChars l ++ X))) = some (hd.args, X) := by
+  -- behind the argument list
+  have harrow : ∀ args : List LArg,
+      (lit ['=', '>'] (skipWs (layChars w ++ '=' :: '>' :: (layChars l ++ X)))).map
+        (fun r' => (args, layoutStar r')) = some (args, X) := by
+    intro args
+    rw [skipWs_run w hw '=' _ (by decide)]
+    simp only [lit, if_true, Option.map_some, layoutStar_run l X hX]
+  have hbY : Boundary (layChars w ++ '=' :: '>' :: (layChars l ++ X)) := by
+    obtain ⟨d, tl', hXX, hd⟩ := lay_head w '=' ('>' :: (layChars l ++ X))
+      (fun d => isIdentChar d = false) (by decide) (by decide) (by decide) (by decide) (by decide)
+    rw [hXX]; exact boundary_cons hd
+  simp only [LamHead.namesOk, Bool.and_eq_true, List.all_eq_true] at hnm
+  obtain ⟨hnames, hbare⟩ := hnm
+  cases hd with
+  | bare a =>
+    have hna : nameOk a.name = true := hnames a (by simp [LamHead.args])
+    cases a with
+    | rest n => simp at hbare
+    | req n =>
+      have harg : argumentR (n.toList ++ (layChars w ++ '=' :: '>' :: (layChars l ++ X))) =
+          some (.req n, layChars w ++ '=' :: '>' :: (layChars l ++ X)) := by
+        refine argumentR_req hna hbY ?_
+        intro r e
+        rw [skipWs_run w hw '=' _ (by decide)] at e
+        cases e
+      simp only [LamHead.text, argText, LamHead.args, lambdaHead, argumentList, harg, harrow]
+    | opt n =>
+      have htxt : (n.toList ++ ['?']) ++ (layChars w ++ '=' :: '>' :: (layChars l ++ X)) =
+          n.toList ++ '?' :: (layChars w ++ '=' :: '>' :: (layChars l ++ X)) := by simp
+      have harg := argumentR_opt (n := n) hna (layChars w ++ '=' :: '>' :: (layChars l ++ X))
+      simp only [LamHead.text, argText, LamHead.args, htxt]
+      simp only [lambdaHead, argumentList, harg, harrow]
+  | unit l0 =>
+    have hnone : argumentR (')' :: (layChars w ++ '=' :: '>' :: (layChars l ++ X))) = none :=
+      argumentR_reject (identifier_none_of_start _ (by decide)) (by decide)
+    have hc := callClose_text (.plain []) rfl (layChars w ++ '=' :: '>' :: (layChars l ++ X))
+    simp only [Close.text, layChars, List.nil_append, List.singleton_append] at hc
+    simp only [LamHead.text, LamHead.args, List.cons_append, List.append_assoc,
+      List.singleton_append, List.nil_append]
+    simp only [lambdaHead, argumentList, argumentR_paren, argumentListParen,
+      layoutStar_run l0 _ (layoutAtom_none (c := ')') (by decide)), hnone, hc, Option.map_some,
+      harrow]
+  | parens l0 a more c =>
+    simp only [LamHead.ok, Bool.and_eq_true, List.all_eq_true] at hok
+    obtain ⟨hmw, hcc⟩ := hok
+    have hna : nameOk a.name = true := hnames a (by simp [LamHead.args])
+    have hall : ∀ x ∈ more, wsOnly x.1 = true ∧ nameOk x.2.2.name = true := fun x hx =>
+      ⟨hmw x hx, hnames x.2.2 (by simp only [LamHead.args, List.mem_cons, List.mem_map]; exact Or.inr ⟨x, hx, rfl⟩)⟩
+    obtain ⟨x, tl, hx, hxs⟩ := argText_start hna
+    have hend := close_argsEnd c hcc (layChars w ++ '=' :: '>' :: (layChars l ++ X))
+    obtain ⟨lw, c0, C', hM, hc0⟩ := more_head more hend.1
+    have hlay : layoutAtom (argText a ++ (moreText more ++
+        (c.text ')' ++ (layChars w ++ '=' :: '>' :: (layChars l ++ X))))) = none := by
+      rw [hx, List.cons_append]; exact layoutAtom_none hxs
+    have htail := argumentsTail_more more
+      ((moreText more ++ (c.text ')' ++ (layChars w ++ '=' :: '>' :: (layChars l ++ X)))).length + 1)
+      _ (by have := moreText_length more; simp only [List.length_append]; omega) hall hend
+    have htc : argumentTailClose a (moreText more ++
+        (c.text ')' ++ (layChars w ++ '=' :: '>' :: (layChars l ++ X)))) =
+        some (a :: more.map (fun x => x.2.2), layChars w ++ '=' :: '>' :: (layChars l ++ X)) := by
+      simp only [argumentTailClose, htail, callClose_text c hcc, Option.map_some]
+    have harg := argumentR_argText a hna lw hc0 C'
+    rw [← hM] at harg
+    simp only [LamHead.text, LamHead.args, List.cons_append, List.append_assoc]
+    simp only [lambdaHead, argumentList, argumentR_paren, argumentListParen,
+      layoutStar_run l0 _ hlay, harg, htc, harrow]
+
+/-! #### the main lemma -/
+
+/-- the argument / item list at `X` is read as `trees`, leaving `R` -/
+def ArgsLex (lst : Bool) (X : List Char) (trees : List Expr) (R : List Char) : Prop :=
+  ∃ f a more r1, argR lst f X = .ok (a, r1) ∧ argsTailR lst f r1 = .ok (more, R) ∧ trees = a :: more
+
+theorem argR_of_ex (lst : Bool) {X R : List Char} {its : List PItem} {t : Expr} (sp : Bool)
+    {x : Char} {tl : List Char} (hX : X = x :: tl) (hx : startChar x = true) {f : Nat}
+    (he : exprR false f X = .ok (its, R)) (hp : prattParse its = some t) :
+    argR lst (f + 1) (spreadChars sp ++ X) = .ok (argTree sp t, trailL lst R) := by
+  have hne : x ≠ '.' := by intro e; subst e; revert hx; decide
+  cases sp
+  · simp only [spreadChars, Bool.false_eq_true, if_false, List.nil_append, argTree]
+    rw [argR_succ, hX, lit_spread_none tl hne, ← hX, he]
+    simp only [hp, trailL]
+  · simp only [spreadChars, if_true, argTree]
+    rw [argR_succ, lit_append]
+    simp only [he, hp, trailL]
+
+theorem termAtom_bracket (X : List Char) : termAtom ('[' :: X) = none := by
+  have h1 : boolRule ('[' :: X) = none := by
+    simp [boolRule, keyword, firstLit, trueLit, falseLit, lit]
+  have h2 : nullRule ('[' :: X) = none := by
+    simp [nullRule, keyword, firstLit, nullLit, lit]
+  have h3 : identifier ('[' :: X) = none := identifier_none_of_start X (by decide)
+  have h4 : plus isDigit ('[' :: X) = none := by
+    have : isDigit '[' = false := by decide
+    simp [plus, this]
+  simp only [termAtom, h1, h2, h3, h4]
+
+theorem prefixUsage_bracket (X : List Char) : prefixUsage ('[' :: X) = none := by
+  simp [prefixUsage, naturalPrefixLits_eq, prefixLits_eq, firstRule, lit]
+
+theorem lamSafe_left {a b : List PItem} (h : LamSafe (a ++ b)) : LamSafe a :=
+  fun op hm => h op (List.mem_append_left _ hm)
+theorem lamSafe_right {a b : List PItem} (h : LamSafe (a ++ b)) : LamSafe b :=
+  fun op hm => h op (List.mem_append_right _ hm)
+theorem lamSafe_tail {x : PItem} {a : List PItem} (h : LamSafe (x :: a)) : LamSafe a :=
+  fun op hm => h op (List.mem_cons_of_mem _ hm)
+
+theorem endsOpen_of_left {c : Expr} {op : BinOp} (h : needsParens c (.binLeft op) = false) :
+    endsOpen c = false := by
+  unfold needsParens at h
+  simp only [Bool.or_eq_false_iff] at h
+  exact h.1
+
+theorem endsOpen_of_postfix {c : Expr} (h : needsParens c .postfix_ = false) :
+    endsOpen c = false := by
+  unfold needsParens at h
+  simp only [Bool.or_eq_false_iff] at h
+  exact h.1
+
+/-- a name is not taken for a prefix operator -/
+theorem prefixUsage_name {n : String} (hn : nameOk n = true) {Y : List Char} (hb : Boundary Y) :
+    prefixUsage (n.toList ++ Y) = none := by
+  obtain ⟨hw, hnot⟩ := nameOk_facts hn
+  refine prefixUsage_word hw.ne_nil hw.all ?_ hb
+  intro e
+  apply hnot
+  rw [e]
+  decide +kernel
+
+theorem lamHead_prefix (hd : LamHead) (hnm : hd.namesOk = true) (w : Lay) (T : List Char) :
+    prefixUsage (hd.text ++ (layChars w ++ '=' :: T)) = none := by
+  have hbY : Boundary (layChars w ++ '=' :: T) := by
+    obtain ⟨d, tl', hXX, hd⟩ := lay_head w '=' T
+      (fun d => isIdentChar d = false) (by decide) (by decide) (by decide) (by decide) (by decide)
+    rw [hXX]; exact boundary_cons hd
+  simp only [LamHead.namesOk, Bool.and_eq_true, List.all_eq_true] at hnm
+  cases hd with
+  | unit l0 => exact prefixUsage_paren _
+  | parens l0 a more c => exact prefixUsage_paren _
+  | bare a =>
+    have hna : nameOk a.name = true := hnm.1 a (by simp [LamHead.args])
+    cases a with
+    | rest n => simp at hnm
+    | req n => exact prefixUsage_name hna hbY
+    | opt n =>
+      have : LamHead.text (.bare (.opt n)) ++ (layChars w ++ '=' :: T) =
+          n.toList ++ '?' :: (layChars w ++ '=' :: T) := by simp [LamHead.text, argText]
+      rw [this]
+      exact prefixUsage_name hna (boundary_cons (by decide))
+
+theorem ifHead_atom {e : Expr} (h : atomOk e = true) {rest : List Char} (hb : Boundary rest) :
+    ifHead (atomText e ++ rest) = none := by
+  obtain ⟨hne, hall, _, _⟩ := atom_word (e := e) h
+  exact ifHead_word hall (atomText_ne_if h) hne hb
+
+theorem ifHead_lamHead (hd : LamHead) (hnm : hd.namesOk = true) (w : Lay) (T : List Char) :
+    ifHead (hd.text ++ (layChars w ++ '=' :: T)) = none := by
+  have hbY : Boundary (layChars w ++ '=' :: T) := by
+    obtain ⟨d, tl', hXX, hd⟩ := lay_head w '=' T
+      (fun d => isIdentChar d = false) (by decide) (by decide) (by decide) (by decide) (by decide)
+    rw [hXX]; exact boundary_cons hd
+  simp only [LamHead.namesOk, Bool.and_eq_true, List.all_eq_true] at hnm
+  have hname : ∀ n : String, nameOk n = true → ∀ Y, Boundary Y → ifHead (n.toList ++ Y) = none := by
+    intro n hn Y hY
+    obtain ⟨hw, hnot⟩ := nameOk_facts hn
+    refine ifHead_word hw.all (fun e => hnot ?_) hw.ne_nil hY
+    rw [e]; decide +kernel
+  cases hd with
+  | unit l0 => exact ifHead_none_of_head _ (by decide)
+  | parens l0 a more c => exact ifHead_none_of_head _ (by decide)
+  | bare a =>
+    have hna : nameOk a.name = true := hnm.1 a (by simp [LamHead.args])
+    cases a with
+    | rest n => simp at hnm
+    | req n => exact hname n hna _ hbY
+    | opt n =>
+      have : LamHead.text (.bare (.opt n)) ++ (layChars w ++ '=' :: T) =
+          n.toList ++ '?' :: (layChars w ++ '=' :: T) := by simp [LamHead.text, argText]
+      rw [this]
+      exact hname n hna _ (boundary_cons (by decide))
+
+/-- in front of `then` / `else` (behind layout) a term ends and nothing continues an expression -/
+theorem kw_ends {kw : List Char} (h : kw = thenLit ∨ kw = elseLit) (l : Lay) (hl : l ≠ [])
+    (T : List Char) : TEnd (layChars l ++ (kw ++ T)) ∧ Closes (layChars l ++ (kw ++ T)) := by
+  have hhead : ∃ d tl, layChars l ++ (kw ++ T) = d :: tl ∧ isIdentChar d = false ∧
+      (d ≠ '!' ∧ d ≠ '[' ∧ d ≠ '(' ∧ d ≠ '.') := by
+    cases l with
+    | nil => exact absurd rfl hl
+    | cons a l' => cases a <;> exact ⟨_, _, rfl, by decide, by decide⟩
+  obtain ⟨d, tl, hd, hd1, hd2, hd3, hd4, hd5⟩ := hhead
+  have hnl : NoLam (kw ++ T) := by
+    rcases h with rfl | rfl
+    · exact noLam_of_head (c := 't') (by decide) (by decide) (by decide)
+    · exact noLam_of_head (c := 'e') (by decide) (by decide) (by decide)
+  refine ⟨⟨?_, noLam_lay l hnl⟩, ?_, fun lam => infixUsage_kw lam h l T⟩
+  · rw [hd]; exact boundary_cons hd1
+  · rw [hd]; exact postNone_of_char hd2 hd3 hd4 hd5
+
+mutual
+/-- MAIN LEMMA (unbounded depth): in front of any `rest` that ends a term (it continues
+    neither a word nor a lambda head) and — when the tree ends with a lambda body — continues no
+    expression, and whatever happens after it (`After`: postfix operators, then the operator
+    tail), the `expression` rule (`lam = false`) / the `lambda_expression` rule (`lam = true`,
+    for a tree without `via` / `into` / `where` at its top level) splits the text of a
+    well-formed CST into exactly its items. -/
+theorem lex_cst : ∀ (lam : Bool) (c : CST), c.Shaped → c.LayoutOk → (lam = true → LamSafe c.items) →
+    ∀ rest its r, TEnd rest → (c.isParen = false → endsOpen c.tree = true → Closes rest) →
+    After lam rest its r → EX lam (c.text ++ rest) (c.items ++ its) r
+  | lam, .atom e, h, _, _ => by
+    intro rest its r hb _ hk
     obtain ⟨hne, hall, hnot, hterm⟩ := atom_word (e := e) h
     have hp : prefixStar (atomText e ++ rest) = ([], atomText e ++ rest) :=
-      prefixStar_none (prefixUsage_word hne hall hnot hb)
-    have ho : operandR 1 (atomText e ++ rest) =
-        .ok ([] ++ .prim e :: (postfixStar rest).1, (postfixStar rest).2) := by
-      rw [operandR_succ, hp]
-      simp only [hterm rest hb]
-    exact ex_of_operand ho hk
-  | .bin op l a b r, h, hl => by
-    intro rest its r' hb hk
-    obtain ⟨hsl, hsr, _, _⟩ := h
+      prefixStar_none (prefixUsage_word hne hall hnot hb.1)
+    have ht2 : term2R 1 (atomText e ++ rest) = .ok (e, rest) := by
+      rw [term2R_succ, hterm rest hb.1]
+    exact ex_of_term hp (termR_of_term2 (ifHead_atom h hb.1) (lambdaHead_atom h hb) ht2) hk
+  | lam, .bin op l a b r, h, hl, hls => by
+    intro rest its r' hb hco hk
+    obtain ⟨hsl, hsr, hnl, _⟩ := h
     obtain ⟨hll, hlr, hlo⟩ := hl
     obtain ⟨x, tl, hx, hsx⟩ := text_start r hsr
-    have exr := lex_cst r hsr hlr rest its r' hb hk
-    obtain ⟨hi, hY, hB⟩ := op_gap op a b hlo x (tl ++ rest) hsx
+    have hop : lam = true → isChain op = false := fun e =>
+      hls e op (by simp [CST.items])
+    have exr := lex_cst lam r hsr hlr (fun e => lamSafe_tail (lamSafe_right (hls e))) rest its r' hb
+      (fun hp ho => hco rfl (by simpa [CST.tree, endsOpen] using ho)) hk
+    obtain ⟨hi, hY, hB⟩ := op_gap lam op hop a b hlo x (tl ++ rest) hsx
     have hk' := after_infix hi hY (by rw [hx, List.cons_append] at exr; exact exr)
-    have := lex_cst l hsl hll _ _ r' hB hk'
+    have := lex_cst lam l hsl hll (fun e => lamSafe_left (hls e)) _ _ r' hB
+      (fun hp ho => by rw [endsOpen_of_left (hnl hp)] at ho; cases ho) hk'
     simp only [CST.text, CST.items, List.append_assoc, List.cons_append, hx]
     exact this
-  | .un op e, h, hl => by
-    intro rest its r hb hk
+  | lam, .un op e, h, hl, hls => by
+    intro rest its r hb hco hk
     obtain ⟨hop, hse, _⟩ := h
-    have ih := lex_cst e hse hl rest its r hb hk
+    have ih := lex_cst lam e hse hl (fun e' => lamSafe_tail (hls e')) rest its r hb
+      (fun hp ho => hco rfl (by simpa [CST.tree, endsOpen] using ho)) hk
     cases op with
     | negate => exact ex_prefix (prefixUsage_minus _) ih
     | not => exact ex_prefix (prefixUsage_bang _) ih
     | invert => exact absurd rfl hop
-  | .fact e, h, hl => by
-    intro rest its r hb hk
-    have ih := lex_cst e h.1 hl ('!' :: rest) (.postFact :: its) r (boundary_cons (by decide))
-      (after_bang hk)
+  | lam, .fact e, h, hl, hls => by
+    intro rest its r hb _ hk
+    have ih := lex_cst lam e h.1 hl (fun e' => lamSafe_left (hls e')) ('!' :: rest)
+      (.postFact :: its) r (tend_cons (by decide) (by decide) (by decide) (by decide))
+      (fun hp ho => by rw [endsOpen_of_postfix (h.2 hp)] at ho; cases ho)
+      (after_post (postOpR_bang 0 rest) hk)
     simp only [CST.text, CST.items, List.append_assoc, List.singleton_append]
     exact ih
-  | .paren a e b, h, hl => by
-    intro rest its r hb hk
+  | lam, .paren a e b, h, hl, _ => by
+    intro rest its r hb _ hk
     have hse : e.Shaped := h
     obtain ⟨x, tl, hx, hsx⟩ := text_start e hse
-    have hbd : Boundary (layChars b ++ ')' :: rest) := by
-      obtain ⟨d, tl', hX, hd⟩ := lay_head b ')' rest (fun d => isIdentChar d = false)
-        (by decide) (by decide) (by decide) (by decide) (by decide)
-      rw [hX]; exact boundary_cons hd
-    obtain ⟨f, hf⟩ := lex_cst e hse hl (layChars b ++ ')' :: rest) [] _ hbd (after_close b rest)
+    obtain ⟨f, hf⟩ := lex_cst false e hse hl (fun e' => by cases e') (layChars b ++ ')' :: rest) [] _
+      (tend_stop b rest (by decide)) (fun _ _ => closes_stop b rest (by decide))
+      (after_stop false b rest (by decide))
     simp only [List.append_nil] at hf
     have hla : layoutAtom (e.text ++ (layChars b ++ ')' :: rest)) = none := by
       rw [hx, List.cons_append]; exact layoutAtom_none (startChar_facts hsx).1
-    have ho : operandR (f + 1) ('(' :: (layChars a ++ (e.text ++ (layChars b ++ ')' :: rest)))) =
-        .ok ([] ++ .prim e.tree :: (postfixStar rest).1, (postfixStar rest).2) := by
-      rw [operandR_succ, prefixStar_none (prefixUsage_paren _)]
+    have ht2 : term2R (f + 1) ('(' :: (layChars a ++ (e.text ++ (layChars b ++ ')' :: rest)))) =
+        .ok (e.tree, rest) := by
+      rw [term2R_succ]
       simp only [termAtom_paren, layoutStar_run a _ hla, hf,
         layoutStar_run b _ (layoutAtom_none (c := ')') (by decide)), cst_pratt e hse]
-    have := ex_of_operand ho hk
+    have := ex_of_term (prefixStar_none (prefixUsage_paren _))
+      (termR_of_term2 (ifHead_none_of_head _ (by decide)) (lambdaHead_paren a e b rest hse hl hb.2) ht2) hk
     simp only [CST.text, CST.items, List.append_assoc, List.cons_append, List.nil_append] at this ⊢
     exact this
+  | lam, .call0 f l, h, hl, hls => by
+    intro rest its r hb _ hk
+    obtain ⟨hsf, hnf⟩ := h
+    have hq : postOpR 6 ('(' :: (layChars l ++ ')' :: rest)) = .ok (.postCall [], rest) := by
+      rw [postOpR_succ, firstRule_postfix_none _ (by decide)]
+      have hc := callClose_text (.plain []) rfl rest
+      simp only [Close.text, layChars, List.nil_append, List.singleton_append] at hc
+      simp only [layoutStar_run l _ (layoutAtom_none (c := ')') (by decide)),
+        argR_stop false (c := ')') rest (by decide) 0, hc]
+    have ih := lex_cst lam f hsf hl (fun e' => lamSafe_left (hls e'))
+      ('(' :: (layChars l ++ ')' :: rest)) (.postCall [] :: its) r
+      (tend_cons (by decide) (by decide) (by decide) (by decide))
+      (fun hp ho => by rw [endsOpen_of_postfix (hnf hp)] at ho; cases ho) (after_post hq hk)
+    simp only [CST.text, CST.items, List.append_assoc, List.cons_append, List.singleton_append,
+      List.nil_append] at ih ⊢
+    exact ih
+  | lam, .call f l as c, h, hl, hls => by
+    intro rest its r hb _ hk
+    obtain ⟨hsf, hnf, hsa⟩ := h
+    obtain ⟨hlf, hla, hlc⟩ := hl
+    obtain ⟨g, a, more, r1, ha, hm, htr⟩ :=
+      lex_args false as hsa hla (c.text ')' ++ rest) (close_argStop false c hlc rest)
+    obtain ⟨x, tl, hx, hsx⟩ := args_start as hsa
+    have hq : postOpR (g + 1) ('(' :: (layChars l ++ (CST.argsText as ++ (c.text ')' ++ rest)))) =
+        .ok (.postCall (CST.argsTrees as), rest) := by
+      rw [postOpR_succ, firstRule_postfix_none _ (by decide)]
+      have hlay : layoutAtom (CST.argsText as ++ (c.text ')' ++ rest)) = none := by
+        rw [hx, List.cons_append]; exact layoutAtom_none (notLayoutStart_of_argStart hsx)
+      simp only [trailL, Bool.false_eq_true, if_false] at hm
+      simp only [layoutStar_run l _ hlay, ha, hm, callClose_text c hlc rest, htr]
+    have ih := lex_cst lam f hsf hlf (fun e' => lamSafe_left (hls e')) _
+      (.postCall (CST.argsTrees as) :: its) r
+      (tend_cons (d := '(') (by decide) (by decide) (by decide) (by decide))
+      (fun hp ho => by rw [endsOpen_of_postfix (hnf hp)] at ho; cases ho) (after_post hq hk)
+    simp only [CST.text, CST.items, List.append_assoc, List.cons_append, List.singleton_append,
+      List.nil_append] at ih ⊢
+    exact ih
+  | lam, .access e a i b, h, hl, hls => by
+    intro rest its r hb _ hk
+    obtain ⟨hse, hne, hsi⟩ := h
+    obtain ⟨hle, hli, hna, hnb⟩ := hl
+    obtain ⟨x, tl, hx, hsx⟩ := text_start i hsi
+    obtain ⟨g, hg⟩ := lex_cst false i hsi hli (fun e' => by cases e') (layChars b ++ ']' :: rest) [] _
+      (tend_stop b rest (by decide)) (fun _ _ => closes_stop b rest (by decide))
+      (after_stop false b rest (by decide))
+    simp only [List.append_nil] at hg
+    have hq : postOpR (g + 1) ('[' :: (layChars a ++ (i.text ++ (layChars b ++ ']' :: rest)))) =
+        .ok (.postAccess i.tree, rest) := by
+      rw [postOpR_succ, firstRule_postfix_none _ (by decide)]
+      have hn1 : newline (i.text ++ (layChars b ++ ']' :: rest)) = none := by
+        rw [hx, List.cons_append]
+        exact newline_none_of_layoutAtom (layoutAtom_none (startChar_facts hsx).1)
+      have hn2 : newline (']' :: rest) = none :=
+        newline_none_of_layoutAtom (layoutAtom_none (c := ']') (by decide))
+      simp only [nlStar_run a _ hna hn1, hg, nlStar_run b _ hnb hn2, cst_pratt i hsi]
+    have ih := lex_cst lam e hse hle (fun e' => lamSafe_left (hls e')) _
+      (.postAccess i.tree :: its) r
+      (tend_cons (d := '[') (by decide) (by decide) (by decide) (by decide))
+      (fun hp ho => by rw [endsOpen_of_postfix (hne hp)] at ho; cases ho) (after_post hq hk)
+    simp only [CST.text, CST.items, List.append_assoc, List.cons_append, List.singleton_append,
+      List.nil_append] at ih ⊢
+    exact ih
+  | lam, .dot e n, h, hl, hls => by
+    intro rest its r hb _ hk
+    obtain ⟨hse, hne, hn⟩ := h
+    have ih := lex_cst lam e hse hl (fun e' => lamSafe_left (hls e')) _ (.postDot n :: its) r
+      (tend_cons (d := '.') (by decide) (by decide) (by decide) (by decide))
+      (fun hp ho => by rw [endsOpen_of_postfix (hne hp)] at ho; cases ho)
+      (after_post (postOpR_dot 0 hn hb.1) hk)
+    simp only [CST.text, CST.items, List.append_assoc, List.cons_append, List.singleton_append,
+      List.nil_append] at ih ⊢
+    exact ih
+  | lam, .list0 l, _, _, _ => by
+    intro rest its r hb _ hk
+    have ht2 : term2R 6 ('[' :: (layChars l ++ ']' :: rest)) = .ok (.list [], rest) := by
+      rw [term2R_succ]
+      have hc := listClose_text (.plain []) rfl rest
+      have hit : itemTrail (']' :: rest) = ']' :: rest := by
+        have := itemTrail_ws [] rfl (c := ']') rest (by decide)
+        simpa [layChars] using this
+      simp only [Close.text, layChars, List.nil_append, List.singleton_append, hit] at hc
+      simp only [termAtom_bracket, gapG_run l rest (c := ']') (by decide),
+        argR_stop true (c := ']') rest (by decide) 0, hc]
+    have := ex_of_term (prefixStar_none (prefixUsage_bracket _))
+      (termR_of_term2 (ifHead_none_of_head _ (by decide)) (lambdaHead_bracket _) ht2) hk
+    simp only [CST.text, CST.items, List.append_assoc, List.cons_append, List.nil_append,
+      List.singleton_append] at this ⊢
+    exact this
+  | lam, .list l as c, h, hl, _ => by
+    intro rest its r hb _ hk
+    have hsa : CST.ArgsShaped as := h
+    obtain ⟨hla, hlc⟩ := hl
+    obtain ⟨g, a, more, r1, ha, hm, htr⟩ :=
+      lex_args true as hsa hla (c.text ']' ++ rest) (close_argStop true c hlc rest)
+    obtain ⟨x, tl, hx, hsx⟩ := args_start as hsa
+    have ht2 : term2R (g + 1) ('[' :: (layChars l ++ (CST.argsText as ++ (c.text ']' ++ rest)))) =
+        .ok (.list (mkItems (CST.argsTrees as)), rest) := by
+      rw [term2R_succ]
+      have hgap : gapG (layChars l ++ (CST.argsText as ++ (c.text ']' ++ rest))) =
+          CST.argsText as ++ (c.text ']' ++ rest) := by
+        rw [hx, List.cons_append]; exact gapG_run l _ (notLayoutStart_of_argStart hsx)
+      simp only [trailL, if_true] at hm
+      simp only [termAtom_bracket, hgap, ha, hm, listClose_text c hlc rest, htr]
+    have := ex_of_term (prefixStar_none (prefixUsage_bracket _))
+      (termR_of_term2 (ifHead_none_of_head _ (by decide)) (lambdaHead_bracket _) ht2) hk
+    simp only [CST.text, CST.items, List.append_assoc, List.cons_append, List.nil_append,
+      List.singleton_append] at this ⊢
+    exact this
+  | lam, .lambda hd w l b, h, hl, _ => by
+    intro rest its r hb hco hk
+    obtain ⟨hnm, hsb, _, hsafe⟩ := h
+    obtain ⟨hok, hw, hlb⟩ := hl
+    have hcl : Closes rest := hco rfl rfl
+    obtain ⟨x, tl, hx, hsx⟩ := text_start b hsb
+    obtain ⟨g, hg⟩ := lex_cst true b hsb hlb (fun _ => hsafe) rest [] rest hb (fun _ _ => hcl)
+      (after_closes hcl)
+    simp only [List.append_nil] at hg
+    have hX : layoutAtom (b.text ++ rest) = none := by
+      rw [hx, List.cons_append]; exact layoutAtom_none (startChar_facts hsx).1
+    have ht : termR (g + 2) (hd.text ++ (layChars w ++ '=' :: '>' :: (layChars l ++ (b.text ++ rest)))) =
+        .ok (.lambda hd.args b.tree, rest) := by
+      rw [termR_succ, condR_succ, ifHead_lamHead hd hnm w _, lamR_succ,
+        lambdaHead_text hd hok hnm w l hw _ hX]
+      simp only [hg, cst_pratt b hsb]
+    have := ex_of_term (prefixStar_none (lamHead_prefix hd hnm w _)) ht hk
+    simp only [CST.text, CST.items, List.append_assoc, List.cons_append, List.nil_append,
+      List.singleton_append] at this ⊢
+    exact this
+  | lam, .cond w c l1 l2 t l3 l4 e, h, hl, _ => by
+    intro rest its r hb hco hk
+    obtain ⟨hsc, hst, hse⟩ := h
+    obtain ⟨⟨hw, hws, h1, h2, h3, h4⟩, hlc, hlt, hle⟩ := hl
+    have hcl : Closes rest := hco rfl rfl
+    obtain ⟨xc, tlc, hxc, hsxc⟩ := text_start c hsc
+    obtain ⟨xt, tlt, hxt, hsxt⟩ := text_start t hst
+    obtain ⟨xe, tle, hxe, hsxe⟩ := text_start e hse
+    -- the three parts, each up to the keyword (or the end) behind it
+    obtain ⟨g3, hg3⟩ := lex_cst false e hse hle (fun e' => by cases e') rest [] rest hb
+      (fun _ _ => hcl) (after_closes hcl)
+    simp only [List.append_nil] at hg3
+    have hke := kw_ends (Or.inr rfl) l3 h3 (layChars l4 ++ (e.text ++ rest))
+    obtain ⟨g2, hg2⟩ := lex_cst false t hst hlt (fun e' => by cases e') _ [] _ hke.1
+      (fun _ _ => hke.2) (after_closes hke.2)
+    simp only [List.append_nil] at hg2
+    have hkt := kw_ends (Or.inl rfl) l1 h1
+      (layChars l2 ++ (t.text ++ (layChars l3 ++ (elseLit ++ (layChars l4 ++ (e.text ++ rest))))))
+    obtain ⟨g1, hg1⟩ := lex_cst false c hsc hlc (fun e' => by cases e') _ [] _ hkt.1
+      (fun _ _ => hkt.2) (after_closes hkt.2)
+    simp only [List.append_nil] at hg1
+    have hXe : layoutAtom (e.text ++ rest) = none := by
+      rw [hxe, List.cons_append]; exact layoutAtom_none (startChar_facts hsxe).1
+    have hXt : layoutAtom (t.text ++ (layChars l3 ++ (elseLit ++ (layChars l4 ++ (e.text ++ rest))))) =
+        none := by
+      rw [hxt, List.cons_append]; exact layoutAtom_none (startChar_facts hsxt).1
+    let G := max g1 (max g2 g3)
+    have ht : termR (G + 2) ('i' :: 'f' :: (layChars w ++ (c.text ++ (layChars l1 ++ (thenLit ++
+        (layChars l2 ++ (t.text ++ (layChars l3 ++ (elseLit ++ (layChars l4 ++
+          (e.text ++ rest))))))))))) = .ok (.cond c.tree t.tree e.tree, rest) := by
+      rw [termR_succ, condR_succ]
+      have hif : ifHead ('i' :: 'f' :: (layChars w ++ (c.text ++ (layChars l1 ++ (thenLit ++
+          (layChars l2 ++ (t.text ++ (layChars l3 ++ (elseLit ++ (layChars l4 ++
+            (e.text ++ rest))))))))))) = some (c.text ++ (layChars l1 ++ (thenLit ++
+          (layChars l2 ++ (t.text ++ (layChars l3 ++ (elseLit ++ (layChars l4 ++
+            (e.text ++ rest))))))))) := by
+        rw [hxc, List.cons_append]
+        exact ifHead_run w hw hws xc _ (startChar_facts hsxc).2.2.2.1
+      simp only [hif, exprR_mono (Nat.le_max_left g1 (max g2 g3)) hg1,
+        kwGap_run (Or.inl rfl) l1 l2 h1 h2 _ hXt,
+        exprR_mono (Nat.le_trans (Nat.le_max_left g2 g3) (Nat.le_max_right g1 _)) hg2,
+        kwGap_run (Or.inr rfl) l3 l4 h3 h4 _ hXe,
+        exprR_mono (Nat.le_trans (Nat.le_max_right g2 g3) (Nat.le_max_right g1 _)) hg3,
+        cst_pratt c hsc, cst_pratt t hst, cst_pratt e hse, G]
+    have hp : prefixUsage ('i' :: 'f' :: (layChars w ++ (c.text ++ (layChars l1 ++ (thenLit ++
+        (layChars l2 ++ (t.text ++ (layChars l3 ++ (elseLit ++ (layChars l4 ++
+          (e.text ++ rest))))))))))) = none := by
+      have hbw : Boundary (layChars w ++ (c.text ++ (layChars l1 ++ (thenLit ++
+          (layChars l2 ++ (t.text ++ (layChars l3 ++ (elseLit ++ (layChars l4 ++
+            (e.text ++ rest)))))))))) := by
+        cases w with
+        | nil => exact absurd rfl hw
+        | cons a w' => cases a <;> exact boundary_cons (by decide)
+      exact prefixUsage_word (w := ['i', 'f']) (by decide) (by decide) (by decide) hbw
+    have := ex_of_term (prefixStar_none hp) ht hk
+    simp only [CST.text, CST.items, List.append_assoc, List.cons_append, List.nil_append,
+      List.singleton_append] at this ⊢
+    exact this
+/-- … and `call_list` / `list` read an argument / item list, up to the text `T` that closes it -/
+theorem lex_args : ∀ (lst : Bool) (as : Args), CST.ArgsShaped as → CST.ArgsLayoutOk as → ∀ T,
+    ArgStop lst T → ArgsLex lst (CST.argsText as ++ T) (CST.argsTrees as) (trailL lst T)
+  | lst, .last sp a, h, hl => by
+    intro T hT
+    obtain ⟨hb, hcl, g, hg⟩ := hT
+    obtain ⟨x, tl, hx, hsx⟩ := text_start a h
+    obtain ⟨f, hf⟩ := lex_cst false a h hl (fun e' => by cases e') T [] T hb (fun _ _ => hcl)
+      (after_closes hcl)
+    simp only [List.append_nil] at hf
+    have ha := argR_of_ex lst sp (X := a.text ++ T) (by rw [hx, List.cons_append]) hsx hf
+      (cst_pratt a h)
+    refine ⟨max (f + 1) g, argTree sp a.tree, [], _, argR_mono (Nat.le_max_left _ _) ?_,
+      argsTailR_mono (Nat.le_max_right _ _) hg, rfl⟩
+    simpa only [CST.argsText, List.append_assoc] using ha
+  | lst, .cons sp a w l rest, h, hl => by
+    intro T hT
+    obtain ⟨hsa, hsr⟩ := h
+    obtain ⟨hla, hw, hlr⟩ := hl
+    obtain ⟨g, a', more, r1, ha', hm, htr⟩ := lex_args lst rest hsr hlr T hT
+    obtain ⟨x, tl, hx, hsx⟩ := text_start a hsa
+    obtain ⟨y, tl', hy, hsy⟩ := args_start rest hsr
+    obtain ⟨f, hf⟩ := lex_cst false a hsa hla (fun e' => by cases e') _ [] _
+      (tend_stop w (layChars l ++ (CST.argsText rest ++ T)) (c := ',') (by decide))
+      (fun _ _ => closes_stop w _ (by decide)) (after_stop false w _ (by decide))
+    simp only [List.append_nil] at hf
+    have ha := argR_of_ex lst sp (X := a.text ++ (layChars w ++ ',' :: (layChars l ++
+      (CST.argsText rest ++ T)))) (by rw [hx, List.cons_append]) hsx hf (cst_pratt a hsa)
+    have hsk : skipWs (trailL lst (layChars w ++ ',' :: (layChars l ++ (CST.argsText rest ++ T)))) =
+        ',' :: (layChars l ++ (CST.argsText rest ++ T)) := by
+      cases lst with
+      | false => exact skipWs_run w hw ',' _ (by decide)
+      | true =>
+        simp only [trailL, if_true, itemTrail_ws w hw _ (c := ',') (by decide)]
+        exact skipWs_cons _ (by decide)
+    have hgap : (if lst then gapG (layChars l ++ (CST.argsText rest ++ T))
+        else layoutStar (layChars l ++ (CST.argsText rest ++ T))) = CST.argsText rest ++ T := by
+      rw [hy, List.cons_append]
+      cases lst with
+      | false => exact layoutStar_run l _ (layoutAtom_none (notLayoutStart_of_argStart hsy))
+      | true => exact gapG_run l _ (notLayoutStart_of_argStart hsy)
+    have htl : argsTailR lst (g + 1)
+        (trailL lst (layChars w ++ ',' :: (layChars l ++ (CST.argsText rest ++ T)))) =
+        .ok (a' :: more, trailL lst T) := by
+      rw [argsTailR_succ, hsk]
+      simp only [hgap, ha', hm]
+    refine ⟨max (f + 1) (g + 1), argTree sp a.tree, a' :: more, _,
+      argR_mono (Nat.le_max_left _ _) ?_, argsTailR_mono (Nat.le_max_right _ _) htl,
+      by simp only [CST.argsTrees, htr]⟩
+    simpa only [CST.argsText, List.append_assoc, List.cons_append] using ha
+end
 
 /-! ### (10) whole texts -/
 
@@ -1163,7 +2008,8 @@ theorem lex_cst : ∀ (c : CST), c.Shaped → c.LayoutOk → ∀ rest its r, Bou
     `fuelFor` upwards -/
 theorem cst_lex (c : CST) (h : c.WF) (fuel : Nat) (hf : fuelFor c.text ≤ fuel) :
     exprItems fuel c.text = some (c.items, []) := by
-  obtain ⟨f, hx⟩ := lex_cst c h.1 h.2 [] [] [] rfl after_nil
+  obtain ⟨f, hx⟩ := lex_cst false c h.1 h.2 (fun e => by cases e) [] [] [] tend_nil
+    (fun _ _ => closes_nil) (after_nil false)
   simp only [List.append_nil] at hx
   exact exprItems_of_exprR hx fuel hf
 
@@ -1176,37 +2022,356 @@ theorem cst_roundtrip (c : CST) (h : c.WF) : parseText (String.ofList c.text) = 
 
 /-! ### (11) the CST the printer writes -/
 
-/-- the operator fragment of the abstract syntax: binary operators, prefix `-` / `!`, postfix
-    `!` over the atoms of `atomOk` -/
-def frag : Expr → Bool
-  | .bin _ l r => frag l && frag r
-  | .un op e => op != .invert && frag e
-  | .fact e => frag e
-  | .ident n => atomOk (.ident n)
-  | .builtin n => atomOk (.builtin n)
-  | .bool b => atomOk (.bool b)
-  | .null => atomOk .null
-  | .num x => atomOk (.num x)
-  | _ => false
+/-! #### no `via` / `into` / `where` at the top level of a lambda body the printer leaves bare -/
+
+section lamsafe
+open PrattRT
+
+def chainRule (r : String) : Bool := r == "via" || r == "into" || r == "where_"
+
+/-- no chain operator among the operators of an item sequence, by rule name -/
+def NoChain (its : List PItem) : Prop := ∀ rule, PItem.inf rule ∈ its → chainRule rule = false
+
+theorem chain_facts :
+    (BinOp.all.all fun op =>
+      (chainRule (ruleOf op) == isChain op) && (!isChain op || pp op == pp .via) &&
+        decide (pp .via ≤ pp op) && (!(pp op == pp .via) || !ra op)) = true := by
+  decide +kernel
+
+theorem chain_fact (op : BinOp) :
+    chainRule (ruleOf op) = isChain op ∧ (isChain op = true → pp op = pp .via) ∧
+      pp .via ≤ pp op ∧ (pp op = pp .via → ra op = false) := by
+  have := List.all_eq_true.mp chain_facts op (BinOp.mem_all op)
+  simp only [Bool.and_eq_true, beq_iff_eq, Bool.or_eq_true, Bool.not_eq_true', decide_eq_true_eq] at this
+  obtain ⟨⟨⟨h1, h2⟩, h3⟩, h4⟩ := this
+  refine ⟨h1, fun h => ?_, h3, fun h => ?_⟩
+  · rcases h2 with h2 | h2
+    · rw [h] at h2; cases h2
+    · exact h2
+  · rcases h4 with h4 | h4
+    · exact absurd h (by simpa using h4)
+    · exact h4
+
+theorem NoChain.lamSafe {its : List PItem} (h : NoChain its) : LamSafe its := by
+  intro op hm
+  rw [← (chain_fact op).1]
+  exact h _ hm
+
+theorem noChain_append {a b : List PItem} (ha : NoChain a) (hb : NoChain b) : NoChain (a ++ b) := by
+  intro rule hm
+  rcases List.mem_append.mp hm with h | h
+  · exact ha rule h
+  · exact hb rule h
+
+theorem noChain_single_noninf {x : PItem} (h : ∀ r, x ≠ .inf r) : NoChain [x] := by
+  intro rule hm
+  simp only [List.mem_singleton] at hm
+  exact absurd hm.symm (h rule)
+
+theorem noChain_cons_noninf {x : PItem} {a : List PItem} (h : ∀ r, x ≠ .inf r) (ha : NoChain a) :
+    NoChain (x :: a) := noChain_append (noChain_single_noninf h) ha
+
+/-- the top operator of `t`, if it is a binary one, binds tighter than the chain operators -/
+def hiOK : Expr → Prop
+  | .bin op _ _ => pp .via < pp op
+  | _ => True
+
+theorem hiOK_left {op lop : BinOp} {a b : Expr} (h : needsParens (.bin lop a b) (.binLeft op) = false)
+    (hop : pp .via < pp op) : hiOK (.bin lop a b) := by
+  obtain ⟨h1, _⟩ := left_noparens h
+  have := pp_lt_iff lop op
+  show pp .via < pp lop
+  have hle : ¬ pp lop < pp op := fun hlt => by have := this.mp hlt; omega
+  omega
+
+theorem hiOK_right {op rop : BinOp} {a b : Expr}
+    (h : needsParens (.bin rop a b) (.binRight op) = false) : hiOK (.bin rop a b) := by
+  obtain ⟨h1, h2⟩ := right_noparens h
+  have hlt := pp_lt_iff rop op
+  have heq := pp_eq_iff rop op
+  have hle : ¬ pp rop < pp op := fun hl => by have := hlt.mp hl; omega
+  have hv := (chain_fact op).2.2.1
+  show pp .via < pp rop
+  by_cases he : pp rop = pp .via
+  · -- then `op` is at the chain level too, same level, so `op` is right-associative: it is not
+    exfalso
+    have hpo : pp op = pp .via := by omega
+    have hra := (chain_fact op).2.2.2 hpo
+    have hbp : bp rop = bp op := heq.mp (by omega)
+    rw [(h2 hbp).1] at hra
+    cases hra
+  · have := (chain_fact rop).2.2.1; omega
+
+theorem noChain_hi : ∀ t : Expr, hiOK t → NoChain (items t)
+  | .bin op l r, h => by
+    have hop : chainRule (ruleOf op) = false := by
+      rw [(chain_fact op).1]
+      cases hc : isChain op with
+      | false => rfl
+      | true => have := (chain_fact op).2.1 hc; simp only [hiOK] at h; omega
+    rw [items_bin]
+    refine noChain_append ?_ ?_
+    · unfold child
+      split
+      · exact noChain_single_noninf (fun r e => by cases e)
+      · rename_i hnp
+        simp only [Bool.not_eq_true] at hnp
+        refine noChain_hi l ?_
+        cases l with
+        | bin lop a b => exact hiOK_left hnp h
+        | _ => trivial
+    · intro rule hm
+      simp only [List.mem_cons] at hm
+      rcases hm with hm | hm
+      · cases hm; exact hop
+      · revert rule
+        show NoChain (child r (.binRight op))
+        unfold child
+        split
+        · exact noChain_single_noninf (fun r e => by cases e)
+        · rename_i hnp
+          simp only [Bool.not_eq_true] at hnp
+          refine noChain_hi r ?_
+          cases r with
+          | bin rop a b => exact hiOK_right hnp
+          | _ => trivial
+  | .un op e, _ => by
+    rw [items_un]
+    refine noChain_cons_noninf (fun r e => by cases e) ?_
+    unfold child
+    split
+    · exact noChain_single_noninf (fun r e => by cases e)
+    · rename_i hnp
+      refine noChain_hi e ?_
+      cases e with
+      | bin cop a b => simp [np_bin_prefix] at hnp
+      | _ => trivial
+  | .fact e, _ => by
+    rw [items_fact]
+    refine noChain_append ?_ (noChain_single_noninf (fun r e => by cases e))
+    unfold child
+    split
+    · exact noChain_single_noninf (fun r e => by cases e)
+    · rename_i hnp
+      refine noChain_hi e ?_
+      cases e with
+      | bin cop a b => simp [np_bin_postfix] at hnp
+      | _ => trivial
+  | .access e i, _ => by
+    rw [items_access]
+    refine noChain_append ?_ (noChain_single_noninf (fun r e => by cases e))
+    unfold child
+    split
+    · exact noChain_single_noninf (fun r e => by cases e)
+    · rename_i hnp
+      refine noChain_hi e ?_
+      cases e with
+      | bin cop a b => simp [np_bin_postfix] at hnp
+      | _ => trivial
+  | .dot e f, _ => by
+    rw [items_dot]
+    refine noChain_append ?_ (noChain_single_noninf (fun r e => by cases e))
+    unfold child
+    split
+    · exact noChain_single_noninf (fun r e => by cases e)
+    · rename_i hnp
+      refine noChain_hi e ?_
+      cases e with
+      | bin cop a b => simp [np_bin_postfix] at hnp
+      | _ => trivial
+  | .call f args, _ => by
+    rw [items_call]
+    refine noChain_append ?_ (noChain_single_noninf (fun r e => by cases e))
+    unfold child
+    split
+    · exact noChain_single_noninf (fun r e => by cases e)
+    · rename_i hnp
+      refine noChain_hi f ?_
+      cases f with
+      | bin cop a b => simp [np_bin_postfix] at hnp
+      | _ => trivial
+  | .num _, _ | .str _, _ | .bool _, _ | .null, _ | .ident _, _ | .inref _, _ | .builtin _, _
+  | .list _, _ | .record _, _ | .lambda _ _, _ | .cond _ _ _, _ | .doBlock _ _, _ | .assign _ _, _
+  | .output _, _ | .spread _, _ => noChain_single_noninf (fun r e => by cases e)
+
+/-- a lambda body the printer writes without parentheses has no chain operator at its top
+    level (left spine at the chain level included) -/
+theorem noChain_body : ∀ t : Expr, lambdaBodyNeedsParens t = false → NoChain (items t)
+  | .bin op l r, h => by
+    simp only [lambdaBodyNeedsParens, Bool.or_eq_false_iff, beq_eq_false_iff_ne, ne_eq,
+      Bool.and_eq_false_iff] at h
+    obtain ⟨⟨⟨h1, h2⟩, h3⟩, h4⟩ := h
+    have hnc : isChain op = false := by simp [isChain, h1, h2, h3]
+    have hop : chainRule (ruleOf op) = false := by rw [(chain_fact op).1]; exact hnc
+    rw [items_bin]
+    refine noChain_append ?_ ?_
+    · unfold child
+      split
+      · exact noChain_single_noninf (fun r e => by cases e)
+      · rename_i hnp
+        simp only [Bool.not_eq_true] at hnp
+        rcases h4 with h4 | h4
+        · -- `op` is above the chain level
+          have hv := (chain_fact op).2.2.1
+          have hlt : pp .via < pp op := by
+            have : pp op ≠ pp .via := h4
+            omega
+          refine noChain_hi l ?_
+          cases l with
+          | bin lop a b => exact hiOK_left hnp hlt
+          | _ => trivial
+        · exact noChain_body l h4
+    · intro rule hm
+      simp only [List.mem_cons] at hm
+      rcases hm with hm | hm
+      · cases hm; exact hop
+      · revert rule
+        show NoChain (child r (.binRight op))
+        unfold child
+        split
+        · exact noChain_single_noninf (fun r e => by cases e)
+        · rename_i hnp
+          simp only [Bool.not_eq_true] at hnp
+          refine noChain_hi r ?_
+          cases r with
+          | bin rop a b => exact hiOK_right hnp
+          | _ => trivial
+  | .un op e, _ => noChain_hi _ trivial
+  | .fact e, _ => noChain_hi _ trivial
+  | .access e i, _ => noChain_hi _ trivial
+  | .dot e f, _ => noChain_hi _ trivial
+  | .call f args, _ => noChain_hi _ trivial
+  | .num _, _ | .str _, _ | .bool _, _ | .null, _ | .ident _, _ | .inref _, _ | .builtin _, _
+  | .list _, _ | .record _, _ | .lambda _ _, _ | .cond _ _ _, _ | .doBlock _ _, _ | .assign _ _, _
+  | .output _, _ | .spread _, _ => noChain_single_noninf (fun r e => by cases e)
+
+end lamsafe
+
+
+
+mutual
+/-- the fragment of the abstract syntax: binary operators, prefix `-` / `!`, postfix `!`,
+    calls (arguments possibly spread: the flag says whether a `...e` is admitted here), index
+    and field accesses, list literals (items possibly spread, no comments), lambdas (argument
+    names that are identifiers), conditionals over the atoms of `atomOk` -/
+def fragB : Bool → Expr → Bool
+  | _, .bin _ l r => fragB false l && fragB false r
+  | _, .un op e => op != .invert && fragB false e
+  | _, .fact e => fragB false e
+  | _, .call f args => fragB false f && fragArgs args
+  | _, .access e i => fragB false e && fragB false i
+  | _, .dot e n => fragB false e && CST.fieldOk n
+  | sp, .spread e => sp && fragB false e
+  | _, .list items => fragItems items
+  | _, .lambda args body => args.all (fun a => nameOk a.name) && fragB false body
+  | _, .cond c t e => fragB false c && fragB false t && fragB false e
+  | _, .ident n => atomOk (.ident n)
+  | _, .builtin n => atomOk (.builtin n)
+  | _, .bool b => atomOk (.bool b)
+  | _, .null => atomOk .null
+  | _, .num x => atomOk (.num x)
+  | _, _ => false
+/-- arguments: fragment trees, or `...e` with `e` in the fragment -/
+def fragArgs : List Expr → Bool
+  | [] => true
+  | a :: rest => fragB true a && fragArgs rest
+/-- list items: no comments, fragment trees, or `...e` with `e` in the fragment -/
+def fragItems : List Item → Bool
+  | [] => true
+  | (.mk lead e tr) :: rest => lead.isEmpty && tr.isNone && fragB true e && fragItems rest
+end
+
+def frag (t : Expr) : Bool := fragB false t
 
 abbrev Frag (t : Expr) : Prop := frag t = true
 
+theorem frag_bin_iff (op : BinOp) (l r : Expr) : frag (.bin op l r) = (frag l && frag r) := by
+  simp [frag, fragB]
+theorem frag_un_iff (op : UnOp) (e : Expr) : frag (.un op e) = (op != .invert && frag e) := by
+  simp [frag, fragB]
+theorem frag_fact_iff (e : Expr) : frag (.fact e) = frag e := by simp [frag, fragB]
+theorem frag_call_iff (f : Expr) (args : List Expr) :
+    frag (.call f args) = (frag f && fragArgs args) := by simp [frag, fragB]
+theorem frag_access_iff (e i : Expr) : frag (.access e i) = (frag e && frag i) := by
+  simp [frag, fragB]
+theorem frag_dot_iff (e : Expr) (n : String) : frag (.dot e n) = (frag e && CST.fieldOk n) := by
+  simp [frag, fragB]
+theorem frag_list_iff (items : List Item) : frag (.list items) = fragItems items := by
+  simp [frag, fragB]
+theorem frag_cond_iff (c t e : Expr) : frag (.cond c t e) = (frag c && frag t && frag e) := by
+  simp [frag, fragB]
+theorem frag_lambda_iff (args : List LArg) (body : Expr) :
+    frag (.lambda args body) = (args.all (fun a => nameOk a.name) && frag body) := by
+  simp [frag, fragB]
+
+/-- the operand of an argument (`...e` ↦ `e`) and whether it is spread -/
+def isSpread : Expr → Bool
+  | .spread _ => true
+  | _ => false
+
+def unSpread : Expr → Expr
+  | .spread e => e
+  | e => e
+
+theorem fragB_true (a : Expr) (h : fragB true a = true) :
+    Frag (unSpread a) ∧ argTree (isSpread a) (unSpread a) = a := by
+  cases a <;> refine ⟨?_, rfl⟩ <;> simp_all [Frag, frag, fragB, unSpread]
+
 def wrap (b : Bool) (c : CST) : CST := if b then .paren [] c [] else c
 
-/-- what `exprToSource` writes, as a CST: one blank on each side of a binary operator,
-    nothing else, parentheses exactly where `needsParens` says -/
+/-- the argument list as the printer writes it: `a, b, c` -/
+def mkArgs : Bool × CST → List (Bool × CST) → Args
+  | p, [] => .last p.1 p.2
+  | p, q :: rest => .cons p.1 p.2 [] [.sp] (mkArgs q rest)
+
+def mkCall (f : CST) : List (Bool × CST) → CST
+  | [] => .call0 f []
+  | p :: rest => .call f [] (mkArgs p rest) (.plain [])
+
+/-- the argument list of a lambda as the printer writes it: `()` or `(a, b?, ...c)` -/
+def headOf : List LArg → LamHead
+  | [] => .unit []
+  | a :: as => .parens [] a (as.map fun x => ([], [.sp], x)) (.plain [])
+
+/-- `[]` or `[a, b, c]` as the printer writes it -/
+def mkList : List (Bool × CST) → CST
+  | [] => .list0 []
+  | p :: rest => .list [] (mkArgs p rest) (.plain [])
+
+mutual
+/-- what `exprToSource` writes, as a CST: one blank on each side of a binary operator, `, `
+    between arguments, nothing else, parentheses exactly where `needsParens` says -/
 def canon : Expr → CST
   | .bin op l r =>
     .bin op (wrap (needsParens l (.binLeft op)) (canon l)) [.sp] [.sp]
       (wrap (needsParens r (.binRight op)) (canon r))
   | .un op e => .un op (wrap (needsParens e .prefix_) (canon e))
   | .fact e => .fact (wrap (needsParens e .postfix_) (canon e))
+  | .call f args => mkCall (wrap (needsParens f .postfix_) (canon f)) (canonArgs args)
+  | .access e i => .access (wrap (needsParens e .postfix_) (canon e)) [] (canon i) []
+  | .dot e n => .dot (wrap (needsParens e .postfix_) (canon e)) n
+  | .list items => mkList (canonItems items)
+  | .lambda args body =>
+    .lambda (headOf args) [.sp] [.sp] (wrap (lambdaBodyNeedsParens body) (canon body))
+  | .cond c t e => .cond [.sp] (canon c) [.sp] [.sp] (canon t) [.sp] [.sp] (canon e)
   | .ident n => .atom (.ident n)
   | .builtin n => .atom (.builtin n)
   | .bool b => .atom (.bool b)
   | .null => .atom .null
   | .num x => .atom (.num x)
+  /- only reached from `canonArgs`: the operand of a spread argument -/
+  | .spread e => canon e
   | e => .atom e
+def canonArgs : List Expr → List (Bool × CST)
+  | [] => []
+  | a :: rest => (isSpread a, canon a) :: canonArgs rest
+def canonItems : List Item → List (Bool × CST)
+  | [] => []
+  | (.mk _ e _) :: rest => (isSpread e, canon e) :: canonItems rest
+end
+
+theorem canon_unSpread (a : Expr) : canon a = canon (unSpread a) := by
+  cases a <;> first | rfl | simp [canon, unSpread]
 
 theorem wrap_tree (b : Bool) (c : CST) : (wrap b c).tree = c.tree := by
   cases b <;> rfl
@@ -1235,144 +2400,640 @@ theorem parenIf_toList (b : Bool) (s : String) :
     (parenIf b s).toList = if b then '(' :: (s.toList ++ [')']) else s.toList := by
   cases b <;> simp [parenIf]
 
-theorem canon_tree : ∀ t : Expr, Frag t → (canon t).tree = t
-  | .bin op l r, h => by
-    simp only [Frag, frag, Bool.and_eq_true] at h
-    simp only [canon, CST.tree, wrap_tree, canon_tree l h.1, canon_tree r h.2]
-  | .un op e, h => by
-    simp only [Frag, frag, Bool.and_eq_true] at h
-    simp only [canon, CST.tree, wrap_tree, canon_tree e h.2]
-  | .fact e, h => by
-    simp only [Frag, frag] at h
-    simp only [canon, CST.tree, wrap_tree, canon_tree e h]
-  | .ident _, _ | .builtin _, _ | .bool _, _ | .null, _ | .num _, _ => rfl
-  | .str _, h | .inref _, h | .list _, h | .record _, h | .lambda _ _, h | .cond _ _ _, h
-  | .doBlock _ _, h | .assign _ _, h | .output _, h | .call _ _, h | .access _ _, h | .dot _ _, h
-  | .spread _, h => by simp [Frag, frag] at h
+/-! #### argument lists as the printer writes them -/
 
-theorem canon_isParen : ∀ t : Expr, (canon t).isParen = false := by
-  intro t; cases t <;> rfl
+/-- tree of an argument (spread flag, operand) -/
+def argT (q : Bool × CST) : Expr := argTree q.1 q.2.tree
+/-- text of an argument -/
+def argS (q : Bool × CST) : List Char := spreadChars q.1 ++ q.2.text
 
-theorem canon_text : ∀ t : Expr, Frag t → (canon t).text = (exprToSource t).toList
-  | .bin op l r, h => by
-    simp only [Frag, frag, Bool.and_eq_true] at h
-    have hl := canon_text l h.1
-    have hr := canon_text r h.2
+theorem intercalate_cons2 {α} (sep x y : List α) (ys : List (List α)) :
+    sep.intercalate (x :: y :: ys) = x ++ (sep ++ sep.intercalate (y :: ys)) := by
+  simp [List.intercalate]
+
+theorem mkArgs_trees : ∀ (ps : List (Bool × CST)) (p : Bool × CST),
+    CST.argsTrees (mkArgs p ps) = argT p :: ps.map argT
+  | [], p => rfl
+  | q :: ps, p => by simp only [mkArgs, CST.argsTrees, mkArgs_trees ps q, List.map_cons, argT]
+
+theorem mkArgs_text : ∀ (ps : List (Bool × CST)) (p : Bool × CST),
+    CST.argsText (mkArgs p ps) = [',', ' '].intercalate (argS p :: ps.map argS)
+  | [], p => by simp [mkArgs, CST.argsText, argS, List.intercalate]
+  | q :: ps, p => by
+    simp only [mkArgs, CST.argsText, mkArgs_text ps q, List.map_cons, intercalate_cons2, argS,
+      layChars, LayAtom.chars, List.append_assoc, List.nil_append, List.cons_append]
+
+theorem mkArgs_shaped : ∀ (ps : List (Bool × CST)) (p : Bool × CST),
+    p.2.Shaped → (∀ q ∈ ps, q.2.Shaped) → CST.ArgsShaped (mkArgs p ps)
+  | [], _, hp, _ => hp
+  | q :: ps, _, hp, h =>
+    ⟨hp, mkArgs_shaped ps q (h q List.mem_cons_self) (fun x hx => h x (List.mem_cons_of_mem _ hx))⟩
+
+theorem mkArgs_layout : ∀ (ps : List (Bool × CST)) (p : Bool × CST),
+    p.2.LayoutOk → (∀ q ∈ ps, q.2.LayoutOk) → CST.ArgsLayoutOk (mkArgs p ps)
+  | [], _, hp, _ => hp
+  | q :: ps, _, hp, h =>
+    ⟨hp, rfl, mkArgs_layout ps q (h q List.mem_cons_self) (fun x hx => h x (List.mem_cons_of_mem _ hx))⟩
+
+theorem mkCall_tree (f : CST) (ps : List (Bool × CST)) :
+    (mkCall f ps).tree = .call f.tree (ps.map argT) := by
+  cases ps with
+  | nil => rfl
+  | cons p ps => simp only [mkCall, CST.tree, mkArgs_trees, List.map_cons]
+
+theorem mkCall_items (f : CST) (ps : List (Bool × CST)) :
+    (mkCall f ps).items = f.items ++ [.postCall (ps.map argT)] := by
+  cases ps with
+  | nil => rfl
+  | cons p ps => simp only [mkCall, CST.items, mkArgs_trees, List.map_cons]
+
+theorem mkCall_text (f : CST) (ps : List (Bool × CST)) :
+    (mkCall f ps).text = f.text ++ '(' :: ([',', ' '].intercalate (ps.map argS) ++ [')']) := by
+  cases ps with
+  | nil => simp [mkCall, CST.text, layChars, List.intercalate]
+  | cons p ps =>
+    simp only [mkCall, CST.text, mkArgs_text, List.map_cons, Close.text, layChars, List.nil_append]
+
+theorem mkCall_isParen (f : CST) (ps : List (Bool × CST)) : (mkCall f ps).isParen = false := by
+  cases ps <;> rfl
+
+theorem mkCall_shaped {f : CST} {ps : List (Bool × CST)} (hf : f.Shaped)
+    (hp : f.isParen = false → needsParens f.tree .postfix_ = false) (h : ∀ q ∈ ps, q.2.Shaped) :
+    (mkCall f ps).Shaped := by
+  cases ps with
+  | nil => exact ⟨hf, hp⟩
+  | cons p ps =>
+    exact ⟨hf, hp, mkArgs_shaped ps p (h p List.mem_cons_self)
+      (fun x hx => h x (List.mem_cons_of_mem _ hx))⟩
+
+theorem mkCall_layout {f : CST} {ps : List (Bool × CST)} (hf : f.LayoutOk)
+    (h : ∀ q ∈ ps, q.2.LayoutOk) : (mkCall f ps).LayoutOk := by
+  cases ps with
+  | nil => exact hf
+  | cons p ps =>
+    exact ⟨hf, mkArgs_layout ps p (h p List.mem_cons_self)
+      (fun x hx => h x (List.mem_cons_of_mem _ hx)), rfl⟩
+
+theorem mkList_tree (ps : List (Bool × CST)) :
+    (mkList ps).tree = .list (mkItems (ps.map argT)) := by
+  cases ps with
+  | nil => rfl
+  | cons p ps => simp only [mkList, CST.tree, mkArgs_trees, List.map_cons]
+
+theorem mkList_items (ps : List (Bool × CST)) :
+    (mkList ps).items = [.prim (.list (mkItems (ps.map argT)))] := by
+  cases ps with
+  | nil => rfl
+  | cons p ps => simp only [mkList, CST.items, mkArgs_trees, List.map_cons]
+
+theorem mkList_text (ps : List (Bool × CST)) :
+    (mkList ps).text = '[' :: ([',', ' '].intercalate (ps.map argS) ++ [']']) := by
+  cases ps with
+  | nil => simp [mkList, CST.text, layChars, List.intercalate]
+  | cons p ps =>
+    simp only [mkList, CST.text, mkArgs_text, List.map_cons, Close.text, layChars, List.nil_append]
+
+theorem mkList_isParen (ps : List (Bool × CST)) : (mkList ps).isParen = false := by
+  cases ps <;> rfl
+
+theorem mkList_shaped {ps : List (Bool × CST)} (h : ∀ q ∈ ps, q.2.Shaped) : (mkList ps).Shaped := by
+  cases ps with
+  | nil => trivial
+  | cons p ps =>
+    exact mkArgs_shaped ps p (h p List.mem_cons_self) (fun x hx => h x (List.mem_cons_of_mem _ hx))
+
+theorem mkList_layout {ps : List (Bool × CST)} (h : ∀ q ∈ ps, q.2.LayoutOk) :
+    (mkList ps).LayoutOk := by
+  cases ps with
+  | nil => trivial
+  | cons p ps =>
+    exact ⟨mkArgs_layout ps p (h p List.mem_cons_self)
+      (fun x hx => h x (List.mem_cons_of_mem _ hx)), rfl⟩
+
+theorem headOf_args (args : List LArg) : (headOf args).args = args := by
+  cases args with
+  | nil => rfl
+  | cons a as => simp [headOf, LamHead.args, List.map_map, Function.comp_def]
+
+theorem moreText_canon (as : List LArg) :
+    moreText (as.map fun x => (([] : Lay), [LayAtom.sp], x)) =
+      (as.map fun x => [',', ' '] ++ argText x).flatten := by
+  induction as with
+  | nil => rfl
+  | cons a as ih => simp [moreText, layChars, LayAtom.chars, ih]
+
+theorem intercalate_cons_flatten {α} (sep x : List α) (xs : List (List α)) :
+    sep.intercalate (x :: xs) = x ++ (xs.map fun y => sep ++ y).flatten := by
+  induction xs generalizing x with
+  | nil => simp [List.intercalate]
+  | cons y ys ih => rw [intercalate_cons2, ih]; simp
+
+theorem headOf_text (args : List LArg) :
+    (headOf args).text = '(' :: ([',', ' '].intercalate (args.map argText) ++ [')']) := by
+  cases args with
+  | nil => simp [headOf, LamHead.text, layChars, List.intercalate]
+  | cons a as =>
+    simp only [headOf, LamHead.text, layChars, List.nil_append, moreText_canon, Close.text,
+      List.map_cons, intercalate_cons_flatten, List.append_assoc, List.map_map, Function.comp_def]
+
+theorem headOf_ok (args : List LArg) : (headOf args).ok = true := by
+  cases args with
+  | nil => rfl
+  | cons a as => simp [headOf, LamHead.ok, wsOnly, Close.okCall]
+
+theorem headOf_namesOk {args : List LArg} (h : (args.all fun a => nameOk a.name) = true) :
+    (headOf args).namesOk = true := by
+  simp only [LamHead.namesOk, headOf_args, h, Bool.true_and]
+  cases args <;> rfl
+
+theorem argText_src (a : LArg) : (lambdaArgToSource a).toList = argText a := by
+  cases a <;> simp [lambdaArgToSource, argText, spreadLit_eq]
+
+theorem foldl_scopeRemove_nil (args : List LArg) :
+    args.foldl (fun s a => scopeRemove s a.name) ([] : Scope) = [] := by
+  induction args with
+  | nil => rfl
+  | cons a as ih => simpa [List.foldl, scopeRemove] using ih
+
+/-! #### `canon` -/
+
+theorem unSpread_of_frag {t : Expr} (h : Frag t) : unSpread t = t := by
+  cases t <;> first | rfl | simp [Frag, frag, fragB] at h
+
+theorem fragB_weaken {sp : Bool} {t : Expr} (h : fragB sp t = true) : Frag (unSpread t) := by
+  cases t <;> simp_all [Frag, frag, fragB, unSpread]
+
+mutual
+theorem canon_tree : ∀ (sp : Bool) (t : Expr), fragB sp t = true → (canon t).tree = unSpread t
+  | _, .bin op l r, h => by
+    simp only [fragB, Bool.and_eq_true] at h
+    have hl := (canon_tree false l h.1).trans (unSpread_of_frag h.1)
+    have hr := (canon_tree false r h.2).trans (unSpread_of_frag h.2)
+    simp only [canon, CST.tree, wrap_tree, hl, hr]; rfl
+  | _, .un op e, h => by
+    simp only [fragB, Bool.and_eq_true] at h
+    have he := (canon_tree false e h.2).trans (unSpread_of_frag h.2)
+    simp only [canon, CST.tree, wrap_tree, he]; rfl
+  | _, .fact e, h => by
+    simp only [fragB] at h
+    have he := (canon_tree false e h).trans (unSpread_of_frag h)
+    simp only [canon, CST.tree, wrap_tree, he]; rfl
+  | _, .call f args, h => by
+    simp only [fragB, Bool.and_eq_true] at h
+    have hf := (canon_tree false f h.1).trans (unSpread_of_frag h.1)
+    simp only [canon, mkCall_tree, wrap_tree, hf, canonArgs_tree args h.2]; rfl
+  | _, .access e i, h => by
+    simp only [fragB, Bool.and_eq_true] at h
+    have he := (canon_tree false e h.1).trans (unSpread_of_frag h.1)
+    have hi := (canon_tree false i h.2).trans (unSpread_of_frag h.2)
+    simp only [canon, CST.tree, wrap_tree, he, hi]; rfl
+  | _, .dot e n, h => by
+    simp only [fragB, Bool.and_eq_true] at h
+    have he := (canon_tree false e h.1).trans (unSpread_of_frag h.1)
+    simp only [canon, CST.tree, wrap_tree, he]; rfl
+  | sp, .spread e, h => by
+    simp only [fragB, Bool.and_eq_true] at h
+    have he := (canon_tree false e h.2).trans (unSpread_of_frag h.2)
+    simp only [canon, he]; rfl
+  | _, .list items, h => by
+    simp only [fragB] at h
+    simp only [canon, mkList_tree, canonItems_tree items h]; rfl
+  | _, .lambda args body, h => by
+    simp only [fragB, Bool.and_eq_true] at h
+    have hb := (canon_tree false body h.2).trans (unSpread_of_frag h.2)
+    simp only [canon, CST.tree, headOf_args, wrap_tree, hb]; rfl
+  | _, .cond c t e, h => by
+    simp only [fragB, Bool.and_eq_true] at h
+    have hc := (canon_tree false c h.1.1).trans (unSpread_of_frag h.1.1)
+    have ht := (canon_tree false t h.1.2).trans (unSpread_of_frag h.1.2)
+    have he := (canon_tree false e h.2).trans (unSpread_of_frag h.2)
+    simp only [canon, CST.tree, hc, ht, he]; rfl
+  | _, .ident _, _ | _, .builtin _, _ | _, .bool _, _ | _, .null, _ | _, .num _, _ => rfl
+  | _, .str _, h | _, .inref _, h | _, .record _, h
+  | _, .doBlock _ _, h | _, .assign _ _, h | _, .output _, h => by
+    simp [fragB] at h
+theorem canonArgs_tree : ∀ (args : List Expr), fragArgs args = true →
+    (canonArgs args).map argT = args
+  | [], _ => rfl
+  | a :: rest, h => by
+    simp only [fragArgs, Bool.and_eq_true] at h
+    simp only [canonArgs, List.map_cons, argT, canon_tree true a h.1, canonArgs_tree rest h.2,
+      (fragB_true a h.1).2]
+theorem canonItems_tree : ∀ (items : List Item), fragItems items = true →
+    mkItems ((canonItems items).map argT) = items
+  | [], _ => rfl
+  | (.mk lead e tr) :: rest, h => by
+    simp only [fragItems, Bool.and_eq_true, List.isEmpty_iff, Option.isNone_iff_eq_none] at h
+    obtain ⟨⟨⟨rfl, rfl⟩, he⟩, hr⟩ := h
+    have ih := canonItems_tree rest hr
+    simp only [mkItems] at ih ⊢
+    simp only [canonItems, List.map_cons, argT, canon_tree true e he, ih, (fragB_true e he).2]
+end
+
+theorem canon_tree_frag (t : Expr) (h : Frag t) : (canon t).tree = t :=
+  (canon_tree false t h).trans (unSpread_of_frag h)
+
+theorem canon_isParen : ∀ t : Expr, (canon t).isParen = false
+  | .call f args => by simp only [canon, mkCall_isParen]
+  | .spread e => by simp only [canon, canon_isParen e]
+  | .list items => by simp only [canon, mkList_isParen]
+  | .lambda _ _ => rfl
+  | .cond _ _ _ => rfl
+  | .bin .. | .un .. | .fact .. | .access .. | .dot .. | .ident _ | .builtin _ | .bool _ | .null
+  | .num _ | .str _ | .inref _ | .record _ | .doBlock _ _
+  | .assign _ _ | .output _ => rfl
+
+theorem argS_src (a : Expr) :
+    spreadChars (isSpread a) ++ (exprToSource (unSpread a)).toList = (exprToSource a).toList := by
+  cases a <;> simp [isSpread, unSpread, spreadChars, spreadLit_eq, exprToSource, exprSrc]
+
+theorem commaSp : ", ".toList = [',', ' '] := rfl
+
+mutual
+theorem canon_text : ∀ (sp : Bool) (t : Expr), fragB sp t = true →
+    (canon t).text = (exprToSource (unSpread t)).toList
+  | _, .bin op l r, h => by
+    simp only [fragB, Bool.and_eq_true] at h
+    have hl := canon_text false l h.1
+    have hr := canon_text false r h.2
+    rw [unSpread_of_frag h.1] at hl
+    rw [unSpread_of_frag h.2] at hr
     simp only [exprToSource] at hl hr ⊢
-    simp only [canon, CST.text, wrap_text, hl, hr, exprSrc, String.toList_append, parenIf_toList,
-      layChars, LayAtom.chars, spell, List.append_assoc, List.cons_append, List.nil_append]
+    simp only [unSpread, canon, CST.text, wrap_text, hl, hr, exprSrc, String.toList_append,
+      parenIf_toList, layChars, LayAtom.chars, spell, List.append_assoc, List.cons_append,
+      List.nil_append]
     rfl
-  | .un op e, h => by
-    simp only [Frag, frag, Bool.and_eq_true] at h
-    have he := canon_text e h.2
+  | _, .un op e, h => by
+    simp only [fragB, Bool.and_eq_true] at h
+    have he := canon_text false e h.2
+    rw [unSpread_of_frag h.2] at he
     simp only [exprToSource] at he ⊢
-    simp only [canon, CST.text, wrap_text, he, exprSrc, String.toList_append, parenIf_toList]
-  | .fact e, h => by
-    simp only [Frag, frag] at h
-    have he := canon_text e h
+    simp only [unSpread, canon, CST.text, wrap_text, he, exprSrc, String.toList_append,
+      parenIf_toList]
+  | _, .fact e, h => by
+    simp only [fragB] at h
+    have he := canon_text false e h
+    rw [unSpread_of_frag h] at he
     simp only [exprToSource] at he ⊢
-    simp only [canon, CST.text, wrap_text, he, exprSrc, String.toList_append, parenIf_toList]
+    simp only [unSpread, canon, CST.text, wrap_text, he, exprSrc, String.toList_append,
+      parenIf_toList]
     rfl
-  | .ident _, _ | .builtin _, _ | .bool _, _ | .null, _ | .num _, _ => rfl
-  | .str _, h | .inref _, h | .list _, h | .record _, h | .lambda _ _, h | .cond _ _ _, h
-  | .doBlock _ _, h | .assign _ _, h | .output _, h | .call _ _, h | .access _ _, h | .dot _ _, h
-  | .spread _, h => by simp [Frag, frag] at h
+  | _, .call f args, h => by
+    simp only [fragB, Bool.and_eq_true] at h
+    have hf := canon_text false f h.1
+    rw [unSpread_of_frag h.1] at hf
+    have ha := canonArgs_text args h.2
+    simp only [exprToSource] at hf ⊢
+    simp only [unSpread, canon, mkCall_text, wrap_text, hf, ha, exprSrc, String.toList_append,
+      parenIf_toList, String.toList_intercalate, commaSp, List.append_assoc]
+    rfl
+  | _, .access e i, h => by
+    simp only [fragB, Bool.and_eq_true] at h
+    have he := canon_text false e h.1
+    have hi := canon_text false i h.2
+    rw [unSpread_of_frag h.1] at he
+    rw [unSpread_of_frag h.2] at hi
+    simp only [exprToSource] at he hi ⊢
+    simp only [unSpread, canon, CST.text, wrap_text, he, hi, exprSrc, String.toList_append,
+      parenIf_toList, layChars, List.append_assoc, List.nil_append]
+    rfl
+  | _, .dot e n, h => by
+    simp only [fragB, Bool.and_eq_true] at h
+    have he := canon_text false e h.1
+    rw [unSpread_of_frag h.1] at he
+    simp only [exprToSource] at he ⊢
+    simp only [unSpread, canon, CST.text, wrap_text, he, exprSrc, String.toList_append,
+      parenIf_toList, List.append_assoc]
+    rfl
+  | sp, .spread e, h => by
+    simp only [fragB, Bool.and_eq_true] at h
+    have he := canon_text false e h.2
+    rw [unSpread_of_frag h.2] at he
+    simp only [canon, he, unSpread]
+  | _, .list items, h => by
+    simp only [fragB] at h
+    have ha := canonItems_text items h
+    simp only [exprToSource]
+    simp only [unSpread, canon, mkList_text, ha, exprSrc, String.toList_append,
+      String.toList_intercalate, commaSp, List.append_assoc]
+    rfl
+  | _, .lambda args body, h => by
+    simp only [fragB, Bool.and_eq_true] at h
+    have hb := canon_text false body h.2
+    rw [unSpread_of_frag h.2] at hb
+    simp only [exprToSource] at hb ⊢
+    simp only [unSpread, canon, CST.text, headOf_text, wrap_text, hb, exprSrc,
+      foldl_scopeRemove_nil, String.toList_append, String.toList_intercalate, commaSp,
+      List.map_map, Function.comp_def, argText_src, parenIf_toList, layChars, LayAtom.chars,
+      List.append_assoc, List.cons_append, List.nil_append]
+    rfl
+  | _, .cond c t e, h => by
+    simp only [fragB, Bool.and_eq_true] at h
+    have hc := canon_text false c h.1.1
+    have ht := canon_text false t h.1.2
+    have he := canon_text false e h.2
+    rw [unSpread_of_frag h.1.1] at hc
+    rw [unSpread_of_frag h.1.2] at ht
+    rw [unSpread_of_frag h.2] at he
+    simp only [exprToSource] at hc ht he ⊢
+    simp only [unSpread, canon, CST.text, hc, ht, he, exprSrc, String.toList_append, layChars,
+      LayAtom.chars, thenLit, elseLit, List.append_assoc, List.cons_append, List.nil_append]
+    rfl
+  | _, .ident _, _ | _, .builtin _, _ | _, .bool _, _ | _, .null, _ | _, .num _, _ => rfl
+  | _, .str _, h | _, .inref _, h | _, .record _, h
+  | _, .doBlock _ _, h | _, .assign _ _, h | _, .output _, h => by
+    simp [fragB] at h
+theorem canonArgs_text : ∀ (args : List Expr), fragArgs args = true →
+    (canonArgs args).map argS = (exprsSrc [] args).map String.toList
+  | [], _ => rfl
+  | a :: rest, h => by
+    simp only [fragArgs, Bool.and_eq_true] at h
+    have ha := canon_text true a h.1
+    have := argS_src a
+    simp only [exprToSource] at ha this
+    simp only [canonArgs, List.map_cons, argS, ha, this, canonArgs_text rest h.2, exprsSrc]
+theorem canonItems_text : ∀ (items : List Item), fragItems items = true →
+    (canonItems items).map argS = (itemsSrc [] items).map String.toList
+  | [], _ => rfl
+  | (.mk lead e tr) :: rest, h => by
+    simp only [fragItems, Bool.and_eq_true] at h
+    have ha := canon_text true e h.1.2
+    have := argS_src e
+    simp only [exprToSource] at ha this
+    simp only [canonItems, List.map_cons, argS, ha, this, canonItems_text rest h.2, itemsSrc,
+      itemSrc]
+end
 
-theorem canon_items : ∀ t : Expr, Frag t → (canon t).items = PrattRT.items t
-  | .bin op l r, h => by
-    simp only [Frag, frag, Bool.and_eq_true] at h
-    simp only [canon, CST.items, wrap_items, wrap_tree, canon_tree l h.1, canon_tree r h.2,
-      canon_items l h.1, canon_items r h.2, PrattRT.items_bin, PrattRT.child]
-  | .un op e, h => by
-    simp only [Frag, frag, Bool.and_eq_true] at h
-    simp only [canon, CST.items, wrap_items, canon_tree e h.2, canon_items e h.2,
+theorem canon_text_frag (t : Expr) (h : Frag t) : (canon t).text = (exprToSource t).toList := by
+  rw [canon_text false t h, unSpread_of_frag h]
+
+theorem canon_items : ∀ (sp : Bool) (t : Expr), fragB sp t = true →
+    (canon t).items = PrattRT.items (unSpread t)
+  | _, .bin op l r, h => by
+    simp only [fragB, Bool.and_eq_true] at h
+    have hl := canon_items false l h.1
+    have hr := canon_items false r h.2
+    rw [unSpread_of_frag h.1] at hl
+    rw [unSpread_of_frag h.2] at hr
+    simp only [unSpread, canon, CST.items, wrap_items, wrap_tree, canon_tree_frag l h.1,
+      canon_tree_frag r h.2, hl, hr, PrattRT.items_bin, PrattRT.child]
+  | _, .un op e, h => by
+    simp only [fragB, Bool.and_eq_true] at h
+    have he := canon_items false e h.2
+    rw [unSpread_of_frag h.2] at he
+    simp only [unSpread, canon, CST.items, wrap_items, canon_tree_frag e h.2, he,
       PrattRT.items_un, PrattRT.child]
-  | .fact e, h => by
-    simp only [Frag, frag] at h
-    simp only [canon, CST.items, wrap_items, canon_tree e h, canon_items e h,
+  | _, .fact e, h => by
+    simp only [fragB] at h
+    have he := canon_items false e h
+    rw [unSpread_of_frag h] at he
+    simp only [unSpread, canon, CST.items, wrap_items, canon_tree_frag e h, he,
       PrattRT.items_fact, PrattRT.child]
-  | .ident _, _ | .builtin _, _ | .bool _, _ | .null, _ | .num _, _ => rfl
-  | .str _, h | .inref _, h | .list _, h | .record _, h | .lambda _ _, h | .cond _ _ _, h
-  | .doBlock _ _, h | .assign _ _, h | .output _, h | .call _ _, h | .access _ _, h | .dot _ _, h
-  | .spread _, h => by simp [Frag, frag] at h
+  | _, .call f args, h => by
+    simp only [fragB, Bool.and_eq_true] at h
+    have hf := canon_items false f h.1
+    rw [unSpread_of_frag h.1] at hf
+    simp only [unSpread, canon, mkCall_items, wrap_items, canon_tree_frag f h.1, hf,
+      canonArgs_tree args h.2, PrattRT.items_call, PrattRT.child]
+  | _, .access e i, h => by
+    simp only [fragB, Bool.and_eq_true] at h
+    have he := canon_items false e h.1
+    rw [unSpread_of_frag h.1] at he
+    simp only [unSpread, canon, CST.items, wrap_items, canon_tree_frag e h.1,
+      canon_tree_frag i h.2, he, PrattRT.items_access, PrattRT.child]
+  | _, .dot e n, h => by
+    simp only [fragB, Bool.and_eq_true] at h
+    have he := canon_items false e h.1
+    rw [unSpread_of_frag h.1] at he
+    simp only [unSpread, canon, CST.items, wrap_items, canon_tree_frag e h.1, he,
+      PrattRT.items_dot, PrattRT.child]
+  | sp, .spread e, h => by
+    simp only [fragB, Bool.and_eq_true] at h
+    have he := canon_items false e h.2
+    rw [unSpread_of_frag h.2] at he
+    simp only [canon, he, unSpread]
+  | _, .list items, h => by
+    simp only [fragB] at h
+    simp only [canon, mkList_items, canonItems_tree items h]; rfl
+  | _, .lambda args body, h => by
+    simp only [fragB, Bool.and_eq_true] at h
+    simp only [canon, CST.items, headOf_args, wrap_tree, canon_tree_frag body h.2]; rfl
+  | _, .cond c t e, h => by
+    simp only [fragB, Bool.and_eq_true] at h
+    simp only [canon, CST.items, canon_tree_frag c h.1.1, canon_tree_frag t h.1.2,
+      canon_tree_frag e h.2]; rfl
+  | _, .ident _, _ | _, .builtin _, _ | _, .bool _, _ | _, .null, _ | _, .num _, _ => rfl
+  | _, .str _, h | _, .inref _, h | _, .record _, h
+  | _, .doBlock _ _, h | _, .assign _ _, h | _, .output _, h => by
+    simp [fragB] at h
 
-theorem canon_shaped : ∀ t : Expr, Frag t → (canon t).Shaped
-  | .bin op l r, h => by
-    simp only [Frag, frag, Bool.and_eq_true] at h
-    refine ⟨wrap_shaped (canon_shaped l h.1), wrap_shaped (canon_shaped r h.2), ?_, ?_⟩
+theorem canon_items_frag (t : Expr) (h : Frag t) : (canon t).items = PrattRT.items t := by
+  rw [canon_items false t h, unSpread_of_frag h]
+
+mutual
+theorem canon_shaped : ∀ (sp : Bool) (t : Expr), fragB sp t = true → (canon t).Shaped
+  | _, .bin op l r, h => by
+    simp only [fragB, Bool.and_eq_true] at h
+    refine ⟨wrap_shaped (canon_shaped false l h.1), wrap_shaped (canon_shaped false r h.2), ?_, ?_⟩
     · intro hp
-      rw [wrap_tree, canon_tree l h.1]
+      rw [wrap_tree, canon_tree_frag l h.1]
       exact wrap_isParen (canon_isParen l) hp
     · intro hp
-      rw [wrap_tree, canon_tree r h.2]
+      rw [wrap_tree, canon_tree_frag r h.2]
       exact wrap_isParen (canon_isParen r) hp
-  | .un op e, h => by
-    simp only [Frag, frag, Bool.and_eq_true, bne_iff_ne, ne_eq] at h
-    refine ⟨h.1, wrap_shaped (canon_shaped e h.2), ?_⟩
+  | _, .un op e, h => by
+    simp only [fragB, Bool.and_eq_true, bne_iff_ne, ne_eq] at h
+    refine ⟨h.1, wrap_shaped (canon_shaped false e h.2), ?_⟩
     intro hp
-    rw [wrap_tree, canon_tree e h.2]
+    rw [wrap_tree, canon_tree_frag e h.2]
     exact wrap_isParen (canon_isParen e) hp
-  | .fact e, h => by
-    simp only [Frag, frag] at h
-    refine ⟨wrap_shaped (canon_shaped e h), ?_⟩
+  | _, .fact e, h => by
+    simp only [fragB] at h
+    refine ⟨wrap_shaped (canon_shaped false e h), ?_⟩
     intro hp
-    rw [wrap_tree, canon_tree e h]
+    rw [wrap_tree, canon_tree_frag e h]
     exact wrap_isParen (canon_isParen e) hp
-  | .ident _, h | .builtin _, h | .bool _, h | .null, h | .num _, h => by
-    simp only [Frag, frag] at h; exact h
-  | .str _, h | .inref _, h | .list _, h | .record _, h | .lambda _ _, h | .cond _ _ _, h
-  | .doBlock _ _, h | .assign _ _, h | .output _, h | .call _ _, h | .access _ _, h | .dot _ _, h
-  | .spread _, h => by simp [Frag, frag] at h
+  | _, .call f args, h => by
+    simp only [fragB, Bool.and_eq_true] at h
+    refine mkCall_shaped (wrap_shaped (canon_shaped false f h.1)) ?_ (canonArgs_shaped args h.2)
+    intro hp
+    rw [wrap_tree, canon_tree_frag f h.1]
+    exact wrap_isParen (canon_isParen f) hp
+  | _, .access e i, h => by
+    simp only [fragB, Bool.and_eq_true] at h
+    refine ⟨wrap_shaped (canon_shaped false e h.1), ?_, canon_shaped false i h.2⟩
+    intro hp
+    rw [wrap_tree, canon_tree_frag e h.1]
+    exact wrap_isParen (canon_isParen e) hp
+  | _, .dot e n, h => by
+    simp only [fragB, Bool.and_eq_true] at h
+    refine ⟨wrap_shaped (canon_shaped false e h.1), ?_, h.2⟩
+    intro hp
+    rw [wrap_tree, canon_tree_frag e h.1]
+    exact wrap_isParen (canon_isParen e) hp
+  | sp, .spread e, h => by
+    simp only [fragB, Bool.and_eq_true] at h
+    exact canon_shaped false e h.2
+  | _, .list items, h => by
+    simp only [fragB] at h
+    exact mkList_shaped (canonItems_shaped items h)
+  | _, .lambda args body, h => by
+    simp only [fragB, Bool.and_eq_true] at h
+    refine ⟨headOf_namesOk h.1, wrap_shaped (canon_shaped false body h.2), ?_, ?_⟩
+    · intro hp
+      rw [wrap_tree, canon_tree_frag body h.2]
+      exact wrap_isParen (canon_isParen body) hp
+    · rw [wrap_items]
+      split
+      · intro op hm; simp at hm
+      · rename_i hnp
+        rw [canon_items_frag body h.2]
+        exact (noChain_body body (by simpa using hnp)).lamSafe
+  | _, .cond c t e, h => by
+    simp only [fragB, Bool.and_eq_true] at h
+    exact ⟨canon_shaped false c h.1.1, canon_shaped false t h.1.2, canon_shaped false e h.2⟩
+  | _, .ident _, h | _, .builtin _, h | _, .bool _, h | _, .null, h | _, .num _, h => by
+    simp only [fragB] at h; exact h
+  | _, .str _, h | _, .inref _, h | _, .record _, h
+  | _, .doBlock _ _, h | _, .assign _ _, h | _, .output _, h => by
+    simp [fragB] at h
+theorem canonArgs_shaped : ∀ (args : List Expr), fragArgs args = true →
+    ∀ q ∈ canonArgs args, q.2.Shaped
+  | [], _ => by intro q hq; cases hq
+  | a :: rest, h => by
+    simp only [fragArgs, Bool.and_eq_true] at h
+    intro q hq
+    simp only [canonArgs, List.mem_cons] at hq
+    rcases hq with rfl | hq
+    · exact canon_shaped true a h.1
+    · exact canonArgs_shaped rest h.2 q hq
+theorem canonItems_shaped : ∀ (items : List Item), fragItems items = true →
+    ∀ q ∈ canonItems items, q.2.Shaped
+  | [], _ => by intro q hq; cases hq
+  | (.mk lead e tr) :: rest, h => by
+    simp only [fragItems, Bool.and_eq_true] at h
+    intro q hq
+    simp only [canonItems, List.mem_cons] at hq
+    rcases hq with rfl | hq
+    · exact canon_shaped true e h.1.2
+    · exact canonItems_shaped rest h.2 q hq
+end
 
 /-- one blank on each side is admissible for every operator -/
 theorem layOk_sp (op : BinOp) : CST.layOk op [.sp] [.sp] = true := by
   cases h : isWordOp op <;> simp [CST.layOk, h, wsOnly, LayAtom.isWs]
 
+mutual
 theorem canon_layout : ∀ t : Expr, (canon t).LayoutOk
   | .bin op l r => ⟨wrap_layout (canon_layout l), wrap_layout (canon_layout r), layOk_sp op⟩
   | .un _ e => wrap_layout (canon_layout e)
   | .fact e => wrap_layout (canon_layout e)
+  | .call f args => mkCall_layout (wrap_layout (canon_layout f)) (canonArgs_layout args)
+  | .access e i => ⟨wrap_layout (canon_layout e), canon_layout i, rfl, rfl⟩
+  | .dot e _ => wrap_layout (canon_layout e)
+  | .spread e => canon_layout e
+  | .list items => mkList_layout (canonItems_layout items)
+  | .lambda args body => ⟨headOf_ok args, rfl, wrap_layout (canon_layout body)⟩
+  | .cond c t e =>
+    ⟨⟨by simp, rfl, by simp, by simp, by simp, by simp⟩, canon_layout c, canon_layout t,
+      canon_layout e⟩
   | .ident _ | .builtin _ | .bool _ | .null | .num _ => trivial
-  | .str _ | .inref _ | .list _ | .record _ | .lambda _ _ | .cond _ _ _
-  | .doBlock _ _ | .assign _ _ | .output _ | .call _ _ | .access _ _ | .dot _ _
-  | .spread _ => trivial
+  | .str _ | .inref _ | .record _
+  | .doBlock _ _ | .assign _ _ | .output _ => trivial
+theorem canonArgs_layout : ∀ (args : List Expr), ∀ q ∈ canonArgs args, q.2.LayoutOk
+  | [] => by intro q hq; cases hq
+  | a :: rest => by
+    intro q hq
+    simp only [canonArgs, List.mem_cons] at hq
+    rcases hq with rfl | hq
+    · exact canon_layout a
+    · exact canonArgs_layout rest q hq
+theorem canonItems_layout : ∀ (items : List Item), ∀ q ∈ canonItems items, q.2.LayoutOk
+  | [] => by intro q hq; cases hq
+  | (.mk lead e tr) :: rest => by
+    intro q hq
+    simp only [canonItems, List.mem_cons] at hq
+    rcases hq with rfl | hq
+    · exact canon_layout e
+    · exact canonItems_layout rest q hq
+end
 
-theorem canon_wf (t : Expr) (h : Frag t) : (canon t).WF := ⟨canon_shaped t h, canon_layout t⟩
+theorem canon_wf (t : Expr) (h : Frag t) : (canon t).WF := ⟨canon_shaped false t h, canon_layout t⟩
 
-theorem frag_noInvert : ∀ t : Expr, Frag t → PrattRT.NoInvert t
-  | .bin op l r, h => by
-    simp only [Frag, frag, Bool.and_eq_true] at h
-    simp [PrattRT.NoInvert, PrattRT.noInvert, frag_noInvert l h.1, frag_noInvert r h.2]
-  | .un op e, h => by
-    simp only [Frag, frag, Bool.and_eq_true] at h
-    simp [PrattRT.NoInvert, PrattRT.noInvert, frag_noInvert e h.2, h.1]
-  | .fact e, h => by
-    simp only [Frag, frag] at h
-    simp [PrattRT.NoInvert, PrattRT.noInvert, frag_noInvert e h]
-  | .ident _, _ | .builtin _, _ | .bool _, _ | .null, _ | .num _, _ => rfl
-  | .str _, h | .inref _, h | .list _, h | .record _, h | .lambda _ _, h | .cond _ _ _, h
-  | .doBlock _ _, h | .assign _ _, h | .output _, h | .call _ _, h | .access _ _, h | .dot _ _, h
-  | .spread _, h => by simp [Frag, frag] at h
+theorem frag_noInvert : ∀ (sp : Bool) (t : Expr), fragB sp t = true → PrattRT.NoInvert t
+  | _, .bin op l r, h => by
+    simp only [fragB, Bool.and_eq_true] at h
+    simp [PrattRT.NoInvert, PrattRT.noInvert, frag_noInvert false l h.1, frag_noInvert false r h.2]
+  | _, .un op e, h => by
+    simp only [fragB, Bool.and_eq_true] at h
+    simp [PrattRT.NoInvert, PrattRT.noInvert, frag_noInvert false e h.2, h.1]
+  | _, .fact e, h => by
+    simp only [fragB] at h
+    simp [PrattRT.NoInvert, PrattRT.noInvert, frag_noInvert false e h]
+  | _, .call f _, h => by
+    simp only [fragB, Bool.and_eq_true] at h
+    simp [PrattRT.NoInvert, PrattRT.noInvert, frag_noInvert false f h.1]
+  | _, .access e _, h => by
+    simp only [fragB, Bool.and_eq_true] at h
+    simp [PrattRT.NoInvert, PrattRT.noInvert, frag_noInvert false e h.1]
+  | _, .dot e _, h => by
+    simp only [fragB, Bool.and_eq_true] at h
+    simp [PrattRT.NoInvert, PrattRT.noInvert, frag_noInvert false e h.1]
+  | _, .spread _, _ => rfl
+  | _, .list _, _ => rfl
+  | _, .lambda _ _, _ => rfl
+  | _, .cond _ _ _, _ => rfl
+  | _, .ident _, _ | _, .builtin _, _ | _, .bool _, _ | _, .null, _ | _, .num _, _ => rfl
+  | _, .str _, h | _, .inref _, h | _, .record _, h
+  | _, .doBlock _ _, h | _, .assign _ _, h | _, .output _, h => by
+    simp [fragB] at h
 
 /-! ### (12) re-layout -/
 
 namespace CST
 
+mutual
 /-- every layout string reset to what the printer writes: one blank on each side of a binary
-    operator, nothing inside parentheses -/
+    operator, `, ` between arguments, no trailing comma, nothing inside brackets -/
 def normalize : CST → CST
   | .atom e => .atom e
   | .bin op l _ _ r => .bin op l.normalize [.sp] [.sp] r.normalize
   | .un op e => .un op e.normalize
   | .fact e => .fact e.normalize
   | .paren _ e _ => .paren [] e.normalize []
+  | .call0 f _ => .call0 f.normalize []
+  | .call f _ as _ => .call f.normalize [] (normArgs as) (.plain [])
+  | .access e _ i _ => .access e.normalize [] i.normalize []
+  | .dot e n => .dot e.normalize n
+  | .list0 _ => .list0 []
+  | .list _ as _ => .list [] (normArgs as) (.plain [])
+  | .lambda hd _ _ b => .lambda (headOf hd.args) [.sp] [.sp] b.normalize
+  | .cond _ c _ _ t _ _ e => .cond [.sp] c.normalize [.sp] [.sp] t.normalize [.sp] [.sp] e.normalize
+def normArgs : Args → Args
+  | .last sp a => .last sp a.normalize
+  | .cons sp a _ _ rest => .cons sp a.normalize [] [.sp] (normArgs rest)
+end
 
+mutual
 theorem normalize_tree : ∀ c : CST, c.normalize.tree = c.tree
   | .atom _ => rfl
   | .bin _ l _ _ r => by simp only [normalize, tree, normalize_tree l, normalize_tree r]
   | .un _ e => by simp only [normalize, tree, normalize_tree e]
   | .fact e => by simp only [normalize, tree, normalize_tree e]
   | .paren _ e _ => by simp only [normalize, tree, normalize_tree e]
+  | .call0 f _ => by simp only [normalize, tree, normalize_tree f]
+  | .call f _ as _ => by simp only [normalize, tree, normalize_tree f, normArgs_trees as]
+  | .access e _ i _ => by simp only [normalize, tree, normalize_tree e, normalize_tree i]
+  | .dot e _ => by simp only [normalize, tree, normalize_tree e]
+  | .list0 _ => rfl
+  | .list _ as _ => by simp only [normalize, tree, normArgs_trees as]
+  | .lambda hd _ _ b => by simp only [normalize, tree, headOf_args, normalize_tree b]
+  | .cond _ c _ _ t _ _ e => by
+    simp only [normalize, tree, normalize_tree c, normalize_tree t, normalize_tree e]
+theorem normArgs_trees : ∀ as : Args, argsTrees (normArgs as) = argsTrees as
+  | .last _ a => by simp only [normArgs, argsTrees, normalize_tree a]
+  | .cons _ a _ _ rest => by simp only [normArgs, argsTrees, normalize_tree a, normArgs_trees rest]
+end
 
 theorem normalize_items : ∀ c : CST, c.normalize.items = c.items
   | .atom _ => rfl
@@ -1380,66 +3041,154 @@ theorem normalize_items : ∀ c : CST, c.normalize.items = c.items
   | .un _ e => by simp only [normalize, items, normalize_items e]
   | .fact e => by simp only [normalize, items, normalize_items e]
   | .paren _ e _ => by simp only [normalize, items, normalize_tree e]
+  | .call0 f _ => by simp only [normalize, items, normalize_items f]
+  | .call f _ as _ => by simp only [normalize, items, normalize_items f, normArgs_trees as]
+  | .access e _ i _ => by simp only [normalize, items, normalize_items e, normalize_tree i]
+  | .dot e _ => by simp only [normalize, items, normalize_items e]
+  | .list0 _ => rfl
+  | .list _ as _ => by simp only [normalize, items, normArgs_trees as]
+  | .lambda hd _ _ b => by simp only [normalize, items, headOf_args, normalize_tree b]
+  | .cond _ c _ _ t _ _ e => by
+    simp only [normalize, items, normalize_tree c, normalize_tree t, normalize_tree e]
 
 theorem normalize_isParen (c : CST) : c.normalize.isParen = c.isParen := by
-  cases c <;> rfl
+  cases c <;> simp [normalize, isParen]
 
-theorem shaped_of_normalize : ∀ c : CST, c.normalize.Shaped → c.Shaped
-  | .atom _, h => h
-  | .bin _ l _ _ r, h => by
+theorem namesOk_of_norm {hd : LamHead} (h : (headOf hd.args).namesOk = true) (hok : hd.ok = true) :
+    hd.namesOk = true := by
+  simp only [LamHead.namesOk, headOf_args, Bool.and_eq_true] at h ⊢
+  refine ⟨h.1, ?_⟩
+  cases hd with
+  | bare a => cases a <;> first | rfl | (simp [LamHead.ok] at hok)
+  | unit l => rfl
+  | parens l0 a more c => rfl
+
+mutual
+theorem shaped_of_normalize : ∀ c : CST, c.normalize.Shaped → c.LayoutOk → c.Shaped
+  | .atom _, h, _ => h
+  | .bin _ l _ _ r, h, hl => by
     simp only [normalize, Shaped, normalize_tree, normalize_isParen] at h
-    exact ⟨shaped_of_normalize l h.1, shaped_of_normalize r h.2.1, h.2.2.1, h.2.2.2⟩
-  | .un _ e, h => by
+    exact ⟨shaped_of_normalize l h.1 hl.1, shaped_of_normalize r h.2.1 hl.2.1, h.2.2.1, h.2.2.2⟩
+  | .un _ e, h, hl => by
     simp only [normalize, Shaped, normalize_tree, normalize_isParen] at h
-    exact ⟨h.1, shaped_of_normalize e h.2.1, h.2.2⟩
-  | .fact e, h => by
+    exact ⟨h.1, shaped_of_normalize e h.2.1 hl, h.2.2⟩
+  | .fact e, h, hl => by
     simp only [normalize, Shaped, normalize_tree, normalize_isParen] at h
-    exact ⟨shaped_of_normalize e h.1, h.2⟩
-  | .paren _ e _, h => by
+    exact ⟨shaped_of_normalize e h.1 hl, h.2⟩
+  | .paren _ e _, h, hl => by
     simp only [normalize, Shaped] at h
-    exact shaped_of_normalize e h
+    exact shaped_of_normalize e h hl
+  | .call0 f _, h, hl => by
+    simp only [normalize, Shaped, normalize_tree, normalize_isParen] at h
+    exact ⟨shaped_of_normalize f h.1 hl, h.2⟩
+  | .call f _ as _, h, hl => by
+    simp only [normalize, Shaped, normalize_tree, normalize_isParen] at h
+    exact ⟨shaped_of_normalize f h.1 hl.1, h.2.1, argsShaped_of_normalize as h.2.2 hl.2.1⟩
+  | .access e _ i _, h, hl => by
+    simp only [normalize, Shaped, normalize_tree, normalize_isParen] at h
+    exact ⟨shaped_of_normalize e h.1 hl.1, h.2.1, shaped_of_normalize i h.2.2 hl.2.1⟩
+  | .dot e _, h, hl => by
+    simp only [normalize, Shaped, normalize_tree, normalize_isParen] at h
+    exact ⟨shaped_of_normalize e h.1 hl, h.2.1, h.2.2⟩
+  | .list0 _, _, _ => trivial
+  | .list _ as _, h, hl => by
+    simp only [normalize, Shaped] at h
+    exact argsShaped_of_normalize as h hl.1
+  | .lambda hd _ _ b, h, hl => by
+    simp only [normalize, Shaped, normalize_tree, normalize_isParen, normalize_items] at h
+    exact ⟨namesOk_of_norm h.1 hl.1, shaped_of_normalize b h.2.1 hl.2.2, h.2.2.1, h.2.2.2⟩
+  | .cond _ c _ _ t _ _ e, h, hl => by
+    simp only [normalize, Shaped] at h
+    exact ⟨shaped_of_normalize c h.1 hl.2.1, shaped_of_normalize t h.2.1 hl.2.2.1,
+      shaped_of_normalize e h.2.2 hl.2.2.2⟩
+theorem argsShaped_of_normalize : ∀ as : Args, ArgsShaped (normArgs as) → ArgsLayoutOk as →
+    ArgsShaped as
+  | .last _ a, h, hl => shaped_of_normalize a h hl
+  | .cons _ a _ _ rest, h, hl =>
+    ⟨shaped_of_normalize a h.1 hl.1, argsShaped_of_normalize rest h.2 hl.2.2⟩
+end
 
 end CST
 
 /-- `c` is a RE-LAYOUT of the printed `t`: resetting every layout string of `c` gives the
-    printer's CST (same atoms, operators, parentheses), and every layout string of `c` is
-    admissible at its position (`CST.layOk`; anything between a parenthesis and its content) -/
+    printer's CST (same atoms, operators, parentheses, arguments, items), and every layout
+    string of `c` is admissible at its position (`CST.LayoutOk`: `CST.layOk` around a binary
+    operator; anything between a parenthesis and its content; in a call and in a list anything
+    behind the opening bracket and behind a comma, blanks only in front of a comma, an optional
+    trailing comma — in a call followed, after blanks, by a line break; line breaks only
+    inside `[ ]` of an index) -/
 def Relayout (t : Expr) (c : CST) : Prop := c.normalize = canon t ∧ c.LayoutOk
 
-theorem wrap_normalize {b : Bool} {c : CST} (h : c.normalize = c) :
-    (wrap b c).normalize = wrap b c := by
-  cases b <;> simp [wrap, CST.normalize, h]
+theorem wrap_normalize' (b : Bool) (c : CST) : (wrap b c).normalize = wrap b c.normalize := by
+  cases b <;> rfl
 
-theorem canon_normalize : ∀ t : Expr, Frag t → (canon t).normalize = canon t
-  | .bin op l r, h => by
-    simp only [Frag, frag, Bool.and_eq_true] at h
-    simp only [canon, CST.normalize, wrap_normalize (canon_normalize l h.1),
-      wrap_normalize (canon_normalize r h.2)]
-  | .un op e, h => by
-    simp only [Frag, frag, Bool.and_eq_true] at h
-    simp only [canon, CST.normalize, wrap_normalize (canon_normalize e h.2)]
-  | .fact e, h => by
-    simp only [Frag, frag] at h
-    simp only [canon, CST.normalize, wrap_normalize (canon_normalize e h)]
-  | .ident _, _ | .builtin _, _ | .bool _, _ | .null, _ | .num _, _ => rfl
-  | .str _, h | .inref _, h | .list _, h | .record _, h | .lambda _ _, h | .cond _ _ _, h
-  | .doBlock _ _, h | .assign _ _, h | .output _, h | .call _ _, h | .access _ _, h | .dot _ _, h
-  | .spread _, h => by simp [Frag, frag] at h
+def normPair (q : Bool × CST) : Bool × CST := (q.1, q.2.normalize)
 
-theorem relayout_self (t : Expr) (h : Frag t) : Relayout t (canon t) :=
-  ⟨canon_normalize t h, canon_layout t⟩
+theorem mkArgs_normalize : ∀ (ps : List (Bool × CST)) (p : Bool × CST),
+    CST.normArgs (mkArgs p ps) = mkArgs (normPair p) (ps.map normPair)
+  | [], _ => rfl
+  | q :: ps, _ => by simp only [mkArgs, CST.normArgs, mkArgs_normalize ps q, List.map_cons, normPair]
+
+theorem mkCall_normalize (f : CST) (ps : List (Bool × CST)) :
+    (mkCall f ps).normalize = mkCall f.normalize (ps.map normPair) := by
+  cases ps with
+  | nil => rfl
+  | cons p ps => simp only [mkCall, CST.normalize, mkArgs_normalize, List.map_cons]
+
+theorem mkList_normalize (ps : List (Bool × CST)) :
+    (mkList ps).normalize = mkList (ps.map normPair) := by
+  cases ps with
+  | nil => rfl
+  | cons p ps => simp only [mkList, CST.normalize, mkArgs_normalize, List.map_cons]
+
+mutual
+theorem canon_normalize : ∀ t : Expr, (canon t).normalize = canon t
+  | .bin op l r => by
+    simp only [canon, CST.normalize, wrap_normalize', canon_normalize l, canon_normalize r]
+  | .un op e => by simp only [canon, CST.normalize, wrap_normalize', canon_normalize e]
+  | .fact e => by simp only [canon, CST.normalize, wrap_normalize', canon_normalize e]
+  | .call f args => by
+    simp only [canon, mkCall_normalize, wrap_normalize', canon_normalize f,
+      canonArgs_normalize args]
+  | .access e i => by
+    simp only [canon, CST.normalize, wrap_normalize', canon_normalize e, canon_normalize i]
+  | .dot e n => by simp only [canon, CST.normalize, wrap_normalize', canon_normalize e]
+  | .spread e => by simp only [canon, canon_normalize e]
+  | .list items => by simp only [canon, mkList_normalize, canonItems_normalize items]
+  | .lambda args body => by
+    simp only [canon, CST.normalize, headOf_args, wrap_normalize', canon_normalize body]
+  | .cond c t e => by
+    simp only [canon, CST.normalize, canon_normalize c, canon_normalize t, canon_normalize e]
+  | .ident _ | .builtin _ | .bool _ | .null | .num _ => rfl
+  | .str _ | .inref _ | .record _
+  | .doBlock _ _ | .assign _ _ | .output _ => rfl
+theorem canonArgs_normalize : ∀ args : List Expr, (canonArgs args).map normPair = canonArgs args
+  | [] => rfl
+  | a :: rest => by
+    simp only [canonArgs, List.map_cons, normPair, canon_normalize a, canonArgs_normalize rest]
+theorem canonItems_normalize : ∀ items : List Item,
+    (canonItems items).map normPair = canonItems items
+  | [] => rfl
+  | (.mk _ e _) :: rest => by
+    simp only [canonItems, List.map_cons, normPair, canon_normalize e, canonItems_normalize rest]
+end
+
+theorem relayout_self (t : Expr) : Relayout t (canon t) :=
+  ⟨canon_normalize t, canon_layout t⟩
 
 theorem relayout_wf {t : Expr} {c : CST} (h : Frag t) (hr : Relayout t c) :
     c.WF ∧ c.items = PrattRT.items t ∧ c.tree = t := by
   obtain ⟨hn, hl⟩ := hr
-  refine ⟨⟨CST.shaped_of_normalize c (hn ▸ canon_shaped t h), hl⟩, ?_, ?_⟩
-  · rw [← CST.normalize_items, hn, canon_items t h]
-  · rw [← CST.normalize_tree, hn, canon_tree t h]
+  refine ⟨⟨CST.shaped_of_normalize c (hn ▸ canon_shaped false t h) hl, hl⟩, ?_, ?_⟩
+  · rw [← CST.normalize_items, hn, canon_items_frag t h]
+  · rw [← CST.normalize_tree, hn, canon_tree_frag t h]
 
 /-! ### (13) redundant parentheses -/
 
+mutual
 /-- `Wrap c c'`: `c'` is `c` with ONE sub-expression (any, at any depth — possibly all of
-    `c`) put into an extra pair of parentheses, with any layout inside them -/
+    `c`; also inside an argument or an index) put into an extra pair of parentheses, with any
+    layout inside them -/
 inductive Wrap : CST → CST → Prop
   | here (a : Lay) (c : CST) (b : Lay) : Wrap c (.paren a c b)
   | binL {l l' : CST} (op : BinOp) (a b : Lay) (r : CST) : Wrap l l' → Wrap (.bin op l a b r) (.bin op l' a b r)
@@ -1447,39 +3196,217 @@ inductive Wrap : CST → CST → Prop
   | un {e e' : CST} (op : UnOp) : Wrap e e' → Wrap (.un op e) (.un op e')
   | fact {e e' : CST} : Wrap e e' → Wrap (.fact e) (.fact e')
   | paren {e e' : CST} (a b : Lay) : Wrap e e' → Wrap (.paren a e b) (.paren a e' b)
+  | call0 {f f' : CST} (l : Lay) : Wrap f f' → Wrap (.call0 f l) (.call0 f' l)
+  | callF {f f' : CST} (l : Lay) (as : Args) (c : Close) : Wrap f f' → Wrap (.call f l as c) (.call f' l as c)
+  | callA {as as' : Args} (f : CST) (l : Lay) (c : Close) : WrapArgs as as' → Wrap (.call f l as c) (.call f l as' c)
+  | accE {e e' : CST} (a : Lay) (i : CST) (b : Lay) : Wrap e e' → Wrap (.access e a i b) (.access e' a i b)
+  | accI {i i' : CST} (e : CST) (a b : Lay) : Wrap i i' → Wrap (.access e a i b) (.access e a i' b)
+  | dot {e e' : CST} (n : String) : Wrap e e' → Wrap (.dot e n) (.dot e' n)
+  | listA {as as' : Args} (l : Lay) (c : Close) : WrapArgs as as' → Wrap (.list l as c) (.list l as' c)
+  | lamB {b b' : CST} (hd : LamHead) (w l : Lay) : Wrap b b' → Wrap (.lambda hd w l b) (.lambda hd w l b')
+  | condC {c c' : CST} (w l1 l2 : Lay) (t : CST) (l3 l4 : Lay) (e : CST) : Wrap c c' →
+      Wrap (.cond w c l1 l2 t l3 l4 e) (.cond w c' l1 l2 t l3 l4 e)
+  | condT {t t' : CST} (w : Lay) (c : CST) (l1 l2 l3 l4 : Lay) (e : CST) : Wrap t t' →
+      Wrap (.cond w c l1 l2 t l3 l4 e) (.cond w c l1 l2 t' l3 l4 e)
+  | condE {e e' : CST} (w : Lay) (c : CST) (l1 l2 : Lay) (t : CST) (l3 l4 : Lay) : Wrap e e' →
+      Wrap (.cond w c l1 l2 t l3 l4 e) (.cond w c l1 l2 t l3 l4 e')
+inductive WrapArgs : Args → Args → Prop
+  | last {a a' : CST} (sp : Bool) : Wrap a a' → WrapArgs (.last sp a) (.last sp a')
+  | consA {a a' : CST} (sp : Bool) (w l : Lay) (rest : Args) : Wrap a a' → WrapArgs (.cons sp a w l rest) (.cons sp a' w l rest)
+  | consR {rest rest' : Args} (sp : Bool) (a : CST) (w l : Lay) : WrapArgs rest rest' → WrapArgs (.cons sp a w l rest) (.cons sp a w l rest')
+end
 
-theorem wrap_facts {c c' : CST} (hw : Wrap c c') :
+/-- extra parentheses only remove operators from the top-level item sequence -/
+theorem wrap_infs : ∀ {c c' : CST}, Wrap c c' → ∀ rule, PItem.inf rule ∈ c'.items →
+    PItem.inf rule ∈ c.items
+  | _, _, .here a c b => by intro rule hm; simp [CST.items] at hm
+  | _, _, .binL op a b r hw => by
+    intro rule hm
+    simp only [CST.items, List.mem_append, List.mem_cons] at hm ⊢
+    rcases hm with hm | hm
+    · exact Or.inl (wrap_infs hw rule hm)
+    · exact Or.inr hm
+  | _, _, .binR op l a b hw => by
+    intro rule hm
+    simp only [CST.items, List.mem_append, List.mem_cons] at hm ⊢
+    rcases hm with hm | hm | hm
+    · exact Or.inl hm
+    · exact Or.inr (Or.inl hm)
+    · exact Or.inr (Or.inr (wrap_infs hw rule hm))
+  | _, _, .un op hw => by
+    intro rule hm
+    simp only [CST.items, List.mem_cons] at hm ⊢
+    rcases hm with hm | hm
+    · cases hm
+    · exact Or.inr (wrap_infs hw rule hm)
+  | _, _, .fact hw => by
+    intro rule hm
+    simp only [CST.items, List.mem_append, List.mem_singleton] at hm ⊢
+    rcases hm with hm | hm
+    · exact Or.inl (wrap_infs hw rule hm)
+    · cases hm
+  | _, _, .paren a b hw => by intro rule hm; simp [CST.items] at hm
+  | _, _, .call0 l hw => by
+    intro rule hm
+    simp only [CST.items, List.mem_append, List.mem_singleton] at hm ⊢
+    rcases hm with hm | hm
+    · exact Or.inl (wrap_infs hw rule hm)
+    · cases hm
+  | _, _, .callF l as c hw => by
+    intro rule hm
+    simp only [CST.items, List.mem_append, List.mem_singleton] at hm ⊢
+    rcases hm with hm | hm
+    · exact Or.inl (wrap_infs hw rule hm)
+    · cases hm
+  | _, _, .callA f l c hw => by
+    intro rule hm
+    simp only [CST.items, List.mem_append, List.mem_singleton] at hm ⊢
+    rcases hm with hm | hm
+    · exact Or.inl hm
+    · cases hm
+  | _, _, .accE a i b hw => by
+    intro rule hm
+    simp only [CST.items, List.mem_append, List.mem_singleton] at hm ⊢
+    rcases hm with hm | hm
+    · exact Or.inl (wrap_infs hw rule hm)
+    · cases hm
+  | _, _, .accI e a b hw => by
+    intro rule hm
+    simp only [CST.items, List.mem_append, List.mem_singleton] at hm ⊢
+    rcases hm with hm | hm
+    · exact Or.inl hm
+    · cases hm
+  | _, _, .dot n hw => by
+    intro rule hm
+    simp only [CST.items, List.mem_append, List.mem_singleton] at hm ⊢
+    rcases hm with hm | hm
+    · exact Or.inl (wrap_infs hw rule hm)
+    · cases hm
+  | _, _, .listA l c hw => by intro rule hm; simp [CST.items] at hm
+  | _, _, .lamB hd w l hw => by intro rule hm; simp [CST.items] at hm
+  | _, _, .condC w l1 l2 t l3 l4 e hw => by intro rule hm; simp [CST.items] at hm
+  | _, _, .condT w c l1 l2 l3 l4 e hw => by intro rule hm; simp [CST.items] at hm
+  | _, _, .condE w c l1 l2 t l3 l4 hw => by intro rule hm; simp [CST.items] at hm
+
+theorem wrap_lamSafe {c c' : CST} (hw : Wrap c c') (h : LamSafe c.items) : LamSafe c'.items :=
+  fun op hm => h op (wrap_infs hw _ hm)
+
+mutual
+theorem wrap_facts : ∀ {c c' : CST}, Wrap c c' →
     c'.tree = c.tree ∧ (c'.isParen = false → c.isParen = false) ∧ (c.Shaped → c'.Shaped) ∧
-      (c.LayoutOk → c'.LayoutOk) := by
-  induction hw with
-  | here a c b => exact ⟨rfl, fun h => by simp [CST.isParen] at h, fun h => h, fun h => h⟩
-  | binL op a b r _ ih =>
-    obtain ⟨i1, i2, i3, i4⟩ := ih
+      (c.LayoutOk → c'.LayoutOk)
+  | _, _, .here a c b => ⟨rfl, fun h => by simp [CST.isParen] at h, fun h => h, fun h => h⟩
+  | _, _, .binL op a b r hw => by
+    obtain ⟨i1, i2, i3, i4⟩ := wrap_facts hw
     refine ⟨by simp only [CST.tree, i1], fun _ => rfl, ?_, ?_⟩
     · rintro ⟨h1, h2, h3, h4⟩
       exact ⟨i3 h1, h2, fun hp => by rw [i1]; exact h3 (i2 hp), h4⟩
     · rintro ⟨h1, h2, h3⟩
       exact ⟨i4 h1, h2, h3⟩
-  | binR op l a b _ ih =>
-    obtain ⟨i1, i2, i3, i4⟩ := ih
+  | _, _, .binR op l a b hw => by
+    obtain ⟨i1, i2, i3, i4⟩ := wrap_facts hw
     refine ⟨by simp only [CST.tree, i1], fun _ => rfl, ?_, ?_⟩
     · rintro ⟨h1, h2, h3, h4⟩
       exact ⟨h1, i3 h2, h3, fun hp => by rw [i1]; exact h4 (i2 hp)⟩
     · rintro ⟨h1, h2, h3⟩
       exact ⟨h1, i4 h2, h3⟩
-  | un op _ ih =>
-    obtain ⟨i1, i2, i3, i4⟩ := ih
+  | _, _, .un op hw => by
+    obtain ⟨i1, i2, i3, i4⟩ := wrap_facts hw
     refine ⟨by simp only [CST.tree, i1], fun _ => rfl, ?_, i4⟩
     rintro ⟨h1, h2, h3⟩
     exact ⟨h1, i3 h2, fun hp => by rw [i1]; exact h3 (i2 hp)⟩
-  | fact _ ih =>
-    obtain ⟨i1, i2, i3, i4⟩ := ih
+  | _, _, .fact hw => by
+    obtain ⟨i1, i2, i3, i4⟩ := wrap_facts hw
     refine ⟨by simp only [CST.tree, i1], fun _ => rfl, ?_, i4⟩
     rintro ⟨h1, h2⟩
     exact ⟨i3 h1, fun hp => by rw [i1]; exact h2 (i2 hp)⟩
-  | paren a b _ ih =>
-    obtain ⟨i1, _, i3, i4⟩ := ih
+  | _, _, .paren a b hw => by
+    obtain ⟨i1, _, i3, i4⟩ := wrap_facts hw
     exact ⟨by simp only [CST.tree, i1], fun h => by simp [CST.isParen] at h, i3, i4⟩
+  | _, _, .call0 l hw => by
+    obtain ⟨i1, i2, i3, i4⟩ := wrap_facts hw
+    refine ⟨by simp only [CST.tree, i1], fun _ => rfl, ?_, i4⟩
+    rintro ⟨h1, h2⟩
+    exact ⟨i3 h1, fun hp => by rw [i1]; exact h2 (i2 hp)⟩
+  | _, _, .callF l as c hw => by
+    obtain ⟨i1, i2, i3, i4⟩ := wrap_facts hw
+    refine ⟨by simp only [CST.tree, i1], fun _ => rfl, ?_, ?_⟩
+    · rintro ⟨h1, h2, h3⟩
+      exact ⟨i3 h1, fun hp => by rw [i1]; exact h2 (i2 hp), h3⟩
+    · rintro ⟨h1, h2, h3⟩
+      exact ⟨i4 h1, h2, h3⟩
+  | _, _, .callA f l c hw => by
+    obtain ⟨j1, j2, j3⟩ := wrapArgs_facts hw
+    refine ⟨by simp only [CST.tree, j1], fun _ => rfl, ?_, ?_⟩
+    · rintro ⟨h1, h2, h3⟩
+      exact ⟨h1, h2, j2 h3⟩
+    · rintro ⟨h1, h2, h3⟩
+      exact ⟨h1, j3 h2, h3⟩
+  | _, _, .accE a i b hw => by
+    obtain ⟨i1, i2, i3, i4⟩ := wrap_facts hw
+    refine ⟨by simp only [CST.tree, i1], fun _ => rfl, ?_, ?_⟩
+    · rintro ⟨h1, h2, h3⟩
+      exact ⟨i3 h1, fun hp => by rw [i1]; exact h2 (i2 hp), h3⟩
+    · rintro ⟨h1, h2, h3⟩
+      exact ⟨i4 h1, h2, h3⟩
+  | _, _, .accI e a b hw => by
+    obtain ⟨i1, _, i3, i4⟩ := wrap_facts hw
+    refine ⟨by simp only [CST.tree, i1], fun _ => rfl, ?_, ?_⟩
+    · rintro ⟨h1, h2, h3⟩
+      exact ⟨h1, h2, i3 h3⟩
+    · rintro ⟨h1, h2, h3⟩
+      exact ⟨h1, i4 h2, h3⟩
+  | _, _, .dot n hw => by
+    obtain ⟨i1, i2, i3, i4⟩ := wrap_facts hw
+    refine ⟨by simp only [CST.tree, i1], fun _ => rfl, ?_, i4⟩
+    rintro ⟨h1, h2, h3⟩
+    exact ⟨i3 h1, fun hp => by rw [i1]; exact h2 (i2 hp), h3⟩
+  | _, _, .listA l c hw => by
+    obtain ⟨j1, j2, j3⟩ := wrapArgs_facts hw
+    refine ⟨by simp only [CST.tree, j1], fun _ => rfl, j2, ?_⟩
+    rintro ⟨h1, h2⟩
+    exact ⟨j3 h1, h2⟩
+  | _, _, .lamB hd w l hw => by
+    obtain ⟨i1, i2, i3, i4⟩ := wrap_facts hw
+    refine ⟨by simp only [CST.tree, i1], fun _ => rfl, ?_, ?_⟩
+    · rintro ⟨h1, h2, h3, h4⟩
+      refine ⟨h1, i3 h2, fun hp => by rw [i1]; exact h3 (i2 hp), ?_⟩
+      -- the items of the body: unchanged, or one primary
+      exact wrap_lamSafe hw h4
+    · rintro ⟨h1, h2, h3⟩
+      exact ⟨h1, h2, i4 h3⟩
+  | _, _, .condC w l1 l2 t l3 l4 e hw => by
+    obtain ⟨i1, _, i3, i4⟩ := wrap_facts hw
+    refine ⟨by simp only [CST.tree, i1], fun _ => rfl, ?_, ?_⟩
+    · rintro ⟨h1, h2, h3⟩; exact ⟨i3 h1, h2, h3⟩
+    · rintro ⟨h0, h1, h2, h3⟩; exact ⟨h0, i4 h1, h2, h3⟩
+  | _, _, .condT w c l1 l2 l3 l4 e hw => by
+    obtain ⟨i1, _, i3, i4⟩ := wrap_facts hw
+    refine ⟨by simp only [CST.tree, i1], fun _ => rfl, ?_, ?_⟩
+    · rintro ⟨h1, h2, h3⟩; exact ⟨h1, i3 h2, h3⟩
+    · rintro ⟨h0, h1, h2, h3⟩; exact ⟨h0, h1, i4 h2, h3⟩
+  | _, _, .condE w c l1 l2 t l3 l4 hw => by
+    obtain ⟨i1, _, i3, i4⟩ := wrap_facts hw
+    refine ⟨by simp only [CST.tree, i1], fun _ => rfl, ?_, ?_⟩
+    · rintro ⟨h1, h2, h3⟩; exact ⟨h1, h2, i3 h3⟩
+    · rintro ⟨h0, h1, h2, h3⟩; exact ⟨h0, h1, h2, i4 h3⟩
+theorem wrapArgs_facts : ∀ {as as' : Args}, WrapArgs as as' →
+    CST.argsTrees as' = CST.argsTrees as ∧ (CST.ArgsShaped as → CST.ArgsShaped as') ∧
+      (CST.ArgsLayoutOk as → CST.ArgsLayoutOk as')
+  | _, _, .last sp hw => by
+    obtain ⟨i1, _, i3, i4⟩ := wrap_facts hw
+    exact ⟨by simp only [CST.argsTrees, i1], i3, i4⟩
+  | _, _, .consA sp w l rest hw => by
+    obtain ⟨i1, _, i3, i4⟩ := wrap_facts hw
+    refine ⟨by simp only [CST.argsTrees, i1], ?_, ?_⟩
+    · rintro ⟨h1, h2⟩; exact ⟨i3 h1, h2⟩
+    · rintro ⟨h1, h2, h3⟩; exact ⟨i4 h1, h2, h3⟩
+  | _, _, .consR sp a w l hw => by
+    obtain ⟨j1, j2, j3⟩ := wrapArgs_facts hw
+    refine ⟨by simp only [CST.argsTrees, j1], ?_, ?_⟩
+    · rintro ⟨h1, h2⟩; exact ⟨h1, j2 h2⟩
+    · rintro ⟨h1, h2, h3⟩; exact ⟨h1, h2, j3 h3⟩
+end
 
 /-- any number of extra pairs of parentheses, one after the other, anywhere -/
 inductive Wraps : CST → CST → Prop
